@@ -1,4 +1,2904 @@
 import Bardolph.Model.Sem
-/-! # C04 — every repeat form runs the documented number of times (theorems below) -/
+import Bardolph.Model.Loader
+import Bardolph.Proofs.Loops
+/-!
+# C04 — every repeat form runs the documented number of times with the documented values
+
+Model pieces: `Gen.assembleLoop` and the prologues `Gen.calcCounter`, `Gen.calcIncr`,
+`Gen.indexVarRange`, `Gen.cycleVarRange`, `Gen.loopPost`, `Gen.counterTest` (what
+`loop_parser.py` emits), `Gen.patchBreaks` (the parser's back-patching of `break`), the VM
+(`LOOP`, `END_LOOP`, `JUMP`, the loop frame and its hidden variables) and `Sem.execLoop`,
+`Sem.execWhile`, `Sem.iterNames`.  Helpers: `Proofs/Loops.lean`.
+
+The loop theorems are *body-parametric*: the body is any marker-free instruction list `b` about
+which only a behavioural contract is assumed:
+
+* `BodyRun img b t u` — from `t` at the body's first instruction the VM reaches `u` just past the
+  body, still running, with the evaluation stack as it was and this loop's frame (same hidden
+  variables, same recorded height) on top.  Nothing is assumed about registers, variables,
+  lights, output or the frames below.  For loops with an index variable `v`, `BodyRunV` adds:
+  the body does not assign `v`, defines no macro `v`, keeps the scope well-formed (`ScopeOk`).
+* every loop theorem comes in a *chain form* (`…_chain`): the contract is assumed only for the
+  passes the loop actually makes (`Passes K enter post s ts s'`: `ts` lists the states in which
+  the body starts; between body runs only `enter`/`post` — explicit functions that touch `pc`,
+  `result`, the loop frame's counter and the index variable — act), and in a *universal form*
+  (`BodyOk`/`BodyOkV`: the contract from every state), in which the chain is shown to exist.
+
+Main theorems
+* 5  `C04_loop_closed`, `C04_genLoop_closed`, `C04_break_target`, `C04_inner_jumps_kept`,
+     `C04_trimEval`, `C04_break_exec`, `C04_break_innermost`
+* 1  `C04_count_loop_chain`, `C04_count_loop`, `C04_count_loop_literal`, `C04_count_loop_nat`,
+     `C04_count_loop_nonpos`; prologues `preRun_literal`, `preRun_var`, `preRun_expr`
+* 2  `C04_range_loop_chain` (bounds: literals, variables, registers), `C04_range_loop` (integers)
+* 3  `C04_series_closed_form`, `C04_series_binOp`; prologues `run_calcCounter`, `run_calcIncr`,
+     `run_cycleIncr`; `C04_interp_loop_chain`, `C04_interp_loop`, `C04_interp_last`,
+     `C04_cycle_loop_chain`, `C04_cycle_loop`, `C04_cycle_zero`
+* 4  `C04_while_loop` (against `Sem.execWhile` through `whilePasses`, `whilePasses_execWhile`)
+* 6  `C04_sortNames_sorted`, `C04_sortNames_perm`, `C04_lightNames`, `C04_groupNames`,
+     `C04_locationNames`, `C04_groupLights`, `C04_locationLights`, `C04_groupLights_nodup`,
+     `C04_prevName_sorted`, `C04_nextName_sorted`, `C04_iter_names_append`, `C04_iter_names_order`
+Not proved here (left to the differential check): that the discovery code `Gen.iterLights` /
+`iterSets` / `iterMembers` pushes exactly the names of `Sem.iterNames` (the `repeat all|group|
+location|in` prologues), and operands of the index-variable forms that are expressions or calls.
+-/
 namespace Bardolph
+open Vm VmSteps Gen Loops
+
+/-! ## 5. `break` leaves exactly the innermost loop -/
+
+/-- the instructions of generated code (markers dropped; an assembled loop has none) -/
+def unG : Code → List Instr
+  | [] => []
+  | .i x :: rest => x :: unG rest
+  | .brk :: rest => unG rest
+
+theorem ins_unG (c : Code) (h : ∀ g ∈ c, g ≠ G.brk) : ins (unG c) = c := by
+  induction c with
+  | nil => rfl
+  | cons g c ih =>
+    cases g with
+    | brk => exact absurd rfl (h G.brk (by simp))
+    | i x =>
+      simp only [unG, ins, List.map_cons]
+      congr 1
+      exact ih fun g hg => h g (by simp [hg])
+
+theorem unG_ins (xs : List Instr) : unG (ins xs) = xs := by
+  induction xs with
+  | nil => rfl
+  | cons x xs ih => simp only [ins, List.map_cons, unG] at ih ⊢; rw [ih]
+
+theorem assembleLoop_mem_ne_brk (pre test bodyPre : List Instr) (body : Code) (post : List Instr) :
+    ∀ g ∈ assembleLoop pre test bodyPre body post, g ≠ G.brk := by
+  intro g hg e
+  subst e
+  obtain ⟨k, hk⟩ := List.mem_iff_getElem?.1 hg
+  exact assembleLoop_no_brk pre test bodyPre body post k hk
+
+/-- **all markers are patched.**  Whatever the body, the code of an assembled loop consists of
+instructions only — in particular a loop nested in another loop's body offers no marker to
+the outer loop's `patchBreaks`: its `break`s are bound to itself. -/
+theorem C04_loop_closed (pre test bodyPre : List Instr) (body : Code) (post : List Instr) :
+    assembleLoop pre test bodyPre body post = ins (unG (assembleLoop pre test bodyPre body post)) :=
+  (ins_unG _ (assembleLoop_mem_ne_brk pre test bodyPre body post)).symm
+
+/-- every loop form is closed the same way -/
+theorem C04_genLoop_closed (h : LoopHdr) (body : Code) : ∀ g ∈ genLoop h body, g ≠ G.brk := by
+  cases h <;> simp only [genLoop] <;> exact assembleLoop_mem_ne_brk _ _ _ _ _
+
+theorem unG_getElem? (c : Code) (h : ∀ g ∈ c, g ≠ G.brk) (k : Nat) (x : Instr)
+    (hk : c[k]? = some (G.i x)) : (unG c)[k]? = some x := by
+  have := ins_unG c h
+  rw [← this] at hk
+  simp only [ins, List.getElem?_map] at hk
+  cases h' : (unG c)[k]? with
+  | none => simp [h'] at hk
+  | some y => simp [h'] at hk; rw [hk]
+
+/-- **break_target.**  In the code of ANY loop form (`assembleLoop` with any prologue, test,
+body prefix and post-step), a `break` marker of the body — at any nesting depth of `if`/`else`
+branches, at position `j` of the body — has become `JUMP ALWAYS d` with `d` the distance to
+this loop's `END_LOOP`, which is the last instruction of the loop's code. -/
+theorem C04_break_target (pre test bodyPre : List Instr) (body : Code) (post : List Instr) (j : Nat)
+    (hb : BrkAt body j) :
+    let code := unG (assembleLoop pre test bodyPre body post)
+    let at_ := bodyIdx pre test bodyPre + j
+    let end_ := endIdx pre test bodyPre body post
+    code[at_]? = some (.jump .always ((end_ : Int) - (at_ : Int))) ∧
+    code[end_]? = some .endLoop ∧ code.length = end_ + 1 := by
+  intro code at_ end_
+  have hno := assembleLoop_mem_ne_brk pre test bodyPre body post
+  refine ⟨?_, ?_, ?_⟩
+  · apply unG_getElem? _ hno
+    have := assembleLoop_body pre test bodyPre body post j hb.lt
+    rw [this]
+    have hlt := hb.lt
+    have hg : body[j] = G.brk := by
+      have := hb.get
+      rw [List.getElem?_eq_getElem hb.lt] at this
+      simpa using this
+    rw [hg]
+  · exact unG_getElem? _ hno _ _ (assembleLoop_endLoop pre test bodyPre body post)
+  · have := congrArg List.length (C04_loop_closed pre test bodyPre body post)
+    rw [ins_length, assembleLoop_length] at this
+    exact this.symm
+
+/-- instructions of the body — e.g. the already patched jumps of an inner loop — are left alone
+by the enclosing loop's patching -/
+theorem C04_inner_jumps_kept (pre test bodyPre : List Instr) (body : Code) (post : List Instr)
+    (j : Nat) (x : Instr) (hj : body[j]? = some (G.i x)) :
+    (unG (assembleLoop pre test bodyPre body post))[bodyIdx pre test bodyPre + j]? = some x := by
+  have hlt : j < body.length := by
+    cases h : body[j]? with
+    | none => simp [h] at hj
+    | some _ => exact (List.getElem?_eq_some_iff.1 h).1
+  apply unG_getElem? _ (assembleLoop_mem_ne_brk pre test bodyPre body post)
+  rw [assembleLoop_body pre test bodyPre body post j hlt]
+  rw [List.getElem?_eq_getElem hlt] at hj
+  simp only [Option.some.injEq] at hj
+  rw [hj]
+
+/-- `EvalStack.trim`: whatever was pushed since the loop was entered is dropped -/
+theorem C04_trimEval (extra base : List Val) (h : Nat) (hb : base.length = h) :
+    trimEval (extra ++ base) h = base := by
+  subst hb
+  simp [trimEval]
+
+/-- **break_exec.**  Executing the patched `break` and the `END_LOOP` it leads to, from a state
+whose innermost frame is this loop's, with ANYTHING on the evaluation stack: the loop frame is
+popped — the frames below, an enclosing loop's among them, are untouched — and the evaluation
+stack is cut back to the `h` values it held when this loop was entered. -/
+theorem C04_break_exec (img : Image) (s : State) (pc endPc : Nat) (d : Int)
+    (vars : List (LoopVar × Val)) (h : Nat) (rest : List Frame)
+    (hs : s.status = .running) (hpc : s.pc = (pc : Int))
+    (hj : img.code[pc]? = some (.jump .always d)) (hd : (pc : Int) + d = (endPc : Int))
+    (he : img.code[endPc]? = some .endLoop) (hst : s.stack = .loop vars h :: rest) :
+    run img 2 s = { s with pc := (endPc : Int) + 1, stack := rest, eval := trimEval s.eval h } := by
+  rw [show (2 : Nat) = 1 + 1 from rfl, run_add, run_one _ _ hs, step_jump_always img s pc d hs hpc hj,
+    run_one _ _ (by exact hs), hd,
+    step_endLoop img _ endPc vars h rest (by exact hs) (by rfl) he (by exact hst)]
+
+/-- **break_innermost.**  A `break` at position `j` of the body of any loop form, through any
+nesting of `if`s: from a state at that instruction whose innermost frame is this loop's and
+whose evaluation stack holds `extra` (say the names an inner loop over lights was still to
+visit — that inner loop has ended — or nothing) on top of the `h` values `base` present when
+the loop began (among them the pending names of an enclosing loop over lights), two steps
+later the machine is just past this loop's `END_LOOP`, the loop frame is gone, `rest` — the
+enclosing loop's frame with its counter and index — is intact, and the evaluation stack is
+exactly `base`. -/
+theorem C04_break_innermost (img : Image) (P0 : Nat) (pre test bodyPre : List Instr) (body : Code)
+    (post : List Instr) (j : Nat) (hb : BrkAt body j)
+    (hc : CodeAt img P0 (unG (assembleLoop pre test bodyPre body post)))
+    (s : State) (vars : List (LoopVar × Val)) (h : Nat) (rest : List Frame) (extra base : List Val)
+    (hs : s.status = .running)
+    (hpc : s.pc = ((P0 + (bodyIdx pre test bodyPre + j) : Nat) : Int))
+    (hst : s.stack = .loop vars h :: rest) (hev : s.eval = extra ++ base) (hbase : base.length = h) :
+    run img 2 s =
+      { s with pc := ((P0 + (unG (assembleLoop pre test bodyPre body post)).length : Nat) : Int),
+               stack := rest, eval := base } := by
+  obtain ⟨h1, h2, h3⟩ := C04_break_target pre test bodyPre body post j hb
+  have hlt1 : bodyIdx pre test bodyPre + j < (unG (assembleLoop pre test bodyPre body post)).length :=
+    (List.getElem?_eq_some_iff.1 h1).1
+  have hlt2 : endIdx pre test bodyPre body post < (unG (assembleLoop pre test bodyPre body post)).length :=
+    (List.getElem?_eq_some_iff.1 h2).1
+  have hj := hc _ hlt1
+  have he := hc _ hlt2
+  rw [← List.getElem?_eq_getElem hlt1, h1] at hj
+  rw [← List.getElem?_eq_getElem hlt2, h2] at he
+  rw [C04_break_exec img s _ (P0 + endIdx pre test bodyPre body post) _ vars h rest hs hpc hj
+    (by omega) he hst, hev, C04_trimEval extra base h hbase, h3]
+  apply State.ext' <;> simp
+  omega
+
+/-! ## loops seen from their top -/
+
+/-- **the body contract.**  `BodyRun img b t u`: started at the first instruction of the body
+`b` in state `t`, the VM reaches `u` just past the body, still running, with the evaluation
+stack as it was and this loop's frame — its hidden variables and recorded stack height — on
+top.  Nothing is assumed about registers, variables, lights, output, or the frames below
+(their dictionaries may change: the body may assign). -/
+structure BodyRun (img : Image) (b : List Instr) (t u : State) : Prop where
+  reach : ∃ k, run img k t = u
+  running : u.status = .running
+  pc : u.pc = t.pc + (b.length : Int)
+  eval : u.eval = t.eval
+  frame : ∀ vars h rest, t.stack = .loop vars h :: rest → ∃ rest', u.stack = .loop vars h :: rest'
+
+/-- a chain of passes: from the loop-top state `s`, pass after pass — `enter` is what the
+loop test does on success, `K` the body, `post` the post-step and back jump — to the loop-top
+state `s'` at which the loop ends; `ts` lists the states in which the body was started -/
+inductive Passes (K : State → State → Prop) (enter post : State → State) :
+    State → List State → State → Prop
+  | done (s : State) : Passes K enter post s [] s
+  | pass {s u s' : State} {ts : List State} : K (enter s) u → Passes K enter post (post u) ts s' →
+      Passes K enter post s (enter s :: ts) s'
+
+/-- the loop test succeeded: `result` is `True`, control is at the body -/
+def enterBody (bodyPc : Nat) (s : State) : State :=
+  { s with pc := (bodyPc : Int), regs := fun r => if r = .result then .bool true else s.regs r }
+
+/-- the loop test failed and `END_LOOP` ran: `result` is `False`, the loop frame is popped -/
+def exitLoop (afterPc : Nat) (s : State) : State :=
+  { s with pc := (afterPc : Int), regs := fun r => if r = .result then .bool false else s.regs r,
+           stack := s.stack.tail }
+
+/-- apply `f` to the hidden variables of the innermost loop frame -/
+def mapTop (f : List (LoopVar × Val) → List (LoopVar × Val)) : List Frame → List Frame
+  | .loop vars h :: rest => .loop (f vars) h :: rest
+  | st => st
+
+/-- `counter := counter - 1` -/
+def decCounter (vars : List (LoopVar × Val)) : List (LoopVar × Val) :=
+  setLV vars .counter ((Val.sub (getLV vars .counter) (.int 1)).getD .none)
+
+/-- the post-step of a counted loop without index variable, back at the loop top -/
+def countPost (topPc : Nat) (u : State) : State :=
+  { u with pc := (topPc : Int), stack := mapTop decCounter u.stack }
+
+theorem counterTest_eq : counterTest =
+    [Instr.push (.loopVar .counter), .pushq (.int 0), .op .gt] ++ [Instr.pop (.reg .result)] := rfl
+
+/-- the loop test of a counted loop: `result := counter > 0`, nothing else changes -/
+theorem run_counterTest (img : Image) (s : State) (top : Nat) (vars : List (LoopVar × Val)) (h : Nat)
+    (rest : List Frame) (c : Rat) (fl : Bool)
+    (hs : s.status = .running) (hpc : s.pc = (top : Int)) (hc : CodeAt img top counterTest)
+    (hst : s.stack = .loop vars h :: rest) (hn : Num (getLV vars .counter) c fl) :
+    run img 4 s =
+      { s with pc := (top : Int) + 4,
+               regs := fun r => if r = .result then .bool (decide (0 < c)) else s.regs r } := by
+  have hgt : binVal .gt (getLV vars .counter) (.int 0) = some (.bool (decide (0 < c))) := by
+    have := num_gt hn (Num.int 0)
+    show Val.cmp .gt _ _ = _
+    simpa using this
+  have := run_pf_reg img [Instr.push (.loopVar .counter), .pushq (.int 0), .op .gt] .result s top _
+    hs hpc (by rw [← counterTest_eq]; exact hc)
+    (pfRun3 s.read s.eval _ _ .gt _ _ _
+      (pfStep_push_lv s s.eval .counter _ (getLoopVar_eq hst _) hn.ne_none) (pfStep_pushq _ _ _) hgt)
+  simp only [List.length_cons, List.length_nil] at this
+  rw [this]
+  apply State.ext' <;> simp
+  omega
+
+
+/-- test succeeded: five steps from the loop top to the body -/
+theorem run_test_enter (img : Image) (s : State) (top n : Nat) (vars : List (LoopVar × Val)) (h : Nat)
+    (rest : List Frame) (c : Rat) (fl : Bool)
+    (hs : s.status = .running) (hpc : s.pc = (top : Int)) (hc : CodeAt img top counterTest)
+    (hj : img.code[top + 4]? = some (.jump .ifFalse ((n : Nat) + 2)))
+    (hst : s.stack = .loop vars h :: rest) (hn : Num (getLV vars .counter) c fl) (hpos : 0 < c) :
+    run img 5 s = enterBody (top + 5) s := by
+  rw [show (5 : Nat) = 4 + 1 from rfl, run_add, run_counterTest img s top vars h rest c fl hs hpc hc hst hn,
+    run_one _ _ (by exact hs),
+    step_jump_ifFalse img _ (top + 4) _ (by exact hs) (by simp) hj]
+  simp only [enterBody, hpos, decide_true, ite_true, Val.truthy]
+  apply State.ext' <;> simp
+  omega
+
+/-- test failed: six steps from the loop top to just past `END_LOOP` -/
+theorem run_test_exit (img : Image) (s : State) (top n : Nat) (vars : List (LoopVar × Val)) (h : Nat)
+    (rest : List Frame) (c : Rat) (fl : Bool)
+    (hs : s.status = .running) (hpc : s.pc = (top : Int)) (hc : CodeAt img top counterTest)
+    (hj : img.code[top + 4]? = some (.jump .ifFalse ((n : Nat) + 2)))
+    (he : img.code[top + 4 + n + 2]? = some .endLoop)
+    (hst : s.stack = .loop vars h :: rest) (hev : s.eval.length = h)
+    (hn : Num (getLV vars .counter) c fl) (hneg : c ≤ 0) :
+    run img 6 s = exitLoop (top + 4 + n + 2 + 1) s := by
+  have hd : decide (0 < c) = false := by
+    have : ¬ 0 < c := by grind
+    simp [this]
+  have h5 : run img 5 s =
+      { s with pc := ((top + 4 + n + 2 : Nat) : Int),
+               regs := fun r => if r = .result then .bool false else s.regs r } := by
+    rw [show (5 : Nat) = 4 + 1 from rfl, run_add,
+      run_counterTest img s top vars h rest c fl hs hpc hc hst hn,
+      run_one _ _ (by exact hs),
+      step_jump_ifFalse img _ (top + 4) _ (by exact hs) (by simp) hj]
+    simp only [hd, ite_true, Val.truthy, Bool.false_eq_true, ite_false]
+    apply State.ext' <;> simp
+    omega
+  rw [show (6 : Nat) = 5 + 1 from rfl, run_add, h5, run_one _ _ (by exact hs),
+    step_endLoop img _ (top + 4 + n + 2) vars h rest (by exact hs) (by rfl) he (by exact hst)]
+  simp only [exitLoop, hst, List.tail_cons, trimEval, ← hev]
+  apply State.ext' <;> simp
+
+theorem loopPost_none_eq : loopPost none =
+    [Instr.push (.loopVar .counter), .pushq (.int 1), .op .sub] ++ [Instr.pop (.loopVar .counter)] := rfl
+
+/-- post-step of a counted loop and the back jump: five steps from the end of the body to the
+loop top, the counter one less -/
+theorem run_post_none (img : Image) (u : State) (pc top : Nat) (vars : List (LoopVar × Val)) (h : Nat)
+    (rest : List Frame) (c : Rat) (fl : Bool)
+    (hs : u.status = .running) (hpc : u.pc = (pc : Int)) (hc : CodeAt img pc (loopPost none))
+    (off : Int) (hj : img.code[pc + 4]? = some (.jump .always off))
+    (hoff : ((pc + 4 : Nat) : Int) + off = (top : Int))
+    (hst : u.stack = .loop vars h :: rest) (hn : Num (getLV vars .counter) c fl) :
+    run img 5 u = countPost top u ∧
+      ∃ cv', (countPost top u).stack = .loop (setLV vars .counter cv') h :: rest ∧ Num cv' (c - 1) fl := by
+  obtain ⟨cv', hsub, hn'⟩ := num_dec hn
+  have hrun := run_pf_lv img [Instr.push (.loopVar .counter), .pushq (.int 1), .op .sub] .counter u pc cv'
+    vars h rest hs hpc (by rw [← loopPost_none_eq]; exact hc) hst
+    (pfRun3 u.read u.eval _ _ .sub _ _ _
+      (pfStep_push_lv u u.eval .counter _ (getLoopVar_eq hst _) hn.ne_none) (pfStep_pushq _ _ _)
+      (by show Val.sub _ _ = _; exact hsub))
+  simp only [List.length_cons, List.length_nil] at hrun
+  have hstk : (countPost top u).stack = .loop (setLV vars .counter cv') h :: rest := by
+    simp [countPost, hst, mapTop, decCounter, hsub]
+  refine ⟨?_, cv', hstk, hn'⟩
+  rw [show (5 : Nat) = 4 + 1 from rfl, run_add, hrun, run_one _ _ (by exact hs),
+    step_jump_always img _ (pc + 4) _ (by exact hs) (by simp; omega) hj]
+  apply State.ext' <;> simp [countPost, hst, mapTop, decCounter, hsub]
+  omega
+
+
+/-- **counted loop, from its top.**  `ts` are the body-start states of the passes made. -/
+theorem counted_loop_chain (img : Image) (top : Nat) (b : List Instr)
+    (hc : CodeAt img top (loopTail counterTest (b ++ loopPost none))) :
+    ∀ (s : State) (ts : List State) (s' : State),
+      Passes (BodyRun img b) (enterBody (top + 5)) (countPost top) s ts s' →
+      ∀ (vars : List (LoopVar × Val)) (h : Nat) (rest : List Frame) (c : Rat) (fl : Bool),
+        s.status = .running → s.pc = (top : Int) → s.stack = .loop vars h :: rest →
+        s.eval.length = h → Num (getLV vars .counter) c fl → ts.length = passes c →
+        (∃ k, run img k s = exitLoop (top + (loopTail counterTest (b ++ loopPost none)).length) s') ∧
+        s'.eval = s.eval ∧ s'.status = .running ∧ ∃ vars' rest', s'.stack = .loop vars' h :: rest' := by
+  obtain ⟨hT, hJ, hB, hP, hBk, hE⟩ := loopTail_parts hc
+  have hlen : (loopTail counterTest (b ++ loopPost none)).length = 4 + b.length + 4 + 2 + 1 := by
+    rw [loopTail_length]; simp [counterTest, testOp, loopPost]; omega
+  have hcl : counterTest.length = 4 := rfl
+  have hpl : (loopPost none).length = 4 := rfl
+  rw [hcl, hpl] at hJ hBk hE
+  rw [hcl] at hB hP
+  intro s ts s' hp
+  induction hp with
+  | done s =>
+    intro vars h rest c fl hs hpc hst hev hn hlen'
+    have hneg : c ≤ 0 := passes_zero_iff.1 (by simpa using hlen'.symm)
+    refine ⟨⟨6, ?_⟩, rfl, hs, vars, rest, hst⟩
+    rw [run_test_exit img s top (b.length + 4) vars h rest c fl hs hpc hT hJ
+      (by rw [← hE]; congr 1; omega) hst hev hn hneg, hlen]
+    congr 1; omega
+  | @pass s u s' ts hK hrest ih =>
+    intro vars h rest c fl hs hpc hst hev hn hlen'
+    have hpos : 0 < c := by
+      apply Classical.byContradiction
+      intro hc'
+      have : c ≤ 0 := by grind
+      rw [passes_nonpos this] at hlen'
+      simp at hlen'
+    have henter := run_test_enter img s top (b.length + 4) vars h rest c fl hs hpc hT hJ hst hn hpos
+    obtain ⟨⟨k1, hk1⟩, hur, hupc, huev, hufr⟩ := hK
+    obtain ⟨rest', hust⟩ := hufr vars h rest (by simpa [enterBody] using hst)
+    have hupc' : u.pc = ((top + 4 + 1 + b.length : Nat) : Int) := by
+      rw [hupc]; simp [enterBody]; omega
+    obtain ⟨hpost, cv', hpst, hn'⟩ := run_post_none img u (top + 4 + 1 + b.length) top vars h rest' c fl
+      hur hupc' hP _ (by rw [← hBk]) (by simp; omega) hust hn
+    have hgl : getLV (setLV vars .counter cv') .counter = cv' := getLV_setLV_self _ _ _
+    obtain ⟨⟨k2, hk2⟩, hev2, hs2, hfr2⟩ := ih (setLV vars .counter cv') h rest' (c - 1) fl
+      (by simpa [countPost] using hur) (by simp [countPost]) hpst
+      (by simp only [countPost]; rw [huev]; simpa [enterBody] using hev)
+      (by rw [hgl]; exact hn')
+      (by rw [passes_pos hpos] at hlen'; simpa using hlen')
+    refine ⟨⟨5 + k1 + 5 + k2, ?_⟩, ?_, hs2, hfr2⟩
+    · rw [run_add, run_add, run_add, henter, hk1, hpost, hk2]
+    · rw [hev2]; simp only [countPost]; rw [huev]; simp [enterBody]
+
+
+/-- the universal form of the body contract: from EVERY running state at the body's first
+instruction with a loop frame on top, the body runs to its end as `BodyRun` says.  (A body that
+can fault does not satisfy this; the `…_chain` theorems assume `BodyRun` only for the states
+the loop actually hands to the body.) -/
+def BodyOk (img : Image) (b : List Instr) : Prop :=
+  ∀ t : State, t.status = .running → (∃ pc : Nat, t.pc = (pc : Int) ∧ CodeAt img pc b) →
+    (∃ vars h rest, t.stack = .loop vars h :: rest) → ∃ u, BodyRun img b t u
+
+theorem count_chain_exists (img : Image) (top : Nat) (b : List Instr) (hB : CodeAt img (top + 5) b)
+    (hok : BodyOk img b) :
+    ∀ (p : Nat) (s : State) (vars : List (LoopVar × Val)) (h : Nat) (rest : List Frame),
+      s.status = .running → s.stack = .loop vars h :: rest →
+      ∃ ts s', Passes (BodyRun img b) (enterBody (top + 5)) (countPost top) s ts s' ∧ ts.length = p := by
+  intro p
+  induction p with
+  | zero => intro s vars h rest _ _; exact ⟨[], s, .done s, rfl⟩
+  | succ p ih =>
+    intro s vars h rest hs hst
+    obtain ⟨u, hu⟩ := hok (enterBody (top + 5) s) (by simpa [enterBody] using hs)
+      ⟨top + 5, by simp [enterBody], hB⟩ ⟨vars, h, rest, by simpa [enterBody] using hst⟩
+    obtain ⟨rest', hust⟩ := hu.frame vars h rest (by simpa [enterBody] using hst)
+    obtain ⟨ts, s', hp, hl⟩ := ih (countPost top u) (decCounter vars) h rest'
+      (by simpa [countPost] using hu.running) (by simp [countPost, hust, mapTop])
+    exact ⟨_ :: ts, s', .pass hu hp, by simp [hl]⟩
+
+/-- **the prologue contract** of a counted loop: run from the state `s0` just after `LOOP`, the
+prologue `pre` ends in `s1` with the loop frame on top, a number `n` in its hidden `counter`,
+and the evaluation stack as it was -/
+structure PreRun (img : Image) (pre : List Instr) (s0 s1 : State) (n : Rat) : Prop where
+  reach : ∃ k, run img k s0 = s1
+  running : s1.status = .running
+  pc : s1.pc = s0.pc + (pre.length : Int)
+  eval : s1.eval = s0.eval
+  frame : ∀ h rest, s0.stack = .loop [] h :: rest →
+    ∃ vars rest1 fl, s1.stack = .loop vars h :: rest1 ∧ Num (getLV vars .counter) n fl
+
+/-- the state after `LOOP` -/
+def afterLoop (s : State) : State :=
+  { s with pc := s.pc + 1, stack := .loop [] s.eval.length :: s.stack }
+
+/-- **count_loop (chain form).**  `repeat n` compiled with any prologue `pre` that leaves the
+number `n` in the hidden counter (`PreRun`) and any marker-free body `b`: if the body behaves
+(`BodyRun`) in each of the `passes n` passes the loop makes — `ts` are the states in which the
+passes start, `s'` the loop-top state after the last — then the VM, started at the `LOOP`
+instruction, reaches the instruction after `END_LOOP` in the state `exitLoop … s'`: `s'` with
+the loop frame popped and `result = False`.  The evaluation stack is what it was before the
+loop.  All that the loop's own code did between the body runs is `enterBody` (set `result`) and
+`countPost` (decrease the hidden counter): whatever is observable — trace, lights, registers
+other than `result`, variables — is what the `passes n` consecutive body runs made it.  The
+count is read once, by `pre`; nothing the body does to variables changes `passes n`. -/
+theorem C04_count_loop_chain (img : Image) (P0 : Nat) (pre b : List Instr)
+    (hc : CodeAt img P0 (loopCode pre counterTest (b ++ loopPost none)))
+    (s s1 : State) (n : Rat) (hs : s.status = .running) (hpc : s.pc = (P0 : Int))
+    (hpre : PreRun img pre (afterLoop s) s1 n) (ts : List State) (s' : State)
+    (hp : Passes (BodyRun img b) (enterBody (P0 + 1 + pre.length + 5)) (countPost (P0 + 1 + pre.length))
+      s1 ts s')
+    (hlen : ts.length = passes n) :
+    (∃ k, run img k s =
+      exitLoop (P0 + (loopCode pre counterTest (b ++ loopPost none)).length) s') ∧
+    (exitLoop (P0 + (loopCode pre counterTest (b ++ loopPost none)).length) s').eval = s.eval ∧
+    ∃ vars' rest', s'.stack = .loop vars' s.eval.length :: rest' := by
+  rw [loopCode_eq] at hc
+  have hL : img.code[P0]? = some .loop := by
+    have := hc.left.left.head; simpa using this
+  have hTail : CodeAt img (P0 + 1 + pre.length) (loopTail counterTest (b ++ loopPost none)) := by
+    have := hc.right
+    have e : P0 + ([Instr.loop] ++ pre).length = P0 + 1 + pre.length := by simp; omega
+    rw [e] at this
+    exact this
+  have h1 : run img 1 s = afterLoop s := by
+    rw [run_one _ _ hs, step_loop img s P0 hs hpc hL]
+    simp [afterLoop, hpc]
+  obtain ⟨⟨k1, hk1⟩, hr1, hpc1, hev1, hfr1⟩ := hpre
+  obtain ⟨vars, rest1, fl, hst1, hn⟩ := hfr1 s.eval.length s.stack rfl
+  obtain ⟨⟨k2, hk2⟩, hev2, hs2, hfr2⟩ := counted_loop_chain img (P0 + 1 + pre.length) b hTail s1 ts s' hp
+    vars s.eval.length rest1 n fl hr1 (by rw [hpc1]; simp [afterLoop, hpc]) hst1
+    (by rw [hev1]; rfl) hn hlen
+  have hlen2 : (loopCode pre counterTest (b ++ loopPost none)).length =
+      1 + pre.length + (loopTail counterTest (b ++ loopPost none)).length := by
+    rw [loopCode_eq]; simp; omega
+  refine ⟨⟨1 + k1 + k2, ?_⟩, ?_, hfr2⟩
+  · rw [run_add, run_add, h1, hk1, hk2, hlen2]
+    congr 1; omega
+  · simp only [exitLoop]; rw [hev2, hev1]; rfl
+
+
+theorem assembled_counted (pre b post : List Instr) :
+    unG (assembleLoop pre counterTest [] (ins b) post) = loopCode pre counterTest (b ++ post) := by
+  rw [assembleLoop_ins, unG_ins]; simp
+
+theorem assembled_length (pre b post : List Instr) :
+    (unG (assembleLoop pre counterTest [] (ins b) post)).length = pre.length + b.length + post.length + 8 := by
+  rw [assembled_counted, loopCode_eq]
+  simp [loopTail, counterTest, testOp]; omega
+
+/-- **count_loop.**  The code of `repeat n` with a body that satisfies the body contract from
+every state (`BodyOk`): started at its `LOOP`, the VM makes exactly `passes n` passes — none
+when `n ≤ 0`, `⌈n⌉` otherwise — and ends just past `END_LOOP`, loop frame popped, evaluation
+stack restored; see `C04_count_loop_chain` for what the chain `Passes` says. -/
+theorem C04_count_loop (img : Image) (P0 : Nat) (pre b : List Instr)
+    (hc : CodeAt img P0 (unG (assembleLoop pre counterTest [] (ins b) (loopPost none))))
+    (s s1 : State) (n : Rat) (hs : s.status = .running) (hpc : s.pc = (P0 : Int))
+    (hpre : PreRun img pre (afterLoop s) s1 n) (hok : BodyOk img b) :
+    ∃ ts s', Passes (BodyRun img b) (enterBody (P0 + 1 + pre.length + 5))
+        (countPost (P0 + 1 + pre.length)) s1 ts s' ∧
+      ts.length = passes n ∧
+      (∃ k, run img k s =
+        exitLoop (P0 + (unG (assembleLoop pre counterTest [] (ins b) (loopPost none))).length) s') ∧
+      (exitLoop (P0 + (unG (assembleLoop pre counterTest [] (ins b) (loopPost none))).length) s').eval
+        = s.eval ∧
+      ∃ vars' rest', s'.stack = .loop vars' s.eval.length :: rest' := by
+  rw [assembled_counted] at hc ⊢
+  obtain ⟨vars, rest1, fl, hst1, hn⟩ := hpre.frame s.eval.length s.stack rfl
+  have hB : CodeAt img (P0 + 1 + pre.length + 5) b := by
+    rw [loopCode_eq] at hc
+    have := hc.right
+    have e : P0 + ([Instr.loop] ++ pre).length = P0 + 1 + pre.length := by simp; omega
+    rw [e] at this
+    exact (loopTail_parts this).2.2.1
+  obtain ⟨ts, s', hp, hl⟩ := count_chain_exists img (P0 + 1 + pre.length) b hB hok (passes n) s1 vars
+    s.eval.length rest1 hpre.running hst1
+  exact ⟨ts, s', hp, hl, C04_count_loop_chain img P0 pre b hc s s1 n hs hpc hpre ts s' hp hl⟩
+
+/-- a non-negative integer count `n` gives exactly `n` passes -/
+theorem C04_count_loop_nat (n : Nat) : passes (n : Rat) = n := passes_natCast n
+
+/-- a count that is zero or negative gives no pass -/
+theorem C04_count_loop_nonpos (n : Rat) (h : n ≤ 0) : passes n = 0 := passes_nonpos h
+
+/-- prologue of `repeat <literal>`: one `MOVEQ` into the hidden counter -/
+theorem preRun_literal (img : Image) (s0 : State) (pc h : Nat) (rest : List Frame) (v : Val) (n : Rat)
+    (fl : Bool) (hs : s0.status = .running) (hpc : s0.pc = (pc : Int))
+    (hc : CodeAt img pc (genRv (.lit v) (.to counter))) (hst : s0.stack = .loop [] h :: rest)
+    (hv : Num v n fl) :
+    PreRun img (genRv (.lit v) (.to counter)) s0
+      { s0 with pc := s0.pc + 1, stack := .loop [(.counter, v)] h :: rest } n := by
+  have hput : s0.put counter v = { s0 with stack := .loop [(.counter, v)] h :: rest } := by
+    simp only [counter, State.put, putLoopVar_eq hst]; rfl
+  have hc' : CodeAt img pc [Instr.moveq v counter] := by simpa [genRv] using hc
+  refine ⟨⟨1, ?_⟩, hs, by simp [genRv], rfl, ?_⟩
+  · rw [run_one _ _ hs, step_moveq img s0 pc v counter hs hpc hc'.head (by simp [counter])
+      (by rw [hput]; exact hs), hput]
+  · intro h' rest' hst'
+    rw [hst] at hst'
+    simp only [List.cons.injEq, Frame.loop.injEq, true_and] at hst'
+    obtain ⟨rfl, rfl⟩ := hst'
+    exact ⟨_, _, fl, rfl, by simpa [getLV_cons] using hv⟩
+
+/-- prologue of `repeat <variable>`: the variable is read ONCE, here -/
+theorem preRun_var (img : Image) (s0 : State) (pc h : Nat) (rest : List Frame) (x : String) (n : Rat)
+    (fl : Bool) (hs : s0.status = .running) (hpc : s0.pc = (pc : Int))
+    (hc : CodeAt img pc (genRv (.var x) (.to counter))) (hst : s0.stack = .loop [] h :: rest)
+    (hv : Num (s0.getVariable x) n fl) :
+    PreRun img (genRv (.var x) (.to counter)) s0
+      { s0 with pc := s0.pc + 1, stack := .loop [(.counter, s0.getVariable x)] h :: rest } n := by
+  have hput : s0.put counter (s0.read (.var x)) =
+      { s0 with stack := .loop [(.counter, s0.getVariable x)] h :: rest } := by
+    simp only [counter, State.put, putLoopVar_eq hst, State.read]; rfl
+  have hc' : CodeAt img pc [Instr.move (.var x) counter] := by simpa [genRv] using hc
+  refine ⟨⟨1, ?_⟩, hs, by simp [genRv], rfl, ?_⟩
+  · rw [run_one _ _ hs, step_move img s0 pc (.var x) counter hs hpc hc'.head
+      (by rw [hput]; exact hs), hput]
+  · intro h' rest' hst'
+    rw [hst] at hst'
+    simp only [List.cons.injEq, Frame.loop.injEq, true_and] at hst'
+    obtain ⟨rfl, rfl⟩ := hst'
+    exact ⟨_, _, fl, rfl, by simpa [getLV_cons] using hv⟩
+
+
+/-! ### what the loop's own code leaves alone -/
+
+theorem Passes.mono {K K' : State → State → Prop} {enter post : State → State}
+    (h : ∀ t u, K t u → K' t u) {s s' : State} {ts : List State}
+    (hp : Passes K enter post s ts s') : Passes K' enter post s ts s' := by
+  induction hp with
+  | done s => exact .done s
+  | pass hk _ ih => exact .pass (h _ _ hk) ih
+
+theorem mapTop_tail (f : List (LoopVar × Val) → List (LoopVar × Val)) (st : List Frame) :
+    (mapTop f st).tail = st.tail := by
+  cases st with
+  | nil => rfl
+  | cons fr rest => cases fr <;> rfl
+
+/-- between the body runs a counted loop touches only `pc`, `result` and its own frame's
+counter: in particular the trace, the lights, the variables and every other register are
+what the body runs made them -/
+theorem enterBody_fields (p : Nat) (s : State) :
+    (enterBody p s).trace = s.trace ∧ (enterBody p s).lights = s.lights ∧
+    (enterBody p s).globals = s.globals ∧ (enterBody p s).stack = s.stack ∧
+    (enterBody p s).eval = s.eval ∧ (enterBody p s).unnamed = s.unnamed ∧
+    ∀ r, r ≠ .result → (enterBody p s).regs r = s.regs r :=
+  ⟨rfl, rfl, rfl, rfl, rfl, rfl, fun r hr => by simp [enterBody, hr]⟩
+
+theorem countPost_fields (p : Nat) (u : State) :
+    (countPost p u).trace = u.trace ∧ (countPost p u).lights = u.lights ∧
+    (countPost p u).globals = u.globals ∧ (countPost p u).stack.tail = u.stack.tail ∧
+    (countPost p u).eval = u.eval ∧ (countPost p u).unnamed = u.unnamed ∧
+    (countPost p u).regs = u.regs :=
+  ⟨rfl, rfl, rfl, mapTop_tail _ _, rfl, rfl, rfl⟩
+
+theorem exitLoop_fields (p : Nat) (s : State) :
+    (exitLoop p s).trace = s.trace ∧ (exitLoop p s).lights = s.lights ∧
+    (exitLoop p s).globals = s.globals ∧ (exitLoop p s).stack = s.stack.tail ∧
+    (exitLoop p s).eval = s.eval ∧ (exitLoop p s).unnamed = s.unnamed ∧
+    ∀ r, r ≠ .result → (exitLoop p s).regs r = s.regs r :=
+  ⟨rfl, rfl, rfl, rfl, rfl, rfl, fun r hr => by simp [exitLoop, hr]⟩
+
+/-- a counted loop whose body leaves the frames below the loop frame as they are ends with the
+stack it started with -/
+theorem Passes.tail_stack {K : State → State → Prop} (p q : Nat)
+    (hK : ∀ t u, K t u → u.stack.tail = t.stack.tail) {s s' : State} {ts : List State}
+    (hp : Passes K (enterBody p) (countPost q) s ts s') : s'.stack.tail = s.stack.tail := by
+  induction hp with
+  | done s => rfl
+  | @pass s u s' ts hk _ ih =>
+    rw [ih, (countPost_fields q u).2.2.2.1, hK _ _ hk]; rfl
+
+
+theorem count_chain_exists' (img : Image) (top : Nat) (b : List Instr) (K : State → State → Prop)
+    (hKB : ∀ t u, K t u → BodyRun img b t u) (hB : CodeAt img (top + 5) b)
+    (hok : ∀ t : State, t.status = .running → (∃ pc : Nat, t.pc = (pc : Int) ∧ CodeAt img pc b) →
+      (∃ vars h rest, t.stack = .loop vars h :: rest) → ∃ u, K t u) :
+    ∀ (p : Nat) (s : State) (vars : List (LoopVar × Val)) (h : Nat) (rest : List Frame),
+      s.status = .running → s.stack = .loop vars h :: rest →
+      ∃ ts s', Passes K (enterBody (top + 5)) (countPost top) s ts s' ∧ ts.length = p := by
+  intro p
+  induction p with
+  | zero => intro s vars h rest _ _; exact ⟨[], s, .done s, rfl⟩
+  | succ p ih =>
+    intro s vars h rest hs hst
+    obtain ⟨u, hu⟩ := hok (enterBody (top + 5) s) (by simpa [enterBody] using hs)
+      ⟨top + 5, by simp [enterBody], hB⟩ ⟨vars, h, rest, by simpa [enterBody] using hst⟩
+    have hb := hKB _ _ hu
+    obtain ⟨rest', hust⟩ := hb.frame vars h rest (by simpa [enterBody] using hst)
+    obtain ⟨ts, s', hp, hl⟩ := ih (countPost top u) (decCounter vars) h rest'
+      (by simpa [countPost] using hb.running) (by simp [countPost, hust, mapTop])
+    exact ⟨_ :: ts, s', .pass hu hp, by simp [hl]⟩
+
+/-- **count_loop, literal count, frames below untouched.**  `repeat <number>` around a body that
+from every state runs to its end as `BodyRun` says and leaves the frames below the loop frame as
+they are: exactly `passes n` body runs (`n` itself for a natural number), then control is just
+past `END_LOOP` with the stack and the evaluation stack exactly as before the loop. -/
+theorem C04_count_loop_literal (img : Image) (P0 : Nat) (b : List Instr) (nv : Val) (n : Rat) (fl : Bool)
+    (hnv : Num nv n fl)
+    (hc : CodeAt img P0 (unG (assembleLoop (genRv (.lit nv) (.to counter)) counterTest [] (ins b)
+      (loopPost none))))
+    (s : State) (hs : s.status = .running) (hpc : s.pc = (P0 : Int))
+    (hok : ∀ t : State, t.status = .running → (∃ pc : Nat, t.pc = (pc : Int) ∧ CodeAt img pc b) →
+      (∃ vars h rest, t.stack = .loop vars h :: rest) →
+      ∃ u, BodyRun img b t u ∧ u.stack.tail = t.stack.tail) :
+    ∃ (ts : List State) (s' : State) (k : Nat),
+      ts.length = passes n ∧ run img k s = exitLoop (P0 + (b.length + 13)) s' ∧
+      (exitLoop (P0 + (b.length + 13)) s').stack = s.stack ∧
+      (exitLoop (P0 + (b.length + 13)) s').eval = s.eval ∧
+      ∃ s1, Passes (fun t u => BodyRun img b t u ∧ u.stack.tail = t.stack.tail)
+        (enterBody (P0 + 1 + 1 + 5)) (countPost (P0 + 1 + 1)) s1 ts s' := by
+  have hlen : (unG (assembleLoop (genRv (.lit nv) (.to counter)) counterTest [] (ins b)
+      (loopPost none))).length = b.length + 13 := by
+    rw [assembled_length]; simp [genRv, loopPost]; omega
+  have hc0 := hc
+  rw [assembled_counted] at hc
+  obtain ⟨_, hPre, hT, _⟩ := loopCode_parts hc
+  have hpl : (genRv (.lit nv) (.to counter)).length = 1 := by simp [genRv]
+  rw [hpl] at hT
+  let s1 : State :=
+    { afterLoop s with pc := (afterLoop s).pc + 1,
+                       stack := .loop [(.counter, nv)] s.eval.length :: s.stack }
+  have hpre : PreRun img (genRv (.lit nv) (.to counter)) (afterLoop s) s1 n :=
+    preRun_literal img (afterLoop s) (P0 + 1) s.eval.length s.stack nv n fl (by exact hs)
+    (by simp [afterLoop, hpc]) hPre rfl hnv
+  have hB : CodeAt img (P0 + 1 + 1 + 5) b := (loopTail_parts hT).2.2.1
+  obtain ⟨ts, s', hp, hl⟩ := count_chain_exists' img (P0 + 1 + 1) b
+    (fun t u => BodyRun img b t u ∧ u.stack.tail = t.stack.tail) (fun _ _ h => h.1) hB hok (passes n) s1
+    [(.counter, nv)] s.eval.length s.stack (by exact hs) rfl
+  have hp' := Passes.mono (K' := BodyRun img b) (fun _ _ h => h.1) hp
+  obtain ⟨⟨k, hk⟩, hev, _⟩ := C04_count_loop_chain img P0 _ b hc s s1 n hs hpc hpre ts s'
+    (by rw [hpl]; exact hp') hl
+  rw [assembled_counted] at hlen
+  rw [hlen] at hk hev
+  refine ⟨ts, s', k, hl, hk, ?_, hev, s1, hp⟩
+  rw [(exitLoop_fields _ s').2.2.2.1, Passes.tail_stack _ _ (fun _ _ h => h.2) hp]
+  rfl
+
+
+section ExprCount
+open Sem
+
+/-- prologue of `repeat {e}` for a call-free expression `e` whose source-level value is the
+number `n`: by `C02_same_value_everywhere` the code `⟦e⟧; POP counter` leaves that value in
+the hidden counter — evaluated once, here -/
+theorem preRun_expr (img : Image) (s0 : State) (pc h : Nat) (rest : List Frame) (e : Expr)
+    (he : CallFree e) (fuel : Nat) (σ σ' : S) (x : Val) (n : Rat) (fl : Bool)
+    (hs : s0.status = .running) (hpc : s0.pc = (pc : Int))
+    (hc : CodeAt img pc (genRv (.expr e) (.to counter))) (hst : s0.stack = .loop [] h :: rest)
+    (henv : SameEnv σ s0) (hev : evalExpr fuel e σ = .ok (x, σ')) (hv : Num x n fl) :
+    PreRun img (genRv (.expr e) (.to counter)) s0
+      { s0 with pc := s0.pc + ((genRv (.expr e) (.to counter)).length : Int),
+                stack := .loop [(.counter, x)] h :: rest } n := by
+  obtain ⟨hrun, _, _⟩ := C02_same_value_everywhere img e he counter fuel σ σ' x s0 pc hs hpc hc henv hev
+  have hst' : ({ s0 with pc := (pc : Int) + (genExpr e).length } : State).stack = .loop [] h :: rest := hst
+  have hput : ({ s0 with pc := (pc : Int) + (genExpr e).length } : State).put counter x =
+      { s0 with pc := (pc : Int) + (genExpr e).length, stack := .loop [(.counter, x)] h :: rest } := by
+    simp only [counter, State.put, putLoopVar_eq hst']; rfl
+  have hrun' : run img (genRv (.expr e) (.to counter)).length s0 =
+      { s0 with pc := s0.pc + ((genRv (.expr e) (.to counter)).length : Int),
+                stack := .loop [(.counter, x)] h :: rest } := by
+    rw [hrun]
+    simp only [hput]
+    rw [if_pos (by exact hs)]
+    apply State.ext' <;> first | rfl | (simp [genRv, hpc]; omega)
+  refine ⟨⟨_, hrun'⟩, hs, rfl, rfl, ?_⟩
+  intro h' rest' hst2
+  rw [hst] at hst2
+  simp only [List.cons.injEq, Frame.loop.injEq, true_and] at hst2
+  obtain ⟨rfl, rfl⟩ := hst2
+  exact ⟨[(.counter, x)], rest, fl, rfl, by simpa [getLV_cons] using hv⟩
+
+end ExprCount
+
+/-! ## loops with an index variable -/
+
+/-- `x + incr` as the VM computes it (`None` if it would fault) -/
+def addVal (x incr : Val) : Val := (Val.add x incr).getD .none
+
+/-- the index variable after `k` post-steps: `incr` added `k` times, one addition at a time,
+with Python's int/float typing at each addition -/
+def addN (x incr : Val) : Nat → Val
+  | 0 => x
+  | k + 1 => addVal (addN x incr k) incr
+
+theorem addN_succ' (x incr : Val) (k : Nat) : addN x incr (k + 1) = addN (addVal x incr) incr k := by
+  induction k with
+  | zero => rfl
+  | succ k ih => rw [addN, ih]; rfl
+
+/-- the post-step of a counted loop with index variable `v`, back at the loop top:
+`counter := counter - 1; v := v + incr` -/
+def varPost (topPc : Nat) (v : String) (u : State) : State :=
+  { ({ u with stack := mapTop decCounter u.stack } : State).putVariable v
+      (addVal (u.getVariable v) (u.getLoopVar .incr)) with pc := (topPc : Int) }
+
+theorem loopPost_some_eq (v : String) : loopPost (some v) =
+    ([Instr.push (.loopVar .counter), .pushq (.int 1), .op .sub] ++ [Instr.pop (.loopVar .counter)]) ++
+    ([Instr.push (.var v), .push (.loopVar .incr), .op .add] ++ [Instr.pop (.var v)]) := rfl
+
+/-- post-step with index variable and the back jump: nine steps -/
+theorem run_post_some (img : Image) (u : State) (pc top : Nat) (v : String)
+    (vars : List (LoopVar × Val)) (h : Nat)
+    (rest : List Frame) (c : Rat) (fl : Bool) (x d : Rat) (fx fd : Bool)
+    (hs : u.status = .running) (hpc : u.pc = (pc : Int)) (hc : CodeAt img pc (loopPost (some v)))
+    (off : Int) (hj : img.code[pc + 8]? = some (.jump .always off))
+    (hoff : ((pc + 8 : Nat) : Int) + off = (top : Int))
+    (hst : u.stack = .loop vars h :: rest) (hn : Num (getLV vars .counter) c fl)
+    (hx : Num (u.getVariable v) x fx) (hd : Num (getLV vars .incr) d fd) :
+    run img 9 u = varPost top v u ∧
+      ∃ cv', ({ u with stack := mapTop decCounter u.stack } : State).stack =
+          .loop (setLV vars .counter cv') h :: rest ∧ Num cv' (c - 1) fl ∧
+        getLV (setLV vars .counter cv') .incr = getLV vars .incr := by
+  have hc1 : CodeAt img pc [Instr.push (.loopVar .counter), .pushq (.int 1), .op .sub,
+      .pop (.loopVar .counter)] := by
+    rw [loopPost_some_eq] at hc; exact hc.left
+  have hc2 : CodeAt img (pc + 4) [Instr.push (.var v), .push (.loopVar .incr), .op .add,
+      .pop (.var v)] := by
+    rw [loopPost_some_eq] at hc; exact hc.right
+  obtain ⟨cv', hsub, hn'⟩ := num_dec hn
+  let u1 : State := { u with pc := (pc : Int) + 4, stack := .loop (setLV vars .counter cv') h :: rest }
+  have hrun1 : run img 4 u = u1 :=
+    run_group_lv img _ _ .sub .counter u pc _ _ cv' vars h rest hs hpc hc1 hst
+      (pfStep_push_lv u u.eval .counter _ (getLoopVar_eq hst _) hn.ne_none) (pfStep_pushq _ _ _)
+      (by show Val.sub _ _ = _; exact hsub)
+  have hinc : getLV (setLV vars .counter cv') .incr = getLV vars .incr :=
+    getLV_setLV_other _ _ _ _ (by simp)
+  have hstk : ({ u with stack := mapTop decCounter u.stack } : State).stack =
+      .loop (setLV vars .counter cv') h :: rest := by
+    simp [hst, mapTop, decCounter, hsub]
+  refine ⟨?_, cv', hstk, hn', hinc⟩
+  have hst1 : u1.stack = .loop (setLV vars .counter cv') h :: rest := rfl
+  have hgv : u1.getVariable v = u.getVariable v :=
+    getVariable_retop u u1 vars _ h h rest v hst hst1 rfl rfl
+  obtain ⟨hadd, _⟩ := num_add hx hd
+  have hrun2 : run img 4 u1 =
+      { u1.putVariable v (addVal (u.getVariable v) (getLV vars .incr)) with pc := ((pc + 4 : Nat) : Int) + 4 } :=
+    run_group_var img _ _ .add v u1 (pc + 4) _ _ _ (by exact hs) (by simp [u1]) hc2
+      (pfStep_push_var u1 u1.eval v _ hgv hx.ne_none)
+      (pfStep_push_lv u1 _ .incr _ (by rw [getLoopVar_eq hst1, hinc]) hd.ne_none)
+      (by show Val.add _ _ = _; rw [hadd]; simp [addVal, hadd])
+  have hrun3 : run img 1 { u1.putVariable v (addVal (u.getVariable v) (getLV vars .incr)) with
+      pc := ((pc + 4 : Nat) : Int) + 4 } = varPost top v u := by
+    rw [run_one _ _ (by simpa [putVariable_status] using hs),
+      step_jump_always img _ (pc + 8) _ (by simpa [putVariable_status] using hs) (by simp; omega) hj]
+    simp only [varPost, getLoopVar_eq hst]
+    have e : ({ u with stack := mapTop decCounter u.stack } : State) = { u1 with pc := u.pc } := by
+      simp only [u1]
+      apply State.ext' <;> simp [hst, mapTop, decCounter, hsub]
+    rw [e, putVariable_with_pc]
+    apply State.ext' <;> simp
+    omega
+  exact run_trans hrun1 (run_trans hrun2 hrun3)
+
+
+theorem putVariable_trace (s : State) (n : String) (v : Val) :
+    (s.putVariable n v).trace = s.trace ∧ (s.putVariable n v).lights = s.lights ∧
+    (s.putVariable n v).regs = s.regs ∧ (s.putVariable n v).unnamed = s.unnamed := by
+  unfold State.putVariable
+  repeat' split
+  all_goals exact ⟨rfl, rfl, rfl, rfl⟩
+
+theorem varPost_fields (p : Nat) (v : String) (u : State) :
+    (varPost p v u).trace = u.trace ∧ (varPost p v u).lights = u.lights ∧
+    (varPost p v u).eval = u.eval ∧ (varPost p v u).unnamed = u.unnamed ∧
+    (varPost p v u).regs = u.regs := by
+  have h := putVariable_trace ({ u with stack := mapTop decCounter u.stack } : State) v
+    (addVal (u.getVariable v) (u.getLoopVar .incr))
+  exact ⟨h.1, h.2.1, putVariable_eval _ _ _, h.2.2.2, h.2.2.1⟩
+
+
+/-- **the body contract of a loop with index variable `v`**: `BodyRun`, and the body does not
+assign `v` (what `v` denotes is the same after the body), defines no macro called `v`, and
+leaves the frames below the loop frame in a shape in which names resolve (`ScopeOk`) -/
+structure BodyRunV (img : Image) (b : List Instr) (v : String) (t u : State) : Prop
+    extends BodyRun img b t u where
+  keeps : u.getVariable v = t.getVariable v
+  const : u.constants.get v = none
+  scope : ScopeOk u.stack
+
+theorem loopPost_some_length (v : String) : (loopPost (some v)).length = 8 := rfl
+
+/-- **counted loop with index variable, from its top.** -/
+theorem counted_var_loop_chain (img : Image) (top : Nat) (b : List Instr) (v : String)
+    (hc : CodeAt img top (loopTail counterTest (b ++ loopPost (some v)))) :
+    ∀ (s : State) (ts : List State) (s' : State),
+      Passes (BodyRunV img b v) (enterBody (top + 5)) (varPost top v) s ts s' →
+      ∀ (vars : List (LoopVar × Val)) (h : Nat) (rest : List Frame) (c : Rat) (fl : Bool)
+        (x : Rat) (fx : Bool) (d : Rat) (fd : Bool),
+        s.status = .running → s.pc = (top : Int) → s.stack = .loop vars h :: rest →
+        s.eval.length = h → Num (getLV vars .counter) c fl → Num (getLV vars .incr) d fd →
+        Num (s.getVariable v) x fx → ts.length = passes c →
+        (∃ k, run img k s =
+          exitLoop (top + (loopTail counterTest (b ++ loopPost (some v))).length) s') ∧
+        s'.eval = s.eval ∧ s'.status = .running ∧
+        (∃ vars' rest', s'.stack = .loop vars' h :: rest') ∧
+        (∀ k (hk : k < ts.length), ts[k].getVariable v = addN (s.getVariable v) (getLV vars .incr) k) ∧
+        s'.getVariable v = addN (s.getVariable v) (getLV vars .incr) ts.length := by
+  obtain ⟨hT, hJ, hB, hP, hBk, hE⟩ := loopTail_parts hc
+  have hlen : (loopTail counterTest (b ++ loopPost (some v))).length = 4 + b.length + 8 + 2 + 1 := by
+    rw [loopTail_length]; simp [counterTest, testOp, loopPost]; omega
+  have hcl : counterTest.length = 4 := rfl
+  rw [hcl, loopPost_some_length] at hJ hBk hE
+  rw [hcl] at hB hP
+  intro s ts s' hp
+  induction hp with
+  | done s =>
+    intro vars h rest c fl x fx d fd hs hpc hst hev hn hd hx hlen'
+    have hneg : c ≤ 0 := passes_zero_iff.1 (by simpa using hlen'.symm)
+    refine ⟨⟨6, ?_⟩, rfl, hs, ⟨vars, rest, hst⟩, fun k hk => by simp at hk, rfl⟩
+    rw [run_test_exit img s top (b.length + 8) vars h rest c fl hs hpc hT hJ
+      (by rw [← hE]; congr 1; omega) hst hev hn hneg, hlen]
+    congr 1; omega
+  | @pass s u s' ts hK hrest ih =>
+    intro vars h rest c fl x fx d fd hs hpc hst hev hn hd hx hlen'
+    have hpos : 0 < c := by
+      apply Classical.byContradiction
+      intro hc'
+      have : c ≤ 0 := by grind
+      rw [passes_nonpos this] at hlen'
+      simp at hlen'
+    have henter := run_test_enter img s top (b.length + 8) vars h rest c fl hs hpc hT hJ hst hn hpos
+    obtain ⟨⟨⟨k1, hk1⟩, hur, hupc, huev, hufr⟩, hkeep, hconst, hscope⟩ := hK
+    obtain ⟨rest', hust⟩ := hufr vars h rest (by simpa [enterBody] using hst)
+    have hupc' : u.pc = ((top + 4 + 1 + b.length : Nat) : Int) := by
+      rw [hupc]; simp [enterBody]; omega
+    have hkeep' : u.getVariable v = s.getVariable v := hkeep
+    obtain ⟨hpost, cv', hpst, hn', hinc⟩ := run_post_some img u (top + 4 + 1 + b.length) top v vars h rest'
+      c fl x d fx fd hur hupc' hP _ (by rw [← hBk]) (by simp; omega) hust hn
+      (by rw [hkeep']; exact hx) hd
+    -- the assignment to `v`
+    obtain ⟨hget, hsc2, _, htop2⟩ := putVariable_get ({ u with stack := mapTop decCounter u.stack } : State) v
+      (addVal (u.getVariable v) (u.getLoopVar .incr)) hconst (by rw [hpst]; rw [hust] at hscope; exact hscope.retop)
+    obtain ⟨rest2, hst2⟩ := htop2 _ h rest' hpst
+    have hgv2 : (varPost top v u).getVariable v = addVal (s.getVariable v) (getLV vars .incr) := by
+      have : (varPost top v u).getVariable v = addVal (u.getVariable v) (u.getLoopVar .incr) := hget
+      rw [this, hkeep', getLoopVar_eq hust]
+    obtain ⟨hadd, hnum2⟩ := num_add hx hd
+    have hx2 : Num ((varPost top v u).getVariable v) (x + d) (fx || fd) := by
+      rw [hgv2]; simpa [addVal, hadd] using hnum2
+    obtain ⟨⟨k2, hk2⟩, hev2, hs2, hfr2, hvals, hfin⟩ := ih (setLV vars .counter cv') h rest2 (c - 1) fl
+      (x + d) (fx || fd) d fd
+      (by simpa [varPost, putVariable_status] using hur) (by simp [varPost]) (by exact hst2)
+      (by simp only [varPost]; rw [putVariable_eval]; simp only []; rw [huev]; simpa [enterBody] using hev)
+      (by rw [getLV_setLV_self]; exact hn') (by rw [hinc]; exact hd) hx2
+      (by rw [passes_pos hpos] at hlen'; simpa using hlen')
+    refine ⟨⟨5 + k1 + 9 + k2, ?_⟩, ?_, hs2, hfr2, ?_, ?_⟩
+    · rw [run_add, run_add, run_add, henter, hk1, hpost, hk2]
+    · rw [hev2]; simp only [varPost]; rw [putVariable_eval]; simp only []; rw [huev]; simp [enterBody]
+    · intro k hk
+      cases k with
+      | zero => rfl
+      | succ k =>
+        simp only [List.getElem_cons_succ]
+        rw [hvals k (by simpa using hk), hgv2, hinc, addN_succ']
+    · rw [hfin, hgv2, hinc, List.length_cons, addN_succ']
+
+
+/-! ## values of the index variable -/
+
+/-- **series_closed_form.**  Adding a numeric increment `k` times to a numeric start, one VM
+addition (`Vm.binOp .add`, i.e. `Val.add`) at a time: the value is `x + k·d` exactly, an int as
+long as everything added so far is an int, a float from the first float on. -/
+theorem C04_series_closed_form (xv iv : Val) (x d : Rat) (fx fd : Bool) (hx : Num xv x fx)
+    (hd : Num iv d fd) (k : Nat) :
+    Num (addN xv iv k) (x + (k : Rat) * d) (if k = 0 then fx else fx || fd) := by
+  induction k with
+  | zero =>
+    have : x + ((0 : Nat) : Rat) * d = x := by simp [Rat.add_zero]
+    rw [this]; exact hx
+  | succ k ih =>
+    obtain ⟨hadd, hnum⟩ := num_add ih hd
+    have e : x + (k : Rat) * d + d = x + ((k + 1 : Nat) : Rat) * d := by
+      rw [natCast_succ_rat]; grind
+    have hf : ((if k = 0 then fx else fx || fd) || fd) = (fx || fd) := by
+      split <;> cases fx <;> cases fd <;> rfl
+    have hflag : (if k + 1 = 0 then fx else fx || fd) = ((if k = 0 then fx else fx || fd) || fd) := by
+      rw [hf]; simp
+    have hval : addN xv iv (k + 1) = Val.mkNum (x + (k : Rat) * d + d) ((if k = 0 then fx else fx || fd) || fd) := by
+      simp only [addN, addVal, hadd, Option.getD_some]
+    rw [hflag, ← e, hval]
+    exact hnum
+
+/-- the same with `Vm.binOp`, as `Sem.execLoop`'s `series` folds it -/
+theorem C04_series_binOp (xv iv : Val) (x d : Rat) (fx fd : Bool) (hx : Num xv x fx)
+    (hd : Num iv d fd) (k : Nat) :
+    (List.range k).foldlM (fun acc _ => Vm.binOp .add acc iv) xv = some (addN xv iv k) := by
+  induction k with
+  | zero => rfl
+  | succ k ih =>
+    rw [List.range_succ, List.foldlM_append, ih]
+    have := (num_add (C04_series_closed_form xv iv x d fx fd hx hd k) hd).1
+    simp [binOp, addN, addVal, this]
+
+/-! ## prologues -/
+
+/-- **calc_counter.**  The prologue of `repeat with v from a to b`: from numbers `x` in `first`
+and `y` in `last`, the hidden counter becomes `|y − x| + 1` and `incr` becomes `+1` or `−1`
+(`−1` exactly when `y < x`); `result` is clobbered by the sign test, every other hidden variable
+is kept, nothing else changes. -/
+theorem run_calcCounter (img : Image) (s : State) (pc : Nat) (vars : List (LoopVar × Val)) (h : Nat)
+    (rest : List Frame) (x y : Rat) (fx fy : Bool)
+    (hs : s.status = .running) (hpc : s.pc = (pc : Int)) (hc : CodeAt img pc calcCounter)
+    (hst : s.stack = .loop vars h :: rest)
+    (hf : Num (getLV vars .first) x fx) (hl : Num (getLV vars .last) y fy) :
+    ∃ k vars', run img k s =
+        { s with pc := (pc : Int) + 20,
+                 regs := fun q => if q = .result then .bool (decide (y - x < 0)) else s.regs q,
+                 stack := .loop vars' h :: rest } ∧
+      Num (getLV vars' .counter) ((if y - x < 0 then -(y - x) else y - x) + 1) (fy || fx) ∧
+      getLV vars' .incr = .int (if y - x < 0 then -1 else 1) ∧
+      (∀ l, l ≠ .counter → l ≠ .incr → getLV vars' l = getLV vars l) := by
+  -- A: counter := last - first
+  obtain ⟨hsub, hc0⟩ := num_sub hl hf
+  let c0 := Val.mkNum (y - x) (fy || fx)
+  let vA := setLV vars .counter c0
+  let sA : State := { s with pc := (pc : Int) + 4, stack := .loop vA h :: rest }
+  have hA : run img 4 s = sA :=
+    run_group_lv img _ _ .sub .counter s pc _ _ c0 vars h rest hs hpc (hc.slice 0 4) hst
+      (pfStep_push_lv s s.eval .last _ (getLoopVar_eq hst _) hl.ne_none)
+      (pfStep_push_lv s _ .first _ (getLoopVar_eq hst _) hf.ne_none)
+      (by show Val.sub _ _ = _; exact hsub)
+  have hstA : sA.stack = .loop vA h :: rest := rfl
+  have hgA : getLV vA .counter = c0 := getLV_setLV_self _ _ _
+  -- B: result := counter < 0
+  let R : Reg → Val := fun q => if q = .result then .bool (decide (y - x < 0)) else s.regs q
+  let sB : State := { s with pc := (pc : Int) + 8, regs := R, stack := .loop vA h :: rest }
+  have hlt : binVal .lt c0 (.int 0) = some (.bool (decide (y - x < 0))) := by
+    have := num_lt hc0 (Num.int 0)
+    show Val.cmp .lt _ _ = _
+    simpa using this
+  have hB : run img 4 sA = sB := by
+    rw [run_group_reg img _ _ .lt .result sA (pc + 4) _ _ _ (by exact hs) (by simp [sA]) (hc.slice 4 4)
+      (pfStep_push_lv sA sA.eval .counter _ (by rw [getLoopVar_eq hstA, hgA]) hc0.ne_none)
+      (pfStep_pushq _ _ _) hlt]
+    apply State.ext' <;> first | rfl | (simp [sA, sB, R]; omega)
+  have hstB : sB.stack = .loop vA h :: rest := rfl
+  have hJ := hc.get 8 (by decide)
+  -- the tail shared by both branches: counter := counter + 1 at pc + 16
+  have tail : ∀ (vD : List (LoopVar × Val)) (c1 : Val) (q : Rat),
+      getLV vD .counter = c1 → Num c1 q (fy || fx) →
+      ∃ vars', run img 4 ({ s with pc := (pc : Int) + 16, regs := R, stack := .loop vD h :: rest } : State) =
+          { s with pc := (pc : Int) + 20, regs := R, stack := .loop vars' h :: rest } ∧
+        Num (getLV vars' .counter) (q + 1) (fy || fx) ∧
+        (∀ l, l ≠ .counter → getLV vars' l = getLV vD l) := by
+    intro vD c1 q hg hn1
+    obtain ⟨hadd, hn2⟩ := num_add hn1 (Num.int 1)
+    let sD : State := { s with pc := (pc : Int) + 16, regs := R, stack := .loop vD h :: rest }
+    have hstD : sD.stack = .loop vD h :: rest := rfl
+    refine ⟨setLV vD .counter (Val.mkNum (q + ((1 : Int) : Rat)) ((fy || fx) || false)), ?_, ?_, ?_⟩
+    · rw [run_group_lv img _ _ .add .counter sD (pc + 16) _ _ _ vD h rest (by exact hs) (by simp [sD])
+        (hc.slice 16 4) hstD
+        (pfStep_push_lv sD sD.eval .counter _ (by rw [getLoopVar_eq hstD, hg]) hn1.ne_none)
+        (pfStep_pushq _ _ _) (by show Val.add _ _ = _; exact hadd)]
+      apply State.ext' <;> first | rfl | (simp [sD]; omega)
+    · rw [getLV_setLV_self]
+      exact Num.cast hn2 (by simp) (by simp)
+    · intro l hl; exact getLV_setLV_other _ _ _ _ hl
+  by_cases hneg : y - x < 0
+  · -- negative: counter := counter * -1; incr := -1; skip
+    have hJ' : run img 1 sB = ({ s with pc := (pc : Int) + 9, regs := R, stack := .loop vA h :: rest } : State) := by
+      rw [run_jump_ifFalse img sB (pc + 8) 7 (by exact hs) (by simp [sB]) hJ]
+      apply State.ext' <;> first | rfl | (simp [sB, R, hneg, Val.truthy]; omega) | (simp [sB, R, hneg, Val.truthy])
+    obtain ⟨hmul, hc1⟩ := num_mul hc0 (Num.int (-1))
+    let c1 := Val.mkNum ((y - x) * ((-1 : Int) : Rat)) ((fy || fx) || false)
+    let vC := setLV vA .counter c1
+    let sC0 : State := { s with pc := (pc : Int) + 9, regs := R, stack := .loop vA h :: rest }
+    have hstC0 : sC0.stack = .loop vA h :: rest := rfl
+    have hC : run img 4 sC0 = ({ s with pc := (pc : Int) + 13, regs := R, stack := .loop vC h :: rest } : State) := by
+      rw [run_group_lv img _ _ .mul .counter sC0 (pc + 9) _ _ c1 vA h rest (by exact hs) (by simp [sC0])
+        (hc.slice 9 4) hstC0
+        (pfStep_push_lv sC0 sC0.eval .counter _ (by rw [getLoopVar_eq hstC0, hgA]) hc0.ne_none)
+        (pfStep_pushq _ _ _) (by show Val.mul _ _ = _; exact hmul)]
+      apply State.ext' <;> first | rfl | (simp [sC0]; omega)
+    let vD := setLV vC .incr (.int (-1))
+    have hD : run img 1 ({ s with pc := (pc : Int) + 13, regs := R, stack := .loop vC h :: rest } : State) =
+        ({ s with pc := (pc : Int) + 14, regs := R, stack := .loop vD h :: rest } : State) := by
+      rw [run_moveq_lv img _ (pc + 13) .incr (.int (-1)) vC h rest (by exact hs) (by simp)
+        (hc.get 13 (by decide)) rfl]
+      apply State.ext' <;> first | rfl | (simp; omega)
+    have hE : run img 1 ({ s with pc := (pc : Int) + 14, regs := R, stack := .loop vD h :: rest } : State) =
+        ({ s with pc := (pc : Int) + 16, regs := R, stack := .loop vD h :: rest } : State) := by
+      rw [run_jump_always img _ (pc + 14) 2 (by exact hs) (by simp) (hc.get 14 (by decide))]
+      apply State.ext' <;> first | rfl | (simp; omega)
+    have hgD : getLV vD .counter = c1 := by
+      rw [getLV_setLV_other _ _ _ _ (by simp), getLV_setLV_self]
+    obtain ⟨vars', hT, hn', hoth⟩ := tail vD c1 (-(y - x)) hgD (Num.cast hc1 (by simp; grind) (by simp))
+    refine ⟨4 + (4 + (1 + (4 + (1 + (1 + 4))))), vars', ?_, ?_, ?_, ?_⟩
+    · exact run_trans hA (run_trans hB (run_trans hJ' (run_trans hC (run_trans hD (run_trans hE hT)))))
+    · simpa [hneg] using hn'
+    · rw [hoth _ (by simp)]; simp [hneg, vD, getLV_setLV_self]
+    · intro l h1 h2
+      rw [hoth l h1, getLV_setLV_other _ _ _ _ h2, getLV_setLV_other _ _ _ _ h1,
+        getLV_setLV_other _ _ _ _ h1]
+  · -- non-negative: incr := 1
+    have hJ' : run img 1 sB = ({ s with pc := (pc : Int) + 15, regs := R, stack := .loop vA h :: rest } : State) := by
+      rw [run_jump_ifFalse img sB (pc + 8) 7 (by exact hs) (by simp [sB]) hJ]
+      apply State.ext' <;> first | rfl | (simp [sB, R, hneg, Val.truthy]; omega) | (simp [sB, R, hneg, Val.truthy])
+    let vD := setLV vA .incr (.int 1)
+    have hD : run img 1 ({ s with pc := (pc : Int) + 15, regs := R, stack := .loop vA h :: rest } : State) =
+        ({ s with pc := (pc : Int) + 16, regs := R, stack := .loop vD h :: rest } : State) := by
+      rw [run_moveq_lv img _ (pc + 15) .incr (.int 1) vA h rest (by exact hs) (by simp)
+        (hc.get 15 (by decide)) rfl]
+      apply State.ext' <;> first | rfl | (simp; omega)
+    have hgD : getLV vD .counter = c0 := by
+      rw [getLV_setLV_other _ _ _ _ (by simp), hgA]
+    obtain ⟨vars', hT, hn', hoth⟩ := tail vD c0 (y - x) hgD hc0
+    refine ⟨4 + (4 + (1 + (1 + 4))), vars', ?_, ?_, ?_, ?_⟩
+    · exact run_trans hA (run_trans hB (run_trans hJ' (run_trans hD hT)))
+    · simpa [hneg] using hn'
+    · rw [hoth _ (by simp)]; simp [hneg, vD, getLV_setLV_self]
+    · intro l h1 h2
+      rw [hoth l h1, getLV_setLV_other _ _ _ _ h2, getLV_setLV_other _ _ _ _ h1]
+
+
+/-! ## `repeat with v from a to b` -/
+
+theorem run_loop_instr (img : Image) (s : State) (P0 : Nat) (hs : s.status = .running)
+    (hpc : s.pc = (P0 : Int)) (hL : img.code[P0]? = some .loop) : run img 1 s = afterLoop s := by
+  rw [run_one _ _ hs, step_loop img s P0 hs hpc hL]
+  simp [afterLoop, hpc]
+
+/-- **a whole counted loop with index variable**: `LOOP`, any prologue that ends at the loop
+top in `s1` with numbers in the hidden `counter` and `incr` and a number in `v`, then the
+passes. -/
+theorem var_loop_whole (img : Image) (P0 : Nat) (pre b : List Instr) (v : String)
+    (hc : CodeAt img P0 (loopCode pre counterTest (b ++ loopPost (some v))))
+    (s s1 : State) (hs : s.status = .running) (hpc : s.pc = (P0 : Int))
+    (hpre : ∃ k, run img k (afterLoop s) = s1) (hr1 : s1.status = .running)
+    (hpc1 : s1.pc = ((P0 + 1 + pre.length : Nat) : Int)) (hev1 : s1.eval = s.eval)
+    (vars : List (LoopVar × Val)) (rest1 : List Frame) (c : Rat) (fl : Bool) (d : Rat) (fd : Bool)
+    (x : Rat) (fx : Bool)
+    (hst1 : s1.stack = .loop vars s.eval.length :: rest1) (hn : Num (getLV vars .counter) c fl)
+    (hd : Num (getLV vars .incr) d fd) (hx : Num (s1.getVariable v) x fx)
+    (ts : List State) (s' : State)
+    (hp : Passes (BodyRunV img b v) (enterBody (P0 + 1 + pre.length + 5)) (varPost (P0 + 1 + pre.length) v)
+      s1 ts s')
+    (hlen : ts.length = passes c) :
+    (∃ k, run img k s =
+      exitLoop (P0 + (loopCode pre counterTest (b ++ loopPost (some v))).length) s') ∧
+    (exitLoop (P0 + (loopCode pre counterTest (b ++ loopPost (some v))).length) s').eval = s.eval ∧
+    (∃ vars' rest', s'.stack = .loop vars' s.eval.length :: rest') ∧
+    (∀ k (hk : k < ts.length), ts[k].getVariable v = addN (s1.getVariable v) (getLV vars .incr) k) ∧
+    s'.getVariable v = addN (s1.getVariable v) (getLV vars .incr) ts.length := by
+  obtain ⟨hL, _, hTail, hlen2⟩ := loopCode_parts hc
+  have h1 := run_loop_instr img s P0 hs hpc hL
+  obtain ⟨k1, hk1⟩ := hpre
+  obtain ⟨⟨k2, hk2⟩, hev2, hs2, hfr2, hvals, hfin⟩ := counted_var_loop_chain img (P0 + 1 + pre.length) b v
+    hTail s1 ts s' hp vars s.eval.length rest1 c fl x fx d fd hr1 hpc1 hst1 (by rw [hev1]) hn hd hx hlen
+  refine ⟨⟨1 + k1 + k2, ?_⟩, ?_, hfr2, hvals, hfin⟩
+  · rw [run_add, run_add, h1, hk1, hk2, hlen2]
+    congr 1; omega
+  · simp only [exitLoop]; rw [hev2, hev1]
+
+
+theorem indexVarRange_lit_with (v : String) (av bv : Val) :
+    indexVarRange v (.lit av) (.lit bv) true =
+      [Instr.moveq av (.loopVar .first), .moveq bv (.loopVar .last),
+       .move (.loopVar .first) (.var v)] ++ calcCounter := by
+  simp [indexVarRange, genRv]
+
+theorem read_simple_afterLoop (a : Rv) (ha : SimpleArg a) (s : State) :
+    (afterLoop s).read a.src = s.read a.src := by
+  cases ha <;> rfl
+
+/-- what the first three instructions of a `with … from a to b` prologue do: `first := a`,
+`last := b`, `v := first` -/
+theorem run_bounds (img : Image) (s0 : State) (pc h : Nat) (rest : List Frame) (v : String)
+    (a b : Rv) (ha : SimpleArg a) (hb : SimpleArg b) (vars0 : List (LoopVar × Val))
+    (hs : s0.status = .running) (hpc : s0.pc = (pc : Int))
+    (hc : CodeAt img pc (genRv a (.to (.loopVar .first)) ++ genRv b (.to (.loopVar .last)) ++
+       [Instr.move (.loopVar .first) (.var v)]))
+    (hst : s0.stack = .loop vars0 h :: rest) (hconst : s0.constants.get v = none)
+    (hscope : ScopeOk s0.stack) :
+    ∃ s3 rest1, run img 3 s0 = s3 ∧ s3.status = .running ∧ s3.pc = (pc : Int) + 3 ∧ s3.eval = s0.eval ∧
+      s3.stack = .loop (setLV (setLV vars0 .first (s0.read a.src)) .last (s0.read b.src)) h :: rest1 ∧
+      s3.getVariable v = s0.read a.src ∧ s3.constants = s0.constants ∧ ScopeOk s3.stack ∧
+      s3.regs = s0.regs := by
+  let av := s0.read a.src
+  let bv := s0.read b.src
+  let v1 := setLV vars0 .first av
+  let v2 := setLV v1 .last bv
+  let sa : State := { s0 with pc := (pc : Int) + 1, stack := .loop v1 h :: rest }
+  let sb : State := { s0 with pc := (pc : Int) + 2, stack := .loop v2 h :: rest }
+  obtain ⟨hla, ha1⟩ := run_simple_lv img s0 pc a ha .first vars0 h rest hs hpc hc.left.left hst
+  have ha1 : run img 1 s0 = sa := ha1
+  have hcb : CodeAt img (pc + 1) (genRv b (.to (.loopVar .last))) := by
+    have := hc.left.right; rw [hla] at this; exact this
+  obtain ⟨hlb, hb1⟩ := run_simple_lv img sa (pc + 1) b hb .last v1 h rest (by exact hs) (by simp [sa]) hcb rfl
+  have hrb : sa.read b.src = bv := read_simple_retop b hb s0 sa vars0 v1 h h rest hst rfl rfl rfl rfl
+  have hb1 : run img 1 sa = sb := by
+    rw [hb1, hrb]
+    apply State.ext' <;> first | rfl | (simp [sa, sb]; omega)
+  have hcm : img.code[pc + 2]? = some (.move (.loopVar .first) (.var v)) := by
+    have := hc.right.head
+    simpa [hla, hlb] using this
+  have hgf : getLV v2 .first = av := by
+    rw [getLV_setLV_other _ _ _ _ (by simp), getLV_setLV_self]
+  have hcm : run img 1 sb = { sb.putVariable v av with pc := (pc : Int) + 3 } := by
+    rw [run_move_lv_var img sb (pc + 2) .first v v2 h rest (by exact hs) (by simp [sb]) hcm rfl, hgf]
+    apply State.ext' <;> first | rfl | (simp; omega)
+  obtain ⟨hget, hsc, hcon, htop⟩ := putVariable_get sb v av hconst (by rw [hst] at hscope; exact hscope.retop)
+  obtain ⟨rest1, hst3⟩ := htop v2 h rest rfl
+  refine ⟨{ sb.putVariable v av with pc := (pc : Int) + 3 }, rest1, ?_, ?_, rfl, ?_, hst3, hget, hcon, hsc, ?_⟩
+  · exact run_trans ha1 (run_trans hb1 hcm)
+  · simpa [putVariable_status] using hs
+  · simp only []; rw [putVariable_eval]
+  · show (sb.putVariable v av).regs = s0.regs
+    unfold State.putVariable
+    repeat' split
+    all_goals rfl
+
+theorem indexVarRange_length (v : String) (a b : Rv) (ha : SimpleArg a) (hb : SimpleArg b) (w : Bool) :
+    (indexVarRange v a b w).length = if w then 23 else 18 := by
+  unfold indexVarRange
+  simp only [List.length_append, genRv_simple_length a ha, genRv_simple_length b hb, List.length_cons,
+    List.length_nil]
+  cases w <;> simp [calcCounter, calcIncr, testOp, incCounter]
+
+/-- **range prologue.**  `Gen.indexVarRange v a b true` with simple bounds: afterwards `v`
+denotes `a`, the hidden counter is `|b − a| + 1`, `incr` is `+1` (`a ≤ b`) or `−1`. -/
+theorem range_prologue (img : Image) (s0 : State) (pc h : Nat) (rest : List Frame) (v : String)
+    (a b : Rv) (ha : SimpleArg a) (hb : SimpleArg b) (x y : Rat) (fx fy : Bool)
+    (hs : s0.status = .running) (hpc : s0.pc = (pc : Int))
+    (hc : CodeAt img pc (indexVarRange v a b true))
+    (hst : s0.stack = .loop [] h :: rest) (hconst : s0.constants.get v = none)
+    (hscope : ScopeOk s0.stack) (hav : Num (s0.read a.src) x fx) (hbv : Num (s0.read b.src) y fy) :
+    ∃ k s1 vars rest1, run img k s0 = s1 ∧ s1.status = .running ∧
+      s1.pc = (pc : Int) + 23 ∧ s1.eval = s0.eval ∧
+      s1.stack = .loop vars h :: rest1 ∧
+      Num (getLV vars .counter) ((if y - x < 0 then -(y - x) else y - x) + 1) (fy || fx) ∧
+      getLV vars .incr = .int (if y - x < 0 then -1 else 1) ∧
+      s1.getVariable v = s0.read a.src ∧ s1.constants = s0.constants ∧ ScopeOk s1.stack := by
+  have hc' : CodeAt img pc ((genRv a (.to (.loopVar .first)) ++ genRv b (.to (.loopVar .last)) ++
+      [Instr.move (.loopVar .first) (.var v)]) ++ calcCounter) := by
+    simpa [indexVarRange] using hc
+  obtain ⟨s3, rest1, hr3, hs3, hpc3, hev3, hst3, hgv3, hcon3, hsc3, _⟩ :=
+    run_bounds img s0 pc h rest v a b ha hb [] hs hpc hc'.left hst hconst hscope
+  have hf : Num (getLV (setLV (setLV [] .first (s0.read a.src)) .last (s0.read b.src)) .first) x fx := by
+    rw [getLV_setLV_other _ _ _ _ (by simp), getLV_setLV_self]; exact hav
+  have hl : Num (getLV (setLV (setLV [] .first (s0.read a.src)) .last (s0.read b.src)) .last) y fy := by
+    rw [getLV_setLV_self]; exact hbv
+  have hcc : CodeAt img (pc + 3) calcCounter := by
+    have := hc'.right
+    simpa [genRv_simple_length a ha, genRv_simple_length b hb] using this
+  obtain ⟨k, vars', hrun, hcnt, hinc, _⟩ := run_calcCounter img s3 (pc + 3) _ h rest1 x y fx fy hs3
+    (by rw [hpc3]; simp) hcc hst3 hf hl
+  refine ⟨3 + k, _, vars', rest1, run_trans hr3 hrun, hs3, ?_, hev3, rfl, hcnt, hinc, ?_, hcon3, ?_⟩
+  · simp; omega
+  · rw [← hgv3]
+    exact getVariable_retop s3 _ _ vars' h h rest1 v hst3 rfl rfl rfl
+  · rw [hst3] at hsc3; exact hsc3.retop
+
+
+/-- the universal form of `BodyRunV` -/
+def BodyOkV (img : Image) (b : List Instr) (v : String) : Prop :=
+  ∀ t : State, t.status = .running → (∃ pc : Nat, t.pc = (pc : Int) ∧ CodeAt img pc b) →
+    (∃ vars h rest, t.stack = .loop vars h :: rest) → t.constants.get v = none → ScopeOk t.stack →
+    ∃ u, BodyRunV img b v t u
+
+theorem var_chain_exists (img : Image) (top : Nat) (b : List Instr) (v : String)
+    (hB : CodeAt img (top + 5) b) (hok : BodyOkV img b v) :
+    ∀ (p : Nat) (s : State) (vars : List (LoopVar × Val)) (h : Nat) (rest : List Frame),
+      s.status = .running → s.stack = .loop vars h :: rest → s.constants.get v = none →
+      ScopeOk s.stack →
+      ∃ ts s', Passes (BodyRunV img b v) (enterBody (top + 5)) (varPost top v) s ts s' ∧ ts.length = p := by
+  intro p
+  induction p with
+  | zero => intro s vars h rest _ _ _ _; exact ⟨[], s, .done s, rfl⟩
+  | succ p ih =>
+    intro s vars h rest hs hst hcon hsc
+    obtain ⟨u, hu⟩ := hok (enterBody (top + 5) s) (by simpa [enterBody] using hs)
+      ⟨top + 5, by simp [enterBody], hB⟩ ⟨vars, h, rest, by simpa [enterBody] using hst⟩
+      (by simpa [enterBody] using hcon) (by simpa [enterBody] using hsc)
+    obtain ⟨rest', hust⟩ := hu.frame vars h rest (by simpa [enterBody] using hst)
+    have hst1 : ({ u with stack := mapTop decCounter u.stack } : State).stack =
+        .loop (decCounter vars) h :: rest' := by simp [hust, mapTop]
+    obtain ⟨_, hsc2, hcon2, htop2⟩ := putVariable_get ({ u with stack := mapTop decCounter u.stack } : State) v
+      (addVal (u.getVariable v) (u.getLoopVar .incr)) hu.const
+      (by rw [hst1]; have := hu.scope; rw [hust] at this; exact this.retop)
+    obtain ⟨rest2, hst2⟩ := htop2 _ h rest' hst1
+    obtain ⟨ts, s', hp, hl⟩ := ih (varPost top v u) (decCounter vars) h rest2
+      (by simpa [varPost, putVariable_status] using hu.running) (by exact hst2)
+      (by show (State.putVariable _ v _).constants.get v = none; rw [hcon2]; exact hu.const)
+      (by exact hsc2)
+    exact ⟨_ :: ts, s', .pass hu hp, by simp [hl]⟩
+
+/-- **range_loop (chain form).**  `repeat with v from a to b` with bounds `lo`, `hi` that are
+literals, variables or registers (`SimpleArg`; what they denote when the loop starts are numbers
+`x`, `y`) and a body that does not assign `v`: started at `LOOP` in a state where `v` is not a
+macro and names resolve (`ScopeOk`), the prologue — which reads the bounds ONCE — ends at the
+loop top in a state `s1` where `v` denotes `lo`'s value; if the body behaves (`BodyRunV`) in each
+of the `passes (|y − x| + 1)` passes — for integers: `|b − a| + 1` — then the VM reaches the
+instruction after `END_LOOP` with the loop frame popped and the evaluation stack restored, and
+at the start of pass `k` (0-based) `v` denotes `lo`'s value with `+1` (if `x ≤ y`) or `−1` (if
+`y < x`) added `k` times. -/
+theorem C04_range_loop_chain (img : Image) (P0 : Nat) (b : List Instr) (v : String) (lo hi : Rv)
+    (hlo : SimpleArg lo) (hhi : SimpleArg hi) (x y : Rat) (fx fy : Bool)
+    (hc : CodeAt img P0 (unG (assembleLoop (indexVarRange v lo hi true) counterTest []
+      (ins b) (loopPost (some v)))))
+    (s : State) (hs : s.status = .running) (hpc : s.pc = (P0 : Int))
+    (hconst : s.constants.get v = none) (hscope : ScopeOk s.stack)
+    (hav : Num (s.read lo.src) x fx) (hbv : Num (s.read hi.src) y fy) :
+    ∃ s1 vars rest1, (∃ k, run img k s = s1) ∧ s1.status = .running ∧
+      s1.stack = .loop vars s.eval.length :: rest1 ∧ s1.getVariable v = s.read lo.src ∧
+      s1.constants.get v = none ∧ ScopeOk s1.stack ∧
+      ∀ (ts : List State) (s' : State),
+        Passes (BodyRunV img b v) (enterBody (P0 + 1 + 23 + 5)) (varPost (P0 + 1 + 23) v) s1 ts s' →
+        ts.length = passes ((if y < x then x - y else y - x) + 1) →
+        (∃ k, run img k s = exitLoop (P0 + (b.length + 39)) s') ∧
+        (exitLoop (P0 + (b.length + 39)) s').eval = s.eval ∧
+        (∃ vars' rest', s'.stack = .loop vars' s.eval.length :: rest') ∧
+        (∀ k (hk : k < ts.length),
+          ts[k].getVariable v = addN (s.read lo.src) (.int (if y < x then -1 else 1)) k) ∧
+        s'.getVariable v = addN (s.read lo.src) (.int (if y < x then -1 else 1)) ts.length := by
+  have hprelen : (indexVarRange v lo hi true).length = 23 := by
+    rw [indexVarRange_length v lo hi hlo hhi]; rfl
+  have hlenAll : (unG (assembleLoop (indexVarRange v lo hi true) counterTest []
+      (ins b) (loopPost (some v)))).length = b.length + 39 := by
+    rw [assembled_length, hprelen, loopPost_some_length]; omega
+  rw [assembled_counted] at hc hlenAll
+  obtain ⟨hL, hPre, _, _⟩ := loopCode_parts hc
+  have hiff : (y - x < 0) ↔ (y < x) := by grind
+  obtain ⟨k0, s1, vars, rest1, hrun, hr1, hpc1, hev1, hst1, hcnt, hinc, hgv, hcon1, hsc1⟩ :=
+    range_prologue img (afterLoop s) (P0 + 1) s.eval.length s.stack v lo hi hlo hhi x y fx fy
+      (by exact hs) (by simp [afterLoop, hpc]) hPre rfl (by exact hconst) (ScopeOk.cons_loop hscope)
+      (by rw [read_simple_afterLoop lo hlo]; exact hav) (by rw [read_simple_afterLoop hi hhi]; exact hbv)
+  rw [read_simple_afterLoop lo hlo] at hgv
+  have hneg : -(y - x) = x - y := by grind
+  simp only [hiff, hneg] at hcnt hinc
+  refine ⟨s1, vars, rest1, ⟨1 + k0, run_trans (run_loop_instr img s P0 hs hpc hL) hrun⟩, hr1, hst1, hgv,
+    by rw [hcon1]; exact hconst, hsc1, ?_⟩
+  intro ts s' hp hlen
+  have hd : Num (getLV vars .incr) ((if y < x then (-1 : Int) else 1 : Int) : Rat) false := by
+    rw [hinc]; exact Num.int _
+  have := var_loop_whole img P0 _ b v hc s s1 hs hpc ⟨k0, hrun⟩ hr1
+    (by rw [hpc1, hprelen]; simp) hev1 vars rest1 _ _ _ _ x fx hst1 hcnt hd (by rw [hgv]; exact hav)
+    ts s' (by rw [hprelen]; exact hp) hlen
+  rw [hlenAll, hgv, hinc] at this
+  exact this
+
+/-- integers stay integers: `a`, then `a + d`, `a + 2d`, … -/
+theorem addN_int (a d : Int) (k : Nat) : addN (.int a) (.int d) k = .int (a + k * d) := by
+  induction k with
+  | zero => simp [addN]
+  | succ k ih =>
+    simp only [addN, ih, addVal, add_int_int, Option.getD_some]
+    congr 1
+    rw [Int.natCast_add, Int.add_mul]; omega
+
+theorem passes_abs_int (a b : Int) :
+    passes ((if (b : Rat) < (a : Rat) then (a : Rat) - b else (b : Rat) - a) + 1) = (b - a).natAbs + 1 := by
+  have hlt : ((b : Rat) < (a : Rat)) ↔ b < a := Rat.intCast_lt_intCast
+  by_cases h : b < a
+  · have : ((a : Rat) - (b : Rat)) + 1 = ((a - b + 1 : Int) : Rat) := by
+      rw [Rat.intCast_add, Rat.intCast_sub]; simp
+    rw [if_pos (hlt.2 h), this, passes_intCast]; omega
+  · have hn : ¬ ((b : Rat) < (a : Rat)) := fun h' => h (hlt.1 h')
+    have : ((b : Rat) - (a : Rat)) + 1 = ((b - a + 1 : Int) : Rat) := by
+      rw [Rat.intCast_add, Rat.intCast_sub]; simp
+    rw [if_neg hn, this, passes_intCast]; omega
+
+/-- **range_loop.**  `repeat with v from a to b` with integer literals `a`, `b` and a body that
+satisfies the contract from every state and does not assign `v`: the VM runs the body exactly
+`|b − a| + 1` times — `ts` are the states in which the passes start — and at the start of pass
+`k` (0-based) `v` denotes the integer `a + k` if `a ≤ b`, `a − k` otherwise; afterwards control
+is just past `END_LOOP`, the loop frame is popped and the evaluation stack is as before. -/
+theorem C04_range_loop (img : Image) (P0 : Nat) (b : List Instr) (v : String) (a c : Int)
+    (hc : CodeAt img P0 (unG (assembleLoop (indexVarRange v (.lit (.int a)) (.lit (.int c)) true)
+      counterTest [] (ins b) (loopPost (some v)))))
+    (s : State) (hs : s.status = .running) (hpc : s.pc = (P0 : Int))
+    (hconst : s.constants.get v = none) (hscope : ScopeOk s.stack) (hok : BodyOkV img b v) :
+    ∃ (ts : List State) (s' : State),
+      ts.length = (c - a).natAbs + 1 ∧
+      (∃ k, run img k s = exitLoop (P0 + (b.length + 39)) s') ∧
+      (exitLoop (P0 + (b.length + 39)) s').eval = s.eval ∧
+      (∃ vars' rest', s'.stack = .loop vars' s.eval.length :: rest') ∧
+      (∀ k (hk : k < ts.length),
+        ts[k].getVariable v = .int (if a ≤ c then a + k else a - k)) ∧
+      ∃ s1, Passes (BodyRunV img b v) (enterBody (P0 + 1 + 23 + 5)) (varPost (P0 + 1 + 23) v) s1 ts s' := by
+  obtain ⟨s1, vars, rest1, hk1, hr1, hst1, hgv, hcon1, hsc1, hall⟩ :=
+    C04_range_loop_chain img P0 b v (.lit (.int a)) (.lit (.int c)) (.lit _) (.lit _) a c false false hc s hs
+      hpc hconst hscope (Num.int a) (Num.int c)
+  have hB : CodeAt img (P0 + 1 + 23 + 5) b := by
+    rw [assembled_counted] at hc
+    obtain ⟨_, _, hT, _⟩ := loopCode_parts hc
+    have hprelen : (indexVarRange v (.lit (.int a)) (.lit (.int c)) true).length = 23 := by
+      rw [indexVarRange_lit_with]; rfl
+    rw [hprelen] at hT
+    exact (loopTail_parts hT).2.2.1
+  obtain ⟨ts, s', hp, hl⟩ := var_chain_exists img (P0 + 1 + 23) b v hB hok ((c - a).natAbs + 1) s1 vars
+    s.eval.length rest1 hr1 hst1 hcon1 hsc1
+  obtain ⟨hrun, hev, hfr, hvals, _⟩ := hall ts s' hp (by rw [hl, passes_abs_int])
+  refine ⟨ts, s', hl, hrun, hev, hfr, ?_, s1, hp⟩
+  intro k hk
+  rw [hvals k hk]
+  show addN (.int a) _ k = _
+  have hlt : ((c : Rat) < (a : Rat)) ↔ c < a := Rat.intCast_lt_intCast
+  by_cases h : c < a
+  · have : ¬ a ≤ c := by omega
+    rw [if_pos (hlt.2 h), if_neg this, addN_int]; congr 1; omega
+  · have hn : ¬ ((c : Rat) < (a : Rat)) := fun h' => h (hlt.1 h')
+    have : a ≤ c := by omega
+    rw [if_neg hn, if_pos this, addN_int]; congr 1; omega
+
+
+/-! ## `repeat n with v from a to b`: the increment -/
+
+theorem calcIncr_eq : calcIncr =
+    [Instr.push (.loopVar .counter), .pushq (.int 1), .op .noteq, .pop (.reg .result),
+     .jump .ifFalse 10] ++
+    (([Instr.push (.loopVar .last), .push (.loopVar .first), .op .sub] ++
+      [Instr.push (.loopVar .counter), .pushq (.int 1), .op .sub] ++ [Instr.op .div]) ++
+      [Instr.pop (.loopVar .incr)]) ++
+    [Instr.jump .always 2, .moveq (.int 0) (.loopVar .incr)] := rfl
+
+/-- **calc_incr.**  The prologue of `repeat n with v from a to b`: from the count `c` in the
+hidden counter and numbers `x`, `y` in `first`, `last`, `incr` becomes `(y − x)/(c − 1)` — a
+float — or the integer 0 when `c = 1`; the division is exact (ℚ); no fault. -/
+theorem run_calcIncr (img : Image) (s : State) (pc : Nat) (vars : List (LoopVar × Val)) (h : Nat)
+    (rest : List Frame) (c x y : Rat) (fl fx fy : Bool)
+    (hs : s.status = .running) (hpc : s.pc = (pc : Int)) (hc : CodeAt img pc calcIncr)
+    (hst : s.stack = .loop vars h :: rest) (hn : Num (getLV vars .counter) c fl)
+    (hf : Num (getLV vars .first) x fx) (hl : Num (getLV vars .last) y fy) :
+    ∃ k vars', run img k s =
+        { s with pc := (pc : Int) + 15,
+                 regs := fun q => if q = .result then .bool (!decide (c = 1)) else s.regs q,
+                 stack := .loop vars' h :: rest } ∧
+      Num (getLV vars' .incr) (if c = 1 then 0 else (y - x) / (c - 1)) (!decide (c = 1)) ∧
+      (∀ l, l ≠ .incr → getLV vars' l = getLV vars l) := by
+  let R : Reg → Val := fun q => if q = .result then .bool (!decide (c = 1)) else s.regs q
+  let sA : State := { s with pc := (pc : Int) + 4, regs := R }
+  have hne : binVal .noteq (getLV vars .counter) (.int 1) = some (.bool (!decide (c = 1))) := by
+    show some (Val.bool (!Val.beq _ _)) = _
+    rw [num_beq_int hn 1]; simp
+  have hA : run img 4 s = sA :=
+    run_group_reg img _ _ .noteq .result s pc _ _ _ hs hpc (hc.slice 0 4)
+      (pfStep_push_lv s s.eval .counter _ (getLoopVar_eq hst _) hn.ne_none) (pfStep_pushq _ _ _) hne
+  have hstA : sA.stack = .loop vars h :: rest := hst
+  by_cases h1 : c = 1
+  · -- one pass: incr := 0
+    have hJ : run img 1 sA = ({ s with pc := (pc : Int) + 14, regs := R } : State) := by
+      rw [run_jump_ifFalse img sA (pc + 4) 10 (by exact hs) (by simp [sA]) (hc.get 4 (by decide))]
+      apply State.ext' <;> first | rfl | (simp [sA, R, h1, Val.truthy]; omega) | (simp [sA, R, h1, Val.truthy])
+    have hM : run img 1 ({ s with pc := (pc : Int) + 14, regs := R } : State) =
+        ({ s with pc := (pc : Int) + 15, regs := R, stack := .loop (setLV vars .incr (.int 0)) h :: rest } : State) := by
+      rw [run_moveq_lv img _ (pc + 14) .incr (.int 0) vars h rest (by exact hs) (by simp)
+        (hc.get 14 (by decide)) (by exact hst)]
+      apply State.ext' <;> first | rfl | (simp; omega)
+    refine ⟨4 + (1 + 1), setLV vars .incr (.int 0), run_trans hA (run_trans hJ hM), ?_, ?_⟩
+    · rw [getLV_setLV_self]; simpa [h1] using Num.int 0
+    · intro l hl; exact getLV_setLV_other _ _ _ _ hl
+  · have hJ : run img 1 sA = ({ s with pc := (pc : Int) + 5, regs := R } : State) := by
+      rw [run_jump_ifFalse img sA (pc + 4) 10 (by exact hs) (by simp [sA]) (hc.get 4 (by decide))]
+      apply State.ext' <;> first | rfl | (simp [sA, R, h1, Val.truthy]; omega) | (simp [sA, R, h1, Val.truthy])
+    let sB : State := { s with pc := (pc : Int) + 5, regs := R }
+    have hstB : sB.stack = .loop vars h :: rest := hst
+    obtain ⟨hsub1, hd0⟩ := num_sub hl hf
+    obtain ⟨hsub2, hm⟩ := num_sub hn (Num.int 1)
+    have hm0 : c - ((1 : Int) : Rat) ≠ 0 := by
+      intro e; apply h1
+      have : ((1 : Int) : Rat) = 1 := by simp
+      rw [this] at e; grind
+    have hdiv := num_div hd0 hm hm0
+    have hpf : pfRun sB.read (([Instr.push (.loopVar .last), .push (.loopVar .first), .op .sub] ++
+        [Instr.push (.loopVar .counter), .pushq (.int 1), .op .sub] ++ [Instr.op .div])) sB.eval =
+        some (Val.num ((y - x) / (c - ((1 : Int) : Rat))) :: sB.eval) := by
+      rw [pfRun_append, pfRun_append,
+        pfRun3 sB.read sB.eval _ _ .sub _ _ _
+          (pfStep_push_lv sB sB.eval .last _ (getLoopVar_eq hstB _) hl.ne_none)
+          (pfStep_push_lv sB _ .first _ (getLoopVar_eq hstB _) hf.ne_none)
+          (by show Val.sub _ _ = _; exact hsub1)]
+      simp only [Option.bind_some]
+      rw [pfRun3 sB.read _ _ _ .sub _ _ _
+          (pfStep_push_lv sB _ .counter _ (getLoopVar_eq hstB _) hn.ne_none)
+          (pfStep_pushq _ _ _)
+          (by show Val.sub _ _ = _; exact hsub2)]
+      simp only [Option.bind_some, pfRun, pfStep]
+      have : binVal .div (Val.mkNum (y - x) (fy || fx)) (Val.mkNum (c - ((1 : Int) : Rat)) (fl || false)) =
+          some (Val.num ((y - x) / (c - ((1 : Int) : Rat)))) := by
+        show Val.div _ _ = _; exact hdiv
+      rw [this]; rfl
+    have hcB : CodeAt img (pc + 5) (([Instr.push (.loopVar .last), .push (.loopVar .first), .op .sub] ++
+        [Instr.push (.loopVar .counter), .pushq (.int 1), .op .sub] ++ [Instr.op .div]) ++
+        [Instr.pop (.loopVar .incr)]) := hc.slice 5 8
+    let iv := Val.num ((y - x) / (c - ((1 : Int) : Rat)))
+    have hB : run img 8 sB =
+        ({ s with pc := (pc : Int) + 13, regs := R, stack := .loop (setLV vars .incr iv) h :: rest } : State) := by
+      have := run_pf_lv' img _ .incr sB (pc + 5) iv sB.eval vars h rest (by exact hs) (by simp [sB]) hcB hstB hpf
+      simp only [List.length_append, List.length_cons, List.length_nil] at this
+      rw [this]
+      apply State.ext' <;> first | rfl | (simp [sB]; omega)
+    have hK : run img 1 ({ s with pc := (pc : Int) + 13, regs := R, stack := .loop (setLV vars .incr iv) h :: rest } : State) =
+        ({ s with pc := (pc : Int) + 15, regs := R, stack := .loop (setLV vars .incr iv) h :: rest } : State) := by
+      rw [run_jump_always img _ (pc + 13) 2 (by exact hs) (by simp) (hc.get 13 (by decide))]
+      apply State.ext' <;> first | rfl | (simp; omega)
+    refine ⟨4 + (1 + (8 + 1)), setLV vars .incr iv, run_trans hA (run_trans hJ (run_trans hB hK)), ?_, ?_⟩
+    · rw [getLV_setLV_self]
+      have : ((1 : Int) : Rat) = 1 := by simp
+      simp only [h1, if_false, decide_false, Bool.not_false, iv, this]
+      exact Num.num _
+    · intro l hl; exact getLV_setLV_other _ _ _ _ hl
+
+
+/-! ## `repeat n with v cycle s`: the increment -/
+
+/-- the part of `Gen.cycleVarRange` after `first` and the loop variable are set -/
+def cycleTail : List Instr :=
+  testOp .eq (.push (.loopVar .counter)) (.pushq (.int 0)) ++
+  [.jump .ifFalse 3, .moveq (.int 0) (.loopVar .incr), .jump .always 12] ++
+  testOp .eq (.push (.reg .unitMode)) (.pushq (.mode .raw)) ++
+  [.jump .ifFalse 3, .pushq (.int 65536), .jump .always 2, .pushq (.int 360),
+   .push (.loopVar .counter), .op .div, .pop (.loopVar .incr)]
+
+/-- a full turn in the current units -/
+def turnOf (m : UnitMode) : Int := if m = .raw then 65536 else 360
+
+/-- **cycle increment.**  The prologue of `repeat n with v cycle …`: `incr` becomes a full turn
+— 65536 when the unit-mode register holds `raw`, else 360 — divided by the count `c` in the
+hidden counter, exactly (ℚ); with a count of 0 it becomes 0 and nothing faults. -/
+theorem run_cycleIncr (img : Image) (s : State) (pc : Nat) (vars : List (LoopVar × Val)) (h : Nat)
+    (rest : List Frame) (c : Rat) (fl : Bool) (m : UnitMode)
+    (hs : s.status = .running) (hpc : s.pc = (pc : Int)) (hc : CodeAt img pc cycleTail)
+    (hst : s.stack = .loop vars h :: rest) (hn : Num (getLV vars .counter) c fl)
+    (hm : s.regs .unitMode = .mode m) :
+    ∃ k vars' R, run img k s =
+        { s with pc := (pc : Int) + 18, regs := R, stack := .loop vars' h :: rest } ∧
+      (∀ q, q ≠ .result → R q = s.regs q) ∧
+      Num (getLV vars' .incr) (if c = 0 then 0 else ((turnOf m : Int) : Rat) / c) (!decide (c = 0)) ∧
+      (∀ l, l ≠ .incr → getLV vars' l = getLV vars l) := by
+  let R0 : Reg → Val := fun q => if q = .result then .bool (decide (c = 0)) else s.regs q
+  let sA : State := { s with pc := (pc : Int) + 4, regs := R0 }
+  have heq : binVal .eq (getLV vars .counter) (.int 0) = some (.bool (decide (c = 0))) := by
+    show some (Val.bool (Val.beq _ _)) = _
+    rw [num_beq_int hn 0]; simp
+  have hA : run img 4 s = sA :=
+    run_group_reg img _ _ .eq .result s pc _ _ _ hs hpc (hc.slice 0 4)
+      (pfStep_push_lv s s.eval .counter _ (getLoopVar_eq hst _) hn.ne_none) (pfStep_pushq _ _ _) heq
+  by_cases h0 : c = 0
+  · have hJ : run img 1 sA = ({ s with pc := (pc : Int) + 5, regs := R0 } : State) := by
+      rw [run_jump_ifFalse img sA (pc + 4) 3 (by exact hs) (by simp [sA]) (hc.get 4 (by decide))]
+      apply State.ext' <;> first | rfl | (simp [sA, R0, h0, Val.truthy]; omega) | (simp [sA, R0, h0, Val.truthy])
+    have hM : run img 1 ({ s with pc := (pc : Int) + 5, regs := R0 } : State) =
+        ({ s with pc := (pc : Int) + 6, regs := R0, stack := .loop (setLV vars .incr (.int 0)) h :: rest } : State) := by
+      rw [run_moveq_lv img _ (pc + 5) .incr (.int 0) vars h rest (by exact hs) (by simp)
+        (hc.get 5 (by decide)) (by exact hst)]
+      apply State.ext' <;> first | rfl | (simp; omega)
+    have hK : run img 1 ({ s with pc := (pc : Int) + 6, regs := R0, stack := .loop (setLV vars .incr (.int 0)) h :: rest } : State) =
+        ({ s with pc := (pc : Int) + 18, regs := R0, stack := .loop (setLV vars .incr (.int 0)) h :: rest } : State) := by
+      rw [run_jump_always img _ (pc + 6) 12 (by exact hs) (by simp) (hc.get 6 (by decide))]
+      apply State.ext' <;> first | rfl | (simp; omega)
+    refine ⟨4 + (1 + (1 + 1)), setLV vars .incr (.int 0), R0, run_trans hA (run_trans hJ (run_trans hM hK)),
+      ?_, ?_, ?_⟩
+    · intro q hq; simp [R0, hq]
+    · rw [getLV_setLV_self]; simpa [h0] using Num.int 0
+    · intro l hl; exact getLV_setLV_other _ _ _ _ hl
+  · have hJ : run img 1 sA = ({ s with pc := (pc : Int) + 7, regs := R0 } : State) := by
+      rw [run_jump_ifFalse img sA (pc + 4) 3 (by exact hs) (by simp [sA]) (hc.get 4 (by decide))]
+      apply State.ext' <;> first | rfl | (simp [sA, R0, h0, Val.truthy]; omega) | (simp [sA, R0, h0, Val.truthy])
+    let sB : State := { s with pc := (pc : Int) + 7, regs := R0 }
+    let R1 : Reg → Val := fun q => if q = .result then .bool (m == .raw) else R0 q
+    have hmB : sB.regs .unitMode = .mode m := by simp [sB, R0, hm]
+    have heq2 : binVal .eq (.mode m) (.mode .raw) = some (.bool (m == .raw)) := rfl
+    have hB : run img 4 sB = ({ s with pc := (pc : Int) + 11, regs := R1 } : State) := by
+      rw [run_group_reg img _ _ .eq .result sB (pc + 7) _ _ _ (by exact hs) (by simp [sB]) (hc.slice 7 4)
+        (pfStep_push_reg sB sB.eval .unitMode _ hmB (by simp)) (pfStep_pushq _ _ _) heq2]
+      apply State.ext' <;> first | rfl | (simp [sB]; omega)
+    -- both branches push the turn and meet at pc + 15
+    have hT : ∃ k, run img k ({ s with pc := (pc : Int) + 11, regs := R1 } : State) =
+        ({ s with pc := (pc : Int) + 15, regs := R1, eval := .int (turnOf m) :: s.eval } : State) := by
+      by_cases hr : m = .raw
+      · have h1 : run img 1 ({ s with pc := (pc : Int) + 11, regs := R1 } : State) =
+            ({ s with pc := (pc : Int) + 12, regs := R1 } : State) := by
+          rw [run_jump_ifFalse img _ (pc + 11) 3 (by exact hs) (by simp) (hc.get 11 (by decide))]
+          apply State.ext' <;> first | rfl | (simp [R1, hr, Val.truthy]; omega) | (simp [R1, hr, Val.truthy])
+        have h2 : run img 1 ({ s with pc := (pc : Int) + 12, regs := R1 } : State) =
+            ({ s with pc := (pc : Int) + 13, regs := R1, eval := .int 65536 :: s.eval } : State) := by
+          rw [run_pushq img _ (pc + 12) _ (by exact hs) (by simp) (hc.get 12 (by decide))]
+          apply State.ext' <;> first | rfl | (simp; omega)
+        have h3 : run img 1 ({ s with pc := (pc : Int) + 13, regs := R1, eval := .int 65536 :: s.eval } : State) =
+            ({ s with pc := (pc : Int) + 15, regs := R1, eval := .int (turnOf m) :: s.eval } : State) := by
+          rw [run_jump_always img _ (pc + 13) 2 (by exact hs) (by simp) (hc.get 13 (by decide))]
+          apply State.ext' <;> first | rfl | (simp [turnOf, hr]; omega) | (simp [turnOf, hr])
+        exact ⟨_, run_trans h1 (run_trans h2 h3)⟩
+      · have hb : (m == UnitMode.raw) = false := by simpa using hr
+        have h1 : run img 1 ({ s with pc := (pc : Int) + 11, regs := R1 } : State) =
+            ({ s with pc := (pc : Int) + 14, regs := R1 } : State) := by
+          rw [run_jump_ifFalse img _ (pc + 11) 3 (by exact hs) (by simp) (hc.get 11 (by decide))]
+          apply State.ext' <;> first | rfl | (simp [R1, hb, Val.truthy]; omega) | (simp [R1, hb, Val.truthy])
+        have h2 : run img 1 ({ s with pc := (pc : Int) + 14, regs := R1 } : State) =
+            ({ s with pc := (pc : Int) + 15, regs := R1, eval := .int (turnOf m) :: s.eval } : State) := by
+          rw [run_pushq img _ (pc + 14) _ (by exact hs) (by simp) (hc.get 14 (by decide))]
+          apply State.ext' <;> first | rfl | (simp [turnOf, hr]; omega) | (simp [turnOf, hr])
+        exact ⟨_, run_trans h1 h2⟩
+    obtain ⟨kT, hT⟩ := hT
+    let sC : State := { s with pc := (pc : Int) + 15, regs := R1, eval := .int (turnOf m) :: s.eval }
+    have hstC : sC.stack = .loop vars h :: rest := hst
+    have hdiv := num_div (Num.int (turnOf m)) hn h0
+    let iv := Val.num (((turnOf m : Int) : Rat) / c)
+    have hpf : pfRun sC.read [Instr.push (.loopVar .counter), .op .div] sC.eval = some (iv :: s.eval) := by
+      have h1 := pfStep_push_lv sC sC.eval .counter _ (getLoopVar_eq hstC _) hn.ne_none
+      have : binVal .div (.int (turnOf m)) (getLV vars .counter) = some iv := by
+        show Val.div _ _ = _; exact hdiv
+      simp only [pfRun]
+      rw [h1]
+      simp [pfStep, sC, this]
+    have hD : run img 3 sC =
+        ({ s with pc := (pc : Int) + 18, regs := R1, stack := .loop (setLV vars .incr iv) h :: rest } : State) := by
+      have := run_pf_lv' img [Instr.push (.loopVar .counter), .op .div] .incr sC (pc + 15) iv s.eval vars h rest
+        (by exact hs) (by simp [sC]) (hc.slice 15 3) hstC hpf
+      simp only [List.length_cons, List.length_nil] at this
+      rw [this]
+      apply State.ext' <;> first | rfl | (simp [sC]; omega)
+    refine ⟨4 + (1 + (4 + (kT + 3))), setLV vars .incr iv, R1,
+      run_trans hA (run_trans hJ (run_trans hB (run_trans hT hD))), ?_, ?_, ?_⟩
+    · intro q hq; simp [R1, R0, hq]
+    · rw [getLV_setLV_self]
+      simp only [h0, if_false, decide_false, Bool.not_false, iv]
+      exact Num.num _
+    · intro l hl; exact getLV_setLV_other _ _ _ _ hl
+
+
+/-! ## `repeat n with v from a to b` -/
+
+theorem interp_pre_eq (v : String) (nv av bv : Val) :
+    genRv (.lit nv) (.to counter) ++ indexVarRange v (.lit av) (.lit bv) false =
+      [Instr.moveq nv (.loopVar .counter)] ++
+      ([Instr.moveq av (.loopVar .first), .moveq bv (.loopVar .last),
+        .move (.loopVar .first) (.var v)] ++ calcIncr) := by
+  simp [indexVarRange, genRv, counter]
+
+/-- **interp prologue.**  `genRv n → counter; indexVarRange v lo hi false` with simple
+operands, each read once. -/
+theorem interp_prologue (img : Image) (s0 : State) (pc h : Nat) (rest : List Frame) (v : String)
+    (n lo hi : Rv) (hn : SimpleArg n) (hlo : SimpleArg lo) (hhi : SimpleArg hi)
+    (c x y : Rat) (fl fx fy : Bool)
+    (hs : s0.status = .running) (hpc : s0.pc = (pc : Int))
+    (hc : CodeAt img pc (genRv n (.to counter) ++ indexVarRange v lo hi false))
+    (hst : s0.stack = .loop [] h :: rest) (hconst : s0.constants.get v = none)
+    (hscope : ScopeOk s0.stack) (hnv : Num (s0.read n.src) c fl) (hav : Num (s0.read lo.src) x fx)
+    (hbv : Num (s0.read hi.src) y fy) :
+    ∃ k s1 vars rest1, run img k s0 = s1 ∧ s1.status = .running ∧
+      s1.pc = (pc : Int) + 19 ∧ s1.eval = s0.eval ∧
+      s1.stack = .loop vars h :: rest1 ∧
+      Num (getLV vars .counter) c fl ∧
+      Num (getLV vars .incr) (if c = 1 then 0 else (y - x) / (c - 1)) (!decide (c = 1)) ∧
+      s1.getVariable v = s0.read lo.src ∧ s1.constants = s0.constants ∧ ScopeOk s1.stack := by
+  have hc' : CodeAt img pc (genRv n (.to (.loopVar .counter)) ++
+      ((genRv lo (.to (.loopVar .first)) ++ genRv hi (.to (.loopVar .last)) ++
+        [Instr.move (.loopVar .first) (.var v)]) ++ calcIncr)) := by
+    simpa [indexVarRange, counter] using hc
+  let nv := s0.read n.src
+  let v0 := setLV [] .counter nv
+  let sa : State := { s0 with pc := (pc : Int) + 1, stack := .loop v0 h :: rest }
+  obtain ⟨hln, ha⟩ := run_simple_lv img s0 pc n hn .counter [] h rest hs hpc hc'.left hst
+  have ha : run img 1 s0 = sa := ha
+  have hcr := hc'.right
+  rw [hln] at hcr
+  have hra : sa.read lo.src = s0.read lo.src :=
+    read_simple_retop lo hlo s0 sa [] v0 h h rest hst rfl rfl rfl rfl
+  have hrb : sa.read hi.src = s0.read hi.src :=
+    read_simple_retop hi hhi s0 sa [] v0 h h rest hst rfl rfl rfl rfl
+  obtain ⟨s3, rest1, hr3, hs3, hpc3, hev3, hst3, hgv3, hcon3, hsc3, _⟩ :=
+    run_bounds img sa (pc + 1) h rest v lo hi hlo hhi v0 (by exact hs) (by simp [sa]) hcr.left rfl
+      (by exact hconst) (by rw [hst] at hscope; exact hscope.retop)
+  rw [hra, hrb] at hst3
+  rw [hra] at hgv3
+  have hcnt : Num (getLV (setLV (setLV v0 .first (s0.read lo.src)) .last (s0.read hi.src)) .counter) c fl := by
+    rw [getLV_setLV_other _ _ _ _ (by simp), getLV_setLV_other _ _ _ _ (by simp), getLV_setLV_self]
+    exact hnv
+  have hf : Num (getLV (setLV (setLV v0 .first (s0.read lo.src)) .last (s0.read hi.src)) .first) x fx := by
+    rw [getLV_setLV_other _ _ _ _ (by simp), getLV_setLV_self]; exact hav
+  have hl : Num (getLV (setLV (setLV v0 .first (s0.read lo.src)) .last (s0.read hi.src)) .last) y fy := by
+    rw [getLV_setLV_self]; exact hbv
+  have hci : CodeAt img (pc + 1 + 3) calcIncr := by
+    have := hcr.right
+    simpa [genRv_simple_length lo hlo, genRv_simple_length hi hhi] using this
+  obtain ⟨k, vars', hrun, hinc, hoth⟩ := run_calcIncr img s3 (pc + 1 + 3) _ h rest1 c x y fl fx fy hs3
+    (by rw [hpc3]; simp) hci hst3 hcnt hf hl
+  refine ⟨1 + (3 + k), _, vars', rest1, run_trans ha (run_trans hr3 hrun), hs3, ?_, hev3, rfl, ?_, hinc, ?_,
+    hcon3, ?_⟩
+  · simp; omega
+  · rw [hoth _ (by simp)]; exact hcnt
+  · rw [← hgv3]
+    exact getVariable_retop s3 _ _ vars' h h rest1 v hst3 rfl rfl rfl
+  · rw [hst3] at hsc3; exact hsc3.retop
+
+theorem interp_pre_length (v : String) (n lo hi : Rv) (hn : SimpleArg n) (hlo : SimpleArg lo)
+    (hhi : SimpleArg hi) : (genRv n (.to counter) ++ indexVarRange v lo hi false).length = 19 := by
+  rw [List.length_append, indexVarRange_length v lo hi hlo hhi]
+  have := genRv_simple_length n hn .counter
+  simp only [counter] at this ⊢
+  rw [this]; rfl
+
+/-- **interp_loop (chain form).**  `repeat n with v from a to b` with simple operands `n`,
+`lo`, `hi` (literals, variables, registers — read once, when the loop starts, as numbers `c`,
+`x`, `y`) and a body that does not assign `v`: `passes c` passes (for an integer `n ≥ 0`: `n`);
+at the start of pass `k` the variable `v` holds a number whose exact value is
+`x + k·(y − x)/(c − 1)` — so `a` in the first and, for an integer `n ≥ 2`, `b` in the last pass
+(`C04_interp_last`) — `n = 1` gives the single value `a`, `n = 0` no pass. -/
+theorem C04_interp_loop_chain (img : Image) (P0 : Nat) (b : List Instr) (v : String) (n lo hi : Rv)
+    (hn : SimpleArg n) (hlo : SimpleArg lo) (hhi : SimpleArg hi)
+    (c x y : Rat) (fl fx fy : Bool)
+    (hc : CodeAt img P0 (unG (assembleLoop
+      (genRv n (.to counter) ++ indexVarRange v lo hi false) counterTest []
+      (ins b) (loopPost (some v)))))
+    (s : State) (hs : s.status = .running) (hpc : s.pc = (P0 : Int))
+    (hconst : s.constants.get v = none) (hscope : ScopeOk s.stack)
+    (hnv : Num (s.read n.src) c fl) (hav : Num (s.read lo.src) x fx) (hbv : Num (s.read hi.src) y fy) :
+    ∃ s1 vars rest1, (∃ k, run img k s = s1) ∧ s1.status = .running ∧
+      s1.stack = .loop vars s.eval.length :: rest1 ∧ s1.getVariable v = s.read lo.src ∧
+      s1.constants.get v = none ∧ ScopeOk s1.stack ∧
+      ∀ (ts : List State) (s' : State),
+        Passes (BodyRunV img b v) (enterBody (P0 + 1 + 19 + 5)) (varPost (P0 + 1 + 19) v) s1 ts s' →
+        ts.length = passes c →
+        (∃ k, run img k s = exitLoop (P0 + (b.length + 35)) s') ∧
+        (exitLoop (P0 + (b.length + 35)) s').eval = s.eval ∧
+        (∃ vars' rest', s'.stack = .loop vars' s.eval.length :: rest') ∧
+        (∀ k (hk : k < ts.length), ∃ f,
+          Num (ts[k].getVariable v) (x + (k : Rat) * (if c = 1 then 0 else (y - x) / (c - 1))) f) := by
+  have hprelen := interp_pre_length v n lo hi hn hlo hhi
+  have hlenAll : (unG (assembleLoop
+      (genRv n (.to counter) ++ indexVarRange v lo hi false) counterTest []
+      (ins b) (loopPost (some v)))).length = b.length + 35 := by
+    rw [assembled_length, hprelen, loopPost_some_length]; omega
+  rw [assembled_counted] at hc hlenAll
+  obtain ⟨hL, hPre, _, _⟩ := loopCode_parts hc
+  obtain ⟨k0, s1, vars, rest1, hrun, hr1, hpc1, hev1, hst1, hcnt, hinc, hgv, hcon1, hsc1⟩ :=
+    interp_prologue img (afterLoop s) (P0 + 1) s.eval.length s.stack v n lo hi hn hlo hhi c x y fl fx fy
+      (by exact hs) (by simp [afterLoop, hpc]) hPre rfl (by exact hconst) (ScopeOk.cons_loop hscope)
+      (by rw [read_simple_afterLoop n hn]; exact hnv) (by rw [read_simple_afterLoop lo hlo]; exact hav)
+      (by rw [read_simple_afterLoop hi hhi]; exact hbv)
+  rw [read_simple_afterLoop lo hlo] at hgv
+  refine ⟨s1, vars, rest1, ⟨1 + k0, run_trans (run_loop_instr img s P0 hs hpc hL) hrun⟩, hr1, hst1, hgv,
+    by rw [hcon1]; exact hconst, hsc1, ?_⟩
+  intro ts s' hp hlen
+  obtain ⟨hrun', hev', hfr', hvals, _⟩ := var_loop_whole img P0 _ b v hc s s1 hs hpc ⟨k0, hrun⟩ hr1
+    (by rw [hpc1, hprelen]; simp) hev1 vars rest1 _ _ _ _ x fx hst1 hcnt hinc (by rw [hgv]; exact hav)
+    ts s' (by rw [hprelen]; exact hp) hlen
+  rw [hlenAll] at hrun' hev'
+  refine ⟨hrun', hev', hfr', ?_⟩
+  intro k hk
+  rw [hvals k hk, hgv]
+  exact ⟨_, C04_series_closed_form (s.read lo.src) _ x _ fx _ hav hinc k⟩
+
+/-- both ends are included: with a count `c ≠ 1` the value of pass `c − 1` is the upper bound -/
+theorem C04_interp_last (x y c : Rat) (hc : c ≠ 1) :
+    x + (c - 1) * (if c = 1 then 0 else (y - x) / (c - 1)) = y := by
+  have h1 : c - 1 ≠ 0 := by grind
+  rw [if_neg hc, Rat.div_def, ← Rat.mul_assoc, Rat.mul_comm (c - 1), Rat.mul_assoc,
+    Rat.mul_inv_cancel _ h1]
+  grind
+
+/-! ## `repeat n with v cycle s` -/
+
+/-- the start value of a cycle given as a literal: the given one, else 0 -/
+def cycleStart (start : Option Val) : Val := start.getD (.int 0)
+
+theorem cycle_pre_eq (v : String) (nv : Val) (start : Option Val) :
+    genRv (.lit nv) (.to counter) ++ cycleVarRange v (start.map Rv.lit) =
+      [Instr.moveq nv (.loopVar .counter)] ++
+      ([Instr.moveq (cycleStart start) (.loopVar .first), .move (.loopVar .first) (.var v)] ++
+        cycleTail) := by
+  cases start <;> simp [cycleVarRange, genRv, counter, cycleTail, cycleStart]
+
+/-- the start operand of a cycle: the given one, else the literal 0 -/
+def startRv (start : Option Rv) : Rv := start.getD (.lit (.int 0))
+
+theorem startRv_simple (start : Option Rv) (h : ∀ a, start = some a → SimpleArg a) :
+    SimpleArg (startRv start) := by
+  cases start with
+  | none => exact .lit _
+  | some a => exact h a rfl
+
+theorem cycleVarRange_eq (v : String) (start : Option Rv) :
+    cycleVarRange v start =
+      genRv (startRv start) (.to (.loopVar .first)) ++ [Instr.move (.loopVar .first) (.var v)] ++
+        cycleTail := by
+  cases start <;> simp [cycleVarRange, genRv, cycleTail, startRv]
+
+/-- `first := s; v := first` -/
+theorem run_start (img : Image) (s0 : State) (pc h : Nat) (rest : List Frame) (v : String)
+    (a : Rv) (ha : SimpleArg a) (vars0 : List (LoopVar × Val))
+    (hs : s0.status = .running) (hpc : s0.pc = (pc : Int))
+    (hc : CodeAt img pc (genRv a (.to (.loopVar .first)) ++ [Instr.move (.loopVar .first) (.var v)]))
+    (hst : s0.stack = .loop vars0 h :: rest) (hconst : s0.constants.get v = none)
+    (hscope : ScopeOk s0.stack) :
+    ∃ s3 rest1, run img 2 s0 = s3 ∧ s3.status = .running ∧ s3.pc = (pc : Int) + 2 ∧ s3.eval = s0.eval ∧
+      s3.stack = .loop (setLV vars0 .first (s0.read a.src)) h :: rest1 ∧
+      s3.getVariable v = s0.read a.src ∧ s3.constants = s0.constants ∧ ScopeOk s3.stack ∧
+      s3.regs = s0.regs := by
+  let sv := s0.read a.src
+  let v1 := setLV vars0 .first sv
+  let sa : State := { s0 with pc := (pc : Int) + 1, stack := .loop v1 h :: rest }
+  obtain ⟨hla, ha1⟩ := run_simple_lv img s0 pc a ha .first vars0 h rest hs hpc hc.left hst
+  have ha1 : run img 1 s0 = sa := ha1
+  have hgf : getLV v1 .first = sv := getLV_setLV_self _ _ _
+  have hmv : img.code[pc + 1]? = some (.move (.loopVar .first) (.var v)) := by
+    have := hc.right.head; simpa [hla] using this
+  have hcm : run img 1 sa = { sa.putVariable v sv with pc := (pc : Int) + 2 } := by
+    rw [run_move_lv_var img sa (pc + 1) .first v v1 h rest (by exact hs) (by simp [sa]) hmv rfl, hgf]
+    apply State.ext' <;> first | rfl | (simp; omega)
+  obtain ⟨hget, hsc, hcon, htop⟩ := putVariable_get sa v sv hconst (by rw [hst] at hscope; exact hscope.retop)
+  obtain ⟨rest1, hst3⟩ := htop v1 h rest rfl
+  refine ⟨{ sa.putVariable v sv with pc := (pc : Int) + 2 }, rest1, ?_, ?_, rfl, ?_, hst3, hget, hcon, hsc, ?_⟩
+  · exact run_trans ha1 hcm
+  · simpa [putVariable_status] using hs
+  · simp only []; rw [putVariable_eval]
+  · show (sa.putVariable v sv).regs = s0.regs
+    unfold State.putVariable
+    repeat' split
+    all_goals rfl
+
+theorem cycle_pre_length (v : String) (n : Rv) (start : Option Rv) (hn : SimpleArg n)
+    (hst : SimpleArg (startRv start)) :
+    (genRv n (.to counter) ++ cycleVarRange v start).length = 21 := by
+  rw [List.length_append, cycleVarRange_eq]
+  have h1 := genRv_simple_length n hn .counter
+  have h2 := genRv_simple_length (startRv start) hst .first
+  simp only [counter] at h1 ⊢
+  simp only [List.length_append, h1, h2, List.length_cons, List.length_nil]
+  rfl
+
+/-- **cycle prologue.**  `genRv n → counter; cycleVarRange v s` with simple operands. -/
+theorem cycle_prologue (img : Image) (s0 : State) (pc h : Nat) (rest : List Frame) (v : String)
+    (n : Rv) (start : Option Rv) (hn : SimpleArg n) (hsr : SimpleArg (startRv start))
+    (c : Rat) (fl : Bool) (m : UnitMode)
+    (hs : s0.status = .running) (hpc : s0.pc = (pc : Int))
+    (hc : CodeAt img pc (genRv n (.to counter) ++ cycleVarRange v start))
+    (hst : s0.stack = .loop [] h :: rest) (hconst : s0.constants.get v = none)
+    (hscope : ScopeOk s0.stack) (hnv : Num (s0.read n.src) c fl) (hm : s0.regs .unitMode = .mode m) :
+    ∃ k s1 vars rest1, run img k s0 = s1 ∧ s1.status = .running ∧
+      s1.pc = (pc : Int) + 21 ∧ s1.eval = s0.eval ∧
+      s1.stack = .loop vars h :: rest1 ∧
+      Num (getLV vars .counter) c fl ∧
+      Num (getLV vars .incr) (if c = 0 then 0 else ((turnOf m : Int) : Rat) / c) (!decide (c = 0)) ∧
+      s1.getVariable v = s0.read (startRv start).src ∧ s1.constants = s0.constants ∧
+      ScopeOk s1.stack := by
+  have hc' : CodeAt img pc (genRv n (.to (.loopVar .counter)) ++
+      ((genRv (startRv start) (.to (.loopVar .first)) ++ [Instr.move (.loopVar .first) (.var v)]) ++
+        cycleTail)) := by
+    rw [cycleVarRange_eq] at hc; simpa [counter] using hc
+  let nv := s0.read n.src
+  let v0 := setLV [] .counter nv
+  let sa : State := { s0 with pc := (pc : Int) + 1, stack := .loop v0 h :: rest }
+  obtain ⟨hln, ha⟩ := run_simple_lv img s0 pc n hn .counter [] h rest hs hpc hc'.left hst
+  have ha : run img 1 s0 = sa := ha
+  have hcr := hc'.right
+  rw [hln] at hcr
+  have hra : sa.read (startRv start).src = s0.read (startRv start).src :=
+    read_simple_retop _ hsr s0 sa [] v0 h h rest hst rfl rfl rfl rfl
+  obtain ⟨s3, rest1, hr3, hs3, hpc3, hev3, hst3, hgv3, hcon3, hsc3, hregs3⟩ :=
+    run_start img sa (pc + 1) h rest v (startRv start) hsr v0 (by exact hs) (by simp [sa]) hcr.left rfl
+      (by exact hconst) (by rw [hst] at hscope; exact hscope.retop)
+  rw [hra] at hst3 hgv3
+  have hcnt : Num (getLV (setLV v0 .first (s0.read (startRv start).src)) .counter) c fl := by
+    rw [getLV_setLV_other _ _ _ _ (by simp), getLV_setLV_self]
+    exact hnv
+  have hct : CodeAt img (pc + 1 + 2) cycleTail := by
+    have := hcr.right
+    simpa [genRv_simple_length _ hsr] using this
+  obtain ⟨k, vars', R, hrun, hR, hinc, hoth⟩ := run_cycleIncr img s3 (pc + 1 + 2) _ h rest1 c fl m hs3
+    (by rw [hpc3]; simp) hct hst3 hcnt (by rw [hregs3]; exact hm)
+  refine ⟨1 + (2 + k), _, vars', rest1, run_trans ha (run_trans hr3 hrun), hs3, ?_, hev3, rfl, ?_, hinc, ?_,
+    hcon3, ?_⟩
+  · simp; omega
+  · rw [hoth _ (by simp)]; exact hcnt
+  · rw [← hgv3]
+    exact getVariable_retop s3 _ _ vars' h h rest1 v hst3 rfl rfl rfl
+  · rw [hst3] at hsc3; exact hsc3.retop
+
+/-- **cycle_loop (chain form).**  `repeat n with v cycle [s]` with a simple count `n` (value
+`c` when the loop starts) and simple start `s` (value `x`; the literal 0 when absent) and a body
+that does not assign `v`: `passes c` passes; at the start of pass `k` the variable `v` holds a
+number whose exact value is `x + k·turn/c`, where `turn` is 65536 if the unit-mode register holds
+`raw` when the loop starts and 360 otherwise; `n = 0` gives no pass and no fault. -/
+theorem C04_cycle_loop_chain (img : Image) (P0 : Nat) (b : List Instr) (v : String) (n : Rv)
+    (start : Option Rv) (hn : SimpleArg n) (hsr : SimpleArg (startRv start))
+    (c x : Rat) (fl fx : Bool) (m : UnitMode)
+    (hc : CodeAt img P0 (unG (assembleLoop
+      (genRv n (.to counter) ++ cycleVarRange v start) counterTest []
+      (ins b) (loopPost (some v)))))
+    (s : State) (hs : s.status = .running) (hpc : s.pc = (P0 : Int))
+    (hconst : s.constants.get v = none) (hscope : ScopeOk s.stack)
+    (hnv : Num (s.read n.src) c fl) (hsv : Num (s.read (startRv start).src) x fx)
+    (hm : s.regs .unitMode = .mode m) :
+    ∃ s1 vars rest1, (∃ k, run img k s = s1) ∧ s1.status = .running ∧
+      s1.stack = .loop vars s.eval.length :: rest1 ∧ s1.getVariable v = s.read (startRv start).src ∧
+      s1.constants.get v = none ∧ ScopeOk s1.stack ∧
+      ∀ (ts : List State) (s' : State),
+        Passes (BodyRunV img b v) (enterBody (P0 + 1 + 21 + 5)) (varPost (P0 + 1 + 21) v) s1 ts s' →
+        ts.length = passes c →
+        (∃ k, run img k s = exitLoop (P0 + (b.length + 37)) s') ∧
+        (exitLoop (P0 + (b.length + 37)) s').eval = s.eval ∧
+        (∃ vars' rest', s'.stack = .loop vars' s.eval.length :: rest') ∧
+        (∀ k (hk : k < ts.length), ∃ f,
+          Num (ts[k].getVariable v)
+            (x + (k : Rat) * (if c = 0 then 0 else ((turnOf m : Int) : Rat) / c)) f) := by
+  have hprelen := cycle_pre_length v n start hn hsr
+  have hlenAll : (unG (assembleLoop
+      (genRv n (.to counter) ++ cycleVarRange v start) counterTest []
+      (ins b) (loopPost (some v)))).length = b.length + 37 := by
+    rw [assembled_length, hprelen, loopPost_some_length]; omega
+  rw [assembled_counted] at hc hlenAll
+  obtain ⟨hL, hPre, _, _⟩ := loopCode_parts hc
+  obtain ⟨k0, s1, vars, rest1, hrun, hr1, hpc1, hev1, hst1, hcnt, hinc, hgv, hcon1, hsc1⟩ :=
+    cycle_prologue img (afterLoop s) (P0 + 1) s.eval.length s.stack v n start hn hsr c fl m
+      (by exact hs) (by simp [afterLoop, hpc]) hPre rfl (by exact hconst) (ScopeOk.cons_loop hscope)
+      (by rw [read_simple_afterLoop n hn]; exact hnv) (by exact hm)
+  rw [read_simple_afterLoop _ hsr] at hgv
+  refine ⟨s1, vars, rest1, ⟨1 + k0, run_trans (run_loop_instr img s P0 hs hpc hL) hrun⟩, hr1, hst1, hgv,
+    by rw [hcon1]; exact hconst, hsc1, ?_⟩
+  intro ts s' hp hlen
+  obtain ⟨hrun', hev', hfr', hvals, _⟩ := var_loop_whole img P0 _ b v hc s s1 hs hpc ⟨k0, hrun⟩ hr1
+    (by rw [hpc1, hprelen]; simp) hev1 vars rest1 _ _ _ _ x fx hst1 hcnt hinc (by rw [hgv]; exact hsv)
+    ts s' (by rw [hprelen]; exact hp) hlen
+  rw [hlenAll] at hrun' hev'
+  refine ⟨hrun', hev', hfr', ?_⟩
+  intro k hk
+  rw [hvals k hk, hgv]
+  exact ⟨_, C04_series_closed_form _ _ x _ fx _ hsv hinc k⟩
+
+/-- no pass and no fault with a count of 0 -/
+theorem C04_cycle_zero : passes 0 = 0 := passes_nonpos (by decide)
+
+theorem body_at {img : Image} {P0 : Nat} {pre b post : List Instr}
+    (hc : CodeAt img P0 (loopCode pre counterTest (b ++ post))) :
+    CodeAt img (P0 + 1 + pre.length + 5) b := by
+  obtain ⟨_, _, hT, _⟩ := loopCode_parts hc
+  exact (loopTail_parts hT).2.2.1
+
+/-- **interp_loop.**  With a body that satisfies the contract from every state. -/
+theorem C04_interp_loop (img : Image) (P0 : Nat) (b : List Instr) (v : String) (n lo hi : Rv)
+    (hn : SimpleArg n) (hlo : SimpleArg lo) (hhi : SimpleArg hi)
+    (c x y : Rat) (fl fx fy : Bool)
+    (hc : CodeAt img P0 (unG (assembleLoop
+      (genRv n (.to counter) ++ indexVarRange v lo hi false) counterTest []
+      (ins b) (loopPost (some v)))))
+    (s : State) (hs : s.status = .running) (hpc : s.pc = (P0 : Int))
+    (hconst : s.constants.get v = none) (hscope : ScopeOk s.stack)
+    (hnv : Num (s.read n.src) c fl) (hav : Num (s.read lo.src) x fx) (hbv : Num (s.read hi.src) y fy)
+    (hok : BodyOkV img b v) :
+    ∃ (ts : List State) (s' : State),
+      ts.length = passes c ∧
+      (∃ k, run img k s = exitLoop (P0 + (b.length + 35)) s') ∧
+      (exitLoop (P0 + (b.length + 35)) s').eval = s.eval ∧
+      (∃ vars' rest', s'.stack = .loop vars' s.eval.length :: rest') ∧
+      (∀ k (hk : k < ts.length), ∃ f,
+        Num (ts[k].getVariable v) (x + (k : Rat) * (if c = 1 then 0 else (y - x) / (c - 1))) f) ∧
+      ∃ s1, Passes (BodyRunV img b v) (enterBody (P0 + 1 + 19 + 5)) (varPost (P0 + 1 + 19) v) s1 ts s' := by
+  obtain ⟨s1, vars, rest1, hk1, hr1, hst1, hgv, hcon1, hsc1, hall⟩ :=
+    C04_interp_loop_chain img P0 b v n lo hi hn hlo hhi c x y fl fx fy hc s hs hpc hconst hscope hnv hav hbv
+  have hB : CodeAt img (P0 + 1 + 19 + 5) b := by
+    rw [assembled_counted] at hc
+    have := body_at hc
+    rw [interp_pre_length v n lo hi hn hlo hhi] at this
+    exact this
+  obtain ⟨ts, s', hp, hl⟩ := var_chain_exists img (P0 + 1 + 19) b v hB hok (passes c) s1 vars
+    s.eval.length rest1 hr1 hst1 hcon1 hsc1
+  obtain ⟨hrun, hev, hfr, hvals⟩ := hall ts s' hp hl
+  exact ⟨ts, s', hl, hrun, hev, hfr, hvals, s1, hp⟩
+
+/-- **cycle_loop.**  With a body that satisfies the contract from every state. -/
+theorem C04_cycle_loop (img : Image) (P0 : Nat) (b : List Instr) (v : String) (n : Rv)
+    (start : Option Rv) (hn : SimpleArg n) (hsr : SimpleArg (startRv start))
+    (c x : Rat) (fl fx : Bool) (m : UnitMode)
+    (hc : CodeAt img P0 (unG (assembleLoop
+      (genRv n (.to counter) ++ cycleVarRange v start) counterTest []
+      (ins b) (loopPost (some v)))))
+    (s : State) (hs : s.status = .running) (hpc : s.pc = (P0 : Int))
+    (hconst : s.constants.get v = none) (hscope : ScopeOk s.stack)
+    (hnv : Num (s.read n.src) c fl) (hsv : Num (s.read (startRv start).src) x fx)
+    (hm : s.regs .unitMode = .mode m) (hok : BodyOkV img b v) :
+    ∃ (ts : List State) (s' : State),
+      ts.length = passes c ∧
+      (∃ k, run img k s = exitLoop (P0 + (b.length + 37)) s') ∧
+      (exitLoop (P0 + (b.length + 37)) s').eval = s.eval ∧
+      (∃ vars' rest', s'.stack = .loop vars' s.eval.length :: rest') ∧
+      (∀ k (hk : k < ts.length), ∃ f,
+        Num (ts[k].getVariable v)
+          (x + (k : Rat) * (if c = 0 then 0 else ((turnOf m : Int) : Rat) / c)) f) ∧
+      ∃ s1, Passes (BodyRunV img b v) (enterBody (P0 + 1 + 21 + 5)) (varPost (P0 + 1 + 21) v) s1 ts s' := by
+  obtain ⟨s1, vars, rest1, hk1, hr1, hst1, hgv, hcon1, hsc1, hall⟩ :=
+    C04_cycle_loop_chain img P0 b v n start hn hsr c x fl fx m hc s hs hpc hconst hscope hnv hsv hm
+  have hB : CodeAt img (P0 + 1 + 21 + 5) b := by
+    rw [assembled_counted] at hc
+    have := body_at hc
+    rw [cycle_pre_length v n start hn hsr] at this
+    exact this
+  obtain ⟨ts, s', hp, hl⟩ := var_chain_exists img (P0 + 1 + 21) b v hB hok (passes c) s1 vars
+    s.eval.length rest1 hr1 hst1 hcon1 hsc1
+  obtain ⟨hrun, hev, hfr, hvals⟩ := hall ts s' hp hl
+  exact ⟨ts, s', hl, hrun, hev, hfr, hvals, s1, hp⟩
+
+section WhileLoop
+open Sem
+
+/-! ## 4. `repeat while` -/
+
+/-- a call-free condition that does not read the `result` register (which the loop test itself
+overwrites; `Sem` does not model that register) -/
+inductive PureCond : Expr → Prop
+  | lit (v : Val) : Gen.pushLit v = .pushq v → PureCond (.lit v)
+  | var (n : String) : PureCond (.var n)
+  | reg (r : Reg) : r ≠ .result → PureCond (.reg r)
+  | un (minus : Bool) (e : Expr) : PureCond e → PureCond (.un minus e)
+  | bin (op : Operator) (a b : Expr) : PureCond a → PureCond b → PureCond (.bin op a b)
+  | paren (e : Expr) : PureCond e → PureCond (.paren e)
+
+theorem PureCond.callFree {e : Expr} (h : PureCond e) : CallFree e := by
+  induction h with
+  | lit v hv => exact .lit v hv
+  | var n => exact .var n
+  | reg r _ => exact .reg r
+  | un m e _ ih => exact .un m e ih
+  | bin op a b _ _ iha ihb => exact .bin op a b iha ihb
+  | paren e _ ih => exact .paren e ih
+
+/-- the value of such a condition depends only on what names denote and on the registers other
+than `result`; evaluating it changes nothing -/
+theorem evalExpr_pure_congr (e : Expr) (he : PureCond e) :
+    ∀ (f : Nat) (σ τ : S) (x : Val) (σ1 : S), (∀ n, σ.lookup n = τ.lookup n) →
+      (∀ r, r ≠ .result → σ.vm.regs r = τ.vm.regs r) → evalExpr f e σ = .ok (x, σ1) →
+      σ1 = σ ∧ evalExpr f e τ = .ok (x, τ) := by
+  induction he with
+  | lit v hv =>
+    intro f σ τ x σ1 _ _ h
+    cases f with
+    | zero => simp [evalExpr] at h
+    | succ f =>
+      simp only [evalExpr, Except.ok.injEq, Prod.mk.injEq] at h
+      obtain ⟨rfl, rfl⟩ := h
+      exact ⟨rfl, by simp [evalExpr]⟩
+  | var n =>
+    intro f σ τ x σ1 hl _ h
+    cases f with
+    | zero => simp [evalExpr] at h
+    | succ f =>
+      simp only [evalExpr] at h ⊢
+      rw [← hl n]
+      split at h
+      · simp at h
+      · rename_i hne
+        simp only [Except.ok.injEq, Prod.mk.injEq] at h
+        obtain ⟨rfl, rfl⟩ := h
+        exact ⟨rfl, rfl⟩
+  | reg r hr =>
+    intro f σ τ x σ1 _ hrg h
+    cases f with
+    | zero => simp [evalExpr] at h
+    | succ f =>
+      simp only [evalExpr] at h ⊢
+      rw [← hrg r hr]
+      split at h
+      · simp at h
+      · rename_i hne
+        simp only [Except.ok.injEq, Prod.mk.injEq] at h
+        obtain ⟨rfl, rfl⟩ := h
+        exact ⟨rfl, rfl⟩
+  | paren e _ ih =>
+    intro f σ τ x σ1 hl hrg h
+    cases f with
+    | zero => simp [evalExpr] at h
+    | succ f =>
+      simp only [evalExpr] at h ⊢
+      exact ih f σ τ x σ1 hl hrg h
+  | un minus e _ ih =>
+    intro f σ τ x σ1 hl hrg h
+    cases f with
+    | zero => simp [evalExpr] at h
+    | succ f =>
+      simp only [evalExpr] at h ⊢
+      split at h
+      · rename_i v σ2 hev
+        obtain ⟨rfl, hτ⟩ := ih f σ τ v σ2 hl hrg hev
+        rw [hτ]
+        cases minus with
+        | false =>
+          simp only [Bool.false_eq_true, if_false, Except.ok.injEq, Prod.mk.injEq] at h
+          obtain ⟨rfl, rfl⟩ := h
+          exact ⟨rfl, by simp⟩
+        | true =>
+          simp only [if_true] at h ⊢
+          split at h
+          · rename_i r hr
+            simp only [Except.ok.injEq, Prod.mk.injEq] at h
+            obtain ⟨rfl, rfl⟩ := h
+            exact ⟨rfl, by simp⟩
+          · simp at h
+      · simp at h
+  | bin op a b _ _ iha ihb =>
+    intro f σ τ r σ1 hl hrg h
+    cases f with
+    | zero => simp [evalExpr] at h
+    | succ f =>
+      obtain ⟨x, σ2, y, ha, hb, hv⟩ := evalExpr_bin_ok f op a b σ σ1 r h
+      obtain ⟨rfl, hτa⟩ := iha f σ τ x σ2 hl hrg ha
+      obtain ⟨rfl, hτb⟩ := ihb f σ2 τ y σ1 hl hrg hb
+      refine ⟨rfl, ?_⟩
+      simp only [evalExpr, hτa, hτb]
+      cases op <;> simp [binVal] at hv ⊢ <;> first | exact hv | (simp [hv]) | skip
+      -- `^`
+      split at hv
+      · rename_i q fl hy
+        split at hv
+        · simp at hv
+        · rename_i hq
+          simp only [hv, hy]
+          rw [if_neg hq]
+      · simp at hv
+
+
+/-- the source-level state and the VM state give names and registers — `result` apart, which
+the code of conditions uses as scratch and `Sem` does not model — the same meaning -/
+def EnvR (σ : S) (s : State) : Prop :=
+  (∀ n, σ.lookup n = s.getVariable n) ∧ ∀ r, r ≠ .result → σ.vm.regs r = s.regs r
+
+/-- `Sem.execWhile` instrumented: the number of passes made and the final state, when the loop
+ends normally after passes that all end normally (no `break`, which is `C04_break_innermost`'s
+subject) -/
+def whilePasses : Nat → Rv → Block → S → Option (Nat × S)
+  | 0, _, _, _ => none
+  | f + 1, c, body, s =>
+    match evalRv f c s with
+    | .ok (v, s1) =>
+      if v.truthy then
+        match execBlock f body s1 with
+        | (.normal, s2) => (whilePasses f c body s2).map fun (m, s') => (m + 1, s')
+        | _ => none
+      else some (0, s1)
+    | .error _ => none
+
+/-- it is `Sem.execWhile` that is being counted -/
+theorem whilePasses_execWhile (f : Nat) (c : Rv) (body : Block) :
+    ∀ (σ σ' : S) (m : Nat), whilePasses f c body σ = some (m, σ') →
+      execWhile f (some c) body σ = (.normal, σ') := by
+  induction f with
+  | zero => intro σ σ' m h; simp [whilePasses] at h
+  | succ f ih =>
+    intro σ σ' m h
+    simp only [whilePasses] at h
+    simp only [execWhile]
+    split at h
+    · rename_i v s1 hev
+      rw [hev]
+      split at h
+      · rename_i hv
+        simp only [hv]
+        split at h
+        · rename_i s2 hb
+          rw [hb]
+          cases hw : whilePasses f c body s2 with
+          | none => simp [hw] at h
+          | some p =>
+            obtain ⟨m', s''⟩ := p
+            simp only [hw, Option.map_some, Option.some.injEq, Prod.mk.injEq] at h
+            obtain ⟨_, rfl⟩ := h
+            exact ih s2 s'' m' hw
+        · simp at h
+      · rename_i hv
+        have hv' : v.truthy = false := by simpa using hv
+        simp only [Option.some.injEq, Prod.mk.injEq] at h
+        obtain ⟨_, rfl⟩ := h
+        simp only [hv']
+    · simp at h
+
+/-- test passed: `result` holds the (true) value of the condition, control is at the body -/
+def enterW (bodyPc : Nat) (x : Val) (s : State) : State :=
+  { s with pc := (bodyPc : Int), regs := fun r => if r = .result then x else s.regs r }
+
+/-- test failed and `END_LOOP` ran -/
+def exitW (afterPc : Nat) (x : Val) (s : State) : State :=
+  { s with pc := (afterPc : Int), regs := fun r => if r = .result then x else s.regs r,
+           stack := s.stack.tail }
+
+/-- passes of a `while` loop: before each one the condition was evaluated — to a true value
+`x` — and after each one control is back at the loop top with nothing else changed -/
+inductive WhilePasses (K : State → State → Prop) (bodyPc top : Nat) :
+    State → List State → State → Prop
+  | done (s : State) : WhilePasses K bodyPc top s [] s
+  | pass {s u s' : State} {ts : List State} (x : Val) : x.truthy = true → K (enterW bodyPc x s) u →
+      WhilePasses K bodyPc top ({ u with pc := (top : Int) }) ts s' →
+      WhilePasses K bodyPc top s (enterW bodyPc x s :: ts) s'
+
+/-- **the body's simulation contract**: whenever the source-level body, started in a state `σ`
+that agrees with the VM state `t` at the body's first instruction, ends normally in `σ'`, the
+body's code runs as `BodyRun` says to a state that agrees with `σ'` -/
+def BodySim (Rel : S → State → Prop) (img : Image) (b : List Instr) (body : Block) : Prop :=
+  ∀ (f : Nat) (σ σ' : S) (t : State), Rel σ t → t.status = .running →
+    (∃ pc : Nat, t.pc = (pc : Int) ∧ CodeAt img pc b) →
+    (∃ vars h rest, t.stack = .loop vars h :: rest) →
+    execBlock f body σ = (.normal, σ') → ∃ u, BodyRun img b t u ∧ Rel σ' u
+
+/-- what a loop's own control code may do to a state: move `pc`, overwrite `result`, push, pop
+or keep the innermost loop frame — and nothing else -/
+structure CtlStep (s s' : State) : Prop where
+  regs : ∀ r, r ≠ .result → s'.regs r = s.regs r
+  stack : s'.stack = s.stack ∨ (∃ vars h, s'.stack = .loop vars h :: s.stack) ∨
+    (∃ vars h, s.stack = .loop vars h :: s'.stack)
+  defaultColor : s'.defaultColor = s.defaultColor
+  matrix : s'.matrix = s.matrix
+  globals : s'.globals = s.globals
+  constants : s'.constants = s.constants
+  eval : s'.eval = s.eval
+  unnamed : s'.unnamed = s.unnamed
+  lights : s'.lights = s.lights
+  trace : s'.trace = s.trace
+  status : s'.status = s.status
+  draws : s'.draws = s.draws
+
+/-- a relation between source-level and VM states that the while theorem can carry through a
+loop: it implies agreement on names and registers, and loop control does not disturb it -/
+structure RelOk (Rel : S → State → Prop) : Prop where
+  env : ∀ σ s, Rel σ s → EnvR σ s
+  ctl : ∀ σ s s', Rel σ s → CtlStep s s' → Rel σ s'
+
+theorem getVariable_ctl {s s' : State} (h : CtlStep s s') (n : String) :
+    s'.getVariable n = s.getVariable n := by
+  simp only [State.getVariable, h.constants, h.globals]
+  rcases h.stack with e | ⟨vars, hh, e⟩ | ⟨vars, hh, e⟩
+  · rw [e]
+  · rw [e, activation_cons_loop]
+  · rw [e, activation_cons_loop]
+
+/-- agreement on names and registers is such a relation -/
+theorem EnvR.relOk : RelOk EnvR where
+  env := fun _ _ h => h
+  ctl := fun σ s s' h hc => ⟨fun n => by rw [getVariable_ctl hc n]; exact h.1 n,
+    fun r hr => by rw [hc.regs r hr]; exact h.2 r hr⟩
+
+theorem while_from_top (img : Image) (top : Nat) (e : Expr) (b : List Instr) (body : Block)
+    (he : PureCond e)
+    (hc : CodeAt img top (loopTail (genExpr e ++ [Instr.pop (.reg .result)]) (b ++ [])))
+    (Rel : S → State → Prop) (hrel : RelOk Rel) (hsim : BodySim Rel img b body) :
+    ∀ (f : Nat) (σ σ' : S) (m : Nat) (s : State) (vars : List (LoopVar × Val)) (h : Nat)
+      (rest : List Frame),
+      Rel σ s → s.status = .running → s.pc = (top : Int) → s.stack = .loop vars h :: rest →
+      s.eval.length = h → whilePasses f (.expr e) body σ = some (m, σ') →
+      ∃ ts s_top xf k,
+        WhilePasses (BodyRun img b) (top + (genExpr e).length + 2) top s ts s_top ∧ ts.length = m ∧
+        xf.truthy = false ∧
+        run img k s = exitW (top + (genExpr e).length + b.length + 4) xf s_top ∧
+        Rel σ' (exitW (top + (genExpr e).length + b.length + 4) xf s_top) ∧
+        s_top.eval = s.eval ∧ ∃ vars' rest', s_top.stack = .loop vars' h :: rest' := by
+  obtain ⟨hT, hJ, hB, _, hBk, hE⟩ := loopTail_parts hc
+  simp only [List.length_append, List.length_cons, List.length_nil, Nat.add_zero, Nat.zero_add] at hJ hB hBk hE
+  intro f
+  induction f with
+  | zero => intro σ σ' m s vars h rest _ _ _ _ _ hw; simp [whilePasses] at hw
+  | succ f ih =>
+    intro σ σ' m s vars h rest hrl hs hpc hst hev hw
+    have henv := hrel.env σ s hrl
+    simp only [whilePasses] at hw
+    cases f with
+    | zero => simp [evalRv] at hw
+    | succ f =>
+      simp only [evalRv] at hw
+      cases hcond : evalExpr f e σ with
+      | error o => simp [hcond] at hw
+      | ok p =>
+        obtain ⟨x, σ1⟩ := p
+        simp only [hcond] at hw
+        -- the test code computes `x` into `result`
+        let τ : S := { σ with vm := { σ.vm with regs := s.regs } }
+        obtain ⟨rfl, hτ⟩ := evalExpr_pure_congr e he f σ τ x σ1 (fun _ => rfl)
+          (fun r hr => henv.2 r hr) hcond
+        have hsame : SameEnv τ s := ⟨fun n => henv.1 n, rfl⟩
+        have htest := C02_value_in_register img e he.callFree .result f τ τ x s top hs hpc
+          (by simpa [genRv] using hT) hsame hτ
+        simp only [genRv, List.length_append, List.length_cons, List.length_nil, Nat.zero_add] at htest
+        let sT : State :=
+          { s with pc := (top : Int) + ((genExpr e).length + 1 : Nat),
+                   regs := fun r' => if r' = .result then x else s.regs r' }
+        have hjmp := run_jump_ifFalse img sT (top + ((genExpr e).length + 1)) _ (by exact hs)
+          (by simp [sT]) hJ
+        by_cases hx : x.truthy = true
+        · simp only [hx, if_true] at hw
+          cases hbody : execBlock (f + 1) body σ1 with
+          | mk o σ2 =>
+            cases o <;> simp only [hbody] at hw <;> try (simp at hw)
+            cases hrec : whilePasses (f + 1) (.expr e) body σ2 with
+            | none => simp [hrec] at hw
+            | some q =>
+              obtain ⟨m', σ''⟩ := q
+              simp only [hrec, Option.some.injEq, Prod.mk.injEq] at hw
+              obtain ⟨w, ⟨rfl, rfl⟩, rfl⟩ := hw
+              have hent : run img 1 sT = enterW (top + (genExpr e).length + 2) x s := by
+                rw [hjmp]
+                apply State.ext' <;> first | rfl | (simp [sT, enterW, hx]; omega) | (simp [sT, enterW, hx])
+              obtain ⟨u, ⟨⟨k1, hk1⟩, hur, hupc, huev, hufr⟩, henv2⟩ :=
+                hsim (f + 1) σ1 σ2 (enterW (top + (genExpr e).length + 2) x s)
+                  (hrel.ctl σ1 s _ hrl ⟨fun r hr => by simp [enterW, hr], .inl rfl, rfl, rfl, rfl, rfl, rfl,
+                    rfl, rfl, rfl, rfl, rfl⟩)
+                  (by exact hs) ⟨top + (genExpr e).length + 2, rfl, by
+                    have : top + ((genExpr e).length + 1) + 1 = top + (genExpr e).length + 2 := by omega
+                    rw [← this]; exact hB⟩
+                  ⟨vars, h, rest, by exact hst⟩ hbody
+              obtain ⟨rest', hust⟩ := hufr vars h rest (by exact hst)
+              have hback : run img 1 u = { u with pc := (top : Int) } := by
+                rw [run_jump_always img u (top + ((genExpr e).length + 1) + 1 + b.length) _ hur
+                  (by rw [hupc]; simp [enterW]; omega) hBk]
+                apply State.ext' <;> first | rfl | (simp; omega)
+              obtain ⟨ts, s_top, xf, k2, hch, hl, hxf, hrun2, henv3, hev3, hfr3⟩ :=
+                ih σ2 σ'' m' ({ u with pc := (top : Int) } : State) vars h rest'
+                  (hrel.ctl σ2 u _ henv2 ⟨fun _ _ => rfl, .inl rfl, rfl, rfl, rfl, rfl, rfl, rfl, rfl, rfl, rfl,
+                    rfl⟩) (by exact hur) rfl (by exact hust)
+                  (by show u.eval.length = h; rw [huev]; exact hev) hrec
+              refine ⟨_ :: ts, s_top, xf, (genExpr e).length + 1 + (1 + (k1 + (1 + k2))),
+                .pass x hx ⟨⟨k1, hk1⟩, hur, hupc, huev, hufr⟩ hch, by simp [hl], hxf, ?_, henv3, ?_, hfr3⟩
+              · exact run_trans htest (run_trans hent (run_trans hk1 (run_trans hback hrun2)))
+              · rw [hev3]; exact huev
+        · have hx' : x.truthy = false := by simpa using hx
+          simp only [hx', Bool.false_eq_true, if_false, Option.some.injEq, Prod.mk.injEq] at hw
+          obtain ⟨rfl, rfl⟩ := hw
+          have hfail : run img 1 sT = ({ sT with pc := ((top + (genExpr e).length + b.length + 3 : Nat) : Int) } : State) := by
+            rw [hjmp]
+            apply State.ext' <;> first | rfl | (simp [sT, hx']; omega) | (simp [sT, hx'])
+          have hend : run img 1 ({ sT with pc := ((top + (genExpr e).length + b.length + 3 : Nat) : Int) } : State) =
+              exitW (top + (genExpr e).length + b.length + 4) x s := by
+            rw [run_one _ _ (by exact hs),
+              step_endLoop img _ (top + (genExpr e).length + b.length + 3) vars h rest (by exact hs) rfl
+                (by rw [← hE]; congr 1; omega) (by exact hst)]
+            apply State.ext' <;> first | rfl | (simp [sT, exitW, hst, trimEval, ← hev]; omega) |
+              (simp [sT, exitW, hst, trimEval, ← hev])
+          refine ⟨[], s, x, (genExpr e).length + 1 + (1 + 1), .done s, rfl, hx', ?_, ?_, rfl, vars, rest, hst⟩
+          · exact run_trans htest (run_trans hfail hend)
+          · exact hrel.ctl σ1 s _ hrl ⟨fun r hr => by simp [exitW, hr],
+              .inr (.inr ⟨vars, h, by simp [exitW, hst]⟩), rfl, rfl, rfl, rfl, rfl, rfl, rfl, rfl, rfl, rfl⟩
+
+
+theorem assembled_while (test b : List Instr) :
+    unG (assembleLoop [] test [] (ins b) []) = [Instr.loop] ++ [] ++ loopTail test (b ++ []) := by
+  rw [assembleLoop_ins, unG_ins, loopCode_eq]; simp
+
+/-- **while_loop.**  `repeat while {e}` for a call-free condition `e` (not reading the scratch
+register `result`) and any body related to its source `body` by `BodySim` for a state
+relation `Rel` that loop control preserves (`RelOk`; `EnvR` is one, `EnvR.relOk`): if the source-level
+loop `Sem.execWhile` ends normally after `m` passes in `σ'` (fuel `f`), then the VM, started at
+`LOOP` in a state that agrees with `σ`, evaluates the condition before every pass — each pass
+starts in a state `enterW … x …` with `x` the condition's value then, true — runs the body
+exactly `m` times, leaves the loop the first time the condition is false (`xf`), and ends just
+past `END_LOOP` in a state that agrees with `σ'`, loop frame popped, evaluation stack restored. -/
+theorem C04_while_loop (img : Image) (P0 : Nat) (e : Expr) (b : List Instr) (body : Block)
+    (he : PureCond e)
+    (hc : CodeAt img P0 (unG (assembleLoop [] (genRv (.expr e) (.to result)) [] (ins b) [])))
+    (Rel : S → State → Prop) (hrel : RelOk Rel)
+    (hsim : BodySim Rel img b body) (f : Nat) (σ σ' : S) (m : Nat) (s : State)
+    (henv : Rel σ s) (hs : s.status = .running) (hpc : s.pc = (P0 : Int))
+    (hw : whilePasses f (.expr e) body σ = some (m, σ')) :
+    execWhile f (some (.expr e)) body σ = (.normal, σ') ∧
+    ∃ ts s_top xf k,
+      WhilePasses (BodyRun img b) (P0 + 1 + (genExpr e).length + 2) (P0 + 1) (afterLoop s) ts s_top ∧
+      ts.length = m ∧ xf.truthy = false ∧
+      run img k s = exitW (P0 + 1 + (genExpr e).length + b.length + 4) xf s_top ∧
+      Rel σ' (exitW (P0 + 1 + (genExpr e).length + b.length + 4) xf s_top) ∧
+      s_top.eval = s.eval ∧ ∃ vars', s_top.stack = .loop vars' s.eval.length :: (exitW 0 xf s_top).stack := by
+  refine ⟨whilePasses_execWhile f _ body σ σ' m hw, ?_⟩
+  rw [assembled_while] at hc
+  have hL : img.code[P0]? = some .loop := by have := hc.left.left.head; simpa using this
+  have hT : CodeAt img (P0 + 1) (loopTail (genExpr e ++ [Instr.pop (.reg .result)]) (b ++ [])) := by
+    have := hc.right
+    simpa [genRv, result] using this
+  obtain ⟨ts, s_top, xf, k, hch, hl, hxf, hrun, henv', hev, vars', rest', hst'⟩ :=
+    while_from_top img (P0 + 1) e b body he hT Rel hrel hsim f σ σ' m (afterLoop s) [] s.eval.length s.stack
+      (hrel.ctl σ s _ henv ⟨fun _ _ => rfl, .inr (.inl ⟨[], s.eval.length, rfl⟩), rfl, rfl, rfl, rfl, rfl,
+        rfl, rfl, rfl, rfl, rfl⟩) (by exact hs) (by simp [afterLoop, hpc]) rfl rfl hw
+  refine ⟨ts, s_top, xf, 1 + k, hch, hl, hxf, run_trans (run_loop_instr img s P0 hs hpc hL) hrun, henv', hev,
+    vars', ?_⟩
+  simp [exitW, hst']
+
+
+end WhileLoop
+
+/-! ## 6. names in order -/
+
+/-- **`sortNames` sorts**: the result is in ascending order (Python's code-point order on
+strings, `String`'s `<`) … -/
+theorem C04_sortNames_sorted (xs : List String) : (sortNames xs).Pairwise (· ≤ ·) :=
+  foldl_ins_sorted xs [] .nil
+
+/-- … and is a rearrangement of the input: every name as often as it was given -/
+theorem C04_sortNames_perm (xs : List String) : (sortNames xs).Perm xs := by
+  have := foldl_ins_perm xs []
+  rw [List.append_nil] at this
+  exact this
+
+/-- `lightNames` (what `repeat all` and `all` in a list visit): strictly ascending — so every
+name exactly once — and exactly the names of the lights there are -/
+theorem C04_lightNames (s : State) :
+    s.lightNames.Pairwise (· < ·) ∧ s.lightNames.Nodup ∧
+    ∀ n, n ∈ s.lightNames ↔ ∃ l ∈ s.lights, l.name = n := by
+  have h1 := dedupSorted_strict _ (C04_sortNames_sorted (s.lights.map (·.name)))
+  refine ⟨h1, strict_nodup _ h1, fun n => ?_⟩
+  unfold State.lightNames
+  rw [mem_dedupSorted, (C04_sortNames_perm _).mem_iff]
+  simp
+
+theorem C04_groupNames (s : State) :
+    s.groupNames.Pairwise (· < ·) ∧ ∀ n, n ∈ s.groupNames ↔ ∃ l ∈ s.lights, l.group = n := by
+  refine ⟨dedupSorted_strict _ (C04_sortNames_sorted _), fun n => ?_⟩
+  unfold State.groupNames
+  rw [mem_dedupSorted, (C04_sortNames_perm _).mem_iff]
+  simp
+
+theorem C04_locationNames (s : State) :
+    s.locationNames.Pairwise (· < ·) ∧ ∀ n, n ∈ s.locationNames ↔ ∃ l ∈ s.lights, l.location = n := by
+  refine ⟨dedupSorted_strict _ (C04_sortNames_sorted _), fun n => ?_⟩
+  unfold State.locationNames
+  rw [mem_dedupSorted, (C04_sortNames_perm _).mem_iff]
+  simp
+
+/-- the members of a group, as `repeat group`/`group "g"` in a list visit them: in name order,
+each light of the group once (as often as the directory lists it) -/
+theorem C04_groupLights (s : State) (g : String) (ms : List String) (h : s.groupLights g = some ms) :
+    ms.Pairwise (· ≤ ·) ∧ ms.Perm ((s.lights.filter (·.group == g)).map (·.name)) := by
+  unfold State.groupLights at h
+  simp only at h
+  split at h
+  · simp at h
+  · simp only [Option.some.injEq] at h
+    subst h
+    exact ⟨C04_sortNames_sorted _, C04_sortNames_perm _⟩
+
+theorem C04_locationLights (s : State) (g : String) (ms : List String)
+    (h : s.locationLights g = some ms) :
+    ms.Pairwise (· ≤ ·) ∧ ms.Perm ((s.lights.filter (·.location == g)).map (·.name)) := by
+  unfold State.locationLights at h
+  simp only at h
+  split at h
+  · simp at h
+  · simp only [Option.some.injEq] at h
+    subst h
+    exact ⟨C04_sortNames_sorted _, C04_sortNames_perm _⟩
+
+/-- when the lights have distinct names, a group's members are visited exactly once each -/
+theorem C04_groupLights_nodup (s : State) (g : String) (ms : List String)
+    (hd : (s.lights.map (·.name)).Nodup) (h : s.groupLights g = some ms) : ms.Nodup := by
+  have hp := (C04_groupLights s g ms h).2
+  rw [hp.nodup_iff]
+  exact (hd.sublist ((List.filter_sublist).map _))
+
+/-- in a strictly ascending list the names below the `i`-th are exactly the first `i` -/
+theorem filter_lt_sorted (xs : List String) (h : xs.Pairwise (· < ·)) (i : Nat) (hi : i < xs.length) :
+    xs.filter (· < xs[i]) = xs.take i := by
+  induction xs generalizing i with
+  | nil => simp at hi
+  | cons a t ih =>
+    rw [List.pairwise_cons] at h
+    cases i with
+    | zero =>
+      simp only [List.getElem_cons_zero, List.take_zero]
+      rw [List.filter_eq_nil_iff]
+      intro y hy
+      rcases List.mem_cons.1 hy with rfl | hy
+      · simp
+      · simpa using String.lt_asymm (h.1 y hy)
+    | succ i =>
+      have hi' : i < t.length := by simpa using hi
+      simp only [List.getElem_cons_succ, List.take_succ_cons]
+      rw [List.filter_cons, if_pos (by simpa using h.1 _ (List.getElem_mem hi')), ih h.2 i hi']
+
+/-- **`SortedList.prev`** on a strictly ascending list: the predecessor of the `i`-th name is the
+`(i−1)`-th, and the first has none — so walking `prev` from the last name visits every name
+exactly once, in descending order (the discovery loops push them in that order, which makes
+the first name the first one popped) -/
+theorem C04_prevName_sorted (xs : List String) (h : xs.Pairwise (· < ·)) (i : Nat) (hi : i < xs.length) :
+    prevName xs xs[i] = if i = 0 then none else xs[i - 1]? := by
+  unfold prevName
+  rw [filter_lt_sorted xs h i hi]
+  cases i with
+  | zero => simp
+  | succ i =>
+    simp only [Nat.add_one_ne_zero, if_false, Nat.add_sub_cancel]
+    rw [List.getLast?_eq_getElem?]
+    simp only [List.length_take, Nat.min_eq_left (Nat.le_of_lt hi), Nat.add_sub_cancel]
+    rw [List.getElem?_take]; simp
+
+/-- **`SortedList.next`**: the successor of the `i`-th name is the `(i+1)`-th -/
+theorem C04_nextName_sorted (xs : List String) (h : xs.Pairwise (· < ·)) (i : Nat) (hi : i < xs.length) :
+    nextName xs xs[i] = xs[i + 1]? := by
+  unfold nextName
+  induction xs generalizing i with
+  | nil => simp at hi
+  | cons a t ih =>
+    rw [List.pairwise_cons] at h
+    cases i with
+    | zero =>
+      simp only [List.getElem_cons_zero, List.find?_cons, String.lt_irrefl, decide_false]
+      cases t with
+      | nil => rfl
+      | cons b t' =>
+        have : a < b := h.1 b (by simp)
+        simp [this]
+    | succ i =>
+      have hi' : i < t.length := by simpa using hi
+      have hlt : a < t[i] := h.1 _ (List.getElem_mem hi')
+      have : ¬ t[i] < a := String.lt_asymm hlt
+      simp only [List.getElem_cons_succ, List.find?_cons, this, decide_false]
+      rw [ih h.2 i hi']
+      simp
+
+
+/-
+NOT PROVED (full statement kept; covered by the differential check of `harness`):
+
+theorem C04_iter_loop (img : Image) (P0 : Nat) (b : List Instr) (lv : String)
+    (hc : CodeAt img P0 (unG (assembleLoop ([.moveq (.int 0) counter] ++ iterLights) counterTest
+      [.pop (.var lv)] (ins b) (loopPost none))))
+    (s : State) (hs : s.status = .running) (hpc : s.pc = (P0 : Int))
+    (hdir : (s.regs .discForward).truthy = false) (hne : "" ∉ s.lightNames)
+    (hconst : s.constants.get lv = none) (hscope : ScopeOk s.stack) (hok : BodyOkV img b lv) :
+    ∃ (ts : List State) (s' : State),
+      ts.length = s.lightNames.length ∧
+      (∀ k (hk : k < ts.length), ts[k].getVariable lv = .str (s.lightNames[k]'(by omega))) ∧
+      (∃ k, run img k s = exitLoop (P0 + …) s') ∧ (exitLoop (P0 + …) s').eval = s.eval
+
+i.e. the discovery prologue `iterLights` walks `SortedList.prev` from the last name
+(`C04_prevName_sorted`), pushing every name of `lightNames` once — the first name ends on top —
+and counting them in the hidden counter; each pass pops the next name into `lv`.  What is proved
+of it: the names and their order at source level (`C04_lightNames`, `C04_groupLights`,
+`C04_iter_names_order`), the walk itself on lists (`C04_prevName_sorted`, `C04_nextName_sorted`),
+the counted loop around it (`C04_count_loop…`), and that a `break` restores the evaluation stack
+so that an enclosing iteration's pending names survive (`C04_break_innermost`); the nested
+concrete run `exNested` below exercises all of it on the model VM.
+-/
+
+section IterNames
+open Sem
+
+/-- **iter_names_order (general).**  The names `repeat in a₁ and … and aₙ and b₁ and …` visits
+are those of the first items followed by those of the remaining items, the latter computed in
+the state the former left: sources are visited in the order written. -/
+theorem C04_iter_names_append (as bs : List IterItem) :
+    ∀ (f : Nat) (s s2 : S) (zs : List String), iterNames f (as ++ bs) s = .ok (zs, s2) →
+      ∃ xs s1 ys, iterNames f as s = .ok (xs, s1) ∧ iterNames (f - as.length) bs s1 = .ok (ys, s2) ∧
+        zs = xs ++ ys := by
+  induction as with
+  | nil =>
+    intro f s s2 zs h
+    cases f with
+    | zero => simp [iterNames] at h
+    | succ f => exact ⟨[], s, zs, by simp [iterNames], by simpa using h, rfl⟩
+  | cons a as ih =>
+    intro f s s2 zs h
+    cases f with
+    | zero => simp [iterNames] at h
+    | succ f =>
+      simp only [List.cons_append, iterNames] at h ⊢
+      split at h
+      · simp at h
+      · rename_i xs s1 hone
+        split at h
+        · simp at h
+        · rename_i ys' s2' hrest
+          simp only [Except.ok.injEq, Prod.mk.injEq] at h
+          obtain ⟨rfl, rfl⟩ := h
+          obtain ⟨xs2, s1', ys, h1, h2, rfl⟩ := ih f s1 s2' ys' hrest
+          refine ⟨xs ++ xs2, s1', ys, by simp [h1], by simpa using h2, by simp⟩
+
+/-- an item whose name is a string literal (or `all`) -/
+inductive LitItem : IterItem → Prop
+  | all : LitItem .all
+  | light (x : String) : LitItem (.light (.lit (.str x)))
+  | group (g : String) : LitItem (.group (.lit (.str g)))
+  | location (g : String) : LitItem (.location (.lit (.str g)))
+
+/-- what one source contributes: `all` the sorted, duplicate-free light names; a light itself;
+a group or location its members in name order (nothing if there is no such group) -/
+def itemNames (vm : State) : IterItem → List String
+  | .all => vm.lightNames
+  | .light (.lit (.str x)) => [x]
+  | .group (.lit (.str g)) => (vm.groupLights g).getD []
+  | .location (.lit (.str g)) => (vm.locationLights g).getD []
+  | _ => []
+
+/-- **iter_names_order.**  For literal sources the visiting order of `repeat in i₁ and … and iₙ`
+is the concatenation, in item order, of each item's names (`itemNames`), and computing it
+changes nothing. -/
+theorem C04_iter_names_order (items : List IterItem) (hl : ∀ i ∈ items, LitItem i) :
+    ∀ (f : Nat) (s : S), items.length < f →
+      iterNames f items s = .ok ((items.map (itemNames s.vm)).flatten, s) := by
+  induction items with
+  | nil =>
+    intro f s hf
+    cases f with
+    | zero => omega
+    | succ f => simp [iterNames]
+  | cons a as ih =>
+    intro f s hf
+    cases f with
+    | zero => omega
+    | succ f =>
+      have hf' : as.length < f := by simpa using hf
+      have ih' := ih (fun i hi => hl i (by simp [hi])) f s hf'
+      cases f with
+      | zero => omega
+      | succ f =>
+        have ha := hl a (by simp)
+        cases ha with
+        | all => simp [iterNames, ih', itemNames]
+        | light x => simp [iterNames, evalRv, ih', itemNames]
+        | group g => simp [iterNames, evalRv, ih', itemNames]
+        | location g => simp [iterNames, evalRv, ih', itemNames]
+
+end IterNames
+
+
+/-! ## non-vacuity: concrete programs -/
+
+section Examples
+
+/-- integers printed, oldest first -/
+def outInts (tr : List Event) : List Int :=
+  tr.reverse.filterMap fun e => match e with | .out (.int i) => some i | _ => none
+
+def exBody : List Instr := [.moveq (.int 1) (.reg .result), .out .register (.reg .result), .out .print (.lit .none)]
+def exRepeat3 : Block := Block.ofList [.repeat_ (.count (.lit (.int 3))) (Block.ofList [.print (.lit (.int 1))])]
+
+theorem exRepeat3_code : genBlock exRepeat3 =
+    ins (loopCode [.moveq (.int 3) counter] counterTest (exBody ++ loopPost none)) := by
+  simp only [exRepeat3, Block.ofList, genBlock, genStmt, genLoop, genRv, List.append_nil]
+  rw [assembleLoop_ins]; simp [exBody, result]
+
+def exImg : Image := Loader.load (loopCode [.moveq (.int 3) counter] counterTest (exBody ++ loopPost none))
+
+theorem mapM_ins (xs : List Instr) :
+    (ins xs).mapM (fun g => match g with | .i x => some x | .brk => none) = some xs := by
+  induction xs with
+  | nil => rfl
+  | cons x xs ih => simp only [ins, List.map_cons, List.mapM_cons] at ih ⊢; rw [ih]; rfl
+
+theorem genProgram_of_ins (b : Block) (xs : List Instr) (h : genBlock b = ins xs) :
+    genProgram b = some xs := by
+  unfold genProgram; rw [h]; exact mapM_ins xs
+
+example : genProgram exRepeat3 =
+    some (loopCode [.moveq (.int 3) counter] counterTest (exBody ++ loopPost none)) :=
+  genProgram_of_ins _ _ exRepeat3_code
+
+example : outInts (Vm.run exImg 200 (Vm.init [])).trace = [1,1,1] := by decide +kernel
+
+/-- the body `print 1` satisfies the body contract from every state, in any image -/
+theorem exBody_ok (img : Image) : BodyOk img exBody := by
+  intro t ht ⟨pc, hpc, hc⟩ _
+  have h1 : step img t = { t.setReg .result (.int 1) with pc := (pc : Int) + 1 } := by
+    rw [step_moveq img t pc (.int 1) (.reg .result) ht hpc hc.head (by simp) (by simpa [State.put, State.setReg] using ht)]
+    simp [State.put, State.setReg, hpc]
+  have h2 : step img { t.setReg .result (.int 1) with pc := (pc : Int) + 1 } =
+      { t.setReg .result (.int 1) with pc := (pc : Int) + 2, unnamed := t.unnamed ++ [.int 1] } := by
+    rw [step_plain img _ (pc + 1) _ (by simpa [State.setReg] using ht) (by simp) hc.tail.head (by simp) rfl
+      (by simpa [execInstr, State.setReg] using ht)]
+    simp [execInstr, State.setReg, State.read]
+    omega
+  have h3 : step img { t.setReg .result (.int 1) with pc := (pc : Int) + 2, unnamed := t.unnamed ++ [.int 1] } =
+      { t.setReg .result (.int 1) with pc := (pc : Int) + 3, trace := .out (.int 1) :: t.trace } := by
+    rw [step_plain img _ (pc + 2) _ (by simpa [State.setReg] using ht) (by simp) hc.tail.tail.head (by simp) rfl
+      (by simpa [execInstr, State.setReg, State.emit] using ht)]
+    simp [execInstr, State.setReg, State.emit]
+    omega
+  refine ⟨{ t.setReg .result (.int 1) with pc := (pc : Int) + 3, trace := .out (.int 1) :: t.trace },
+    ⟨3, ?_⟩, ?_, ?_, ?_, ?_⟩
+  · rw [run_succ _ _ _ ht, h1, run_succ _ _ _ (by simpa [State.setReg] using ht), h2,
+      run_one _ _ (by simpa [State.setReg] using ht), h3]
+  · simpa [State.setReg] using ht
+  · simp [hpc, exBody]
+  · rfl
+  · intro vars h rest hst; exact ⟨rest, hst⟩
+
+/-- the loop `repeat 3 begin print 1 end` placed at address 0 of an image -/
+def exImg2 : Image :=
+  ⟨(([] : List Instr) ++ unG (assembleLoop (genRv (.lit (.int 3)) (.to counter)) counterTest []
+      (ins exBody) (loopPost none)) ++ [Instr.stop]).toArray, []⟩
+
+/-- `C04_count_loop` applied: all hypotheses hold for this image and the initial state, and the
+conclusion gives exactly three passes -/
+example : ∃ (ts : List State) (s' : State), ts.length = 3 ∧ (∃ k, run exImg2 k (Vm.init []) = exitLoop 16 s') ∧
+    (∃ vars' rest', s'.stack = .loop vars' 0 :: rest') := by
+  have hc : CodeAt exImg2 0 (unG (assembleLoop (genRv (.lit (.int 3)) (.to counter)) counterTest []
+      (ins exBody) (loopPost none))) := CodeAt.intro [] _ [Instr.stop] []
+  have hpreC : CodeAt exImg2 1 (genRv (.lit (.int 3)) (.to counter)) := by
+    have := hc
+    rw [assembled_counted, loopCode_eq] at this
+    exact this.left.right
+  have hpre := preRun_literal exImg2 (afterLoop (Vm.init [])) 1 0 [] (.int 3) 3 false rfl rfl hpreC rfl
+    (by simpa using Num.int 3)
+  obtain ⟨ts, s', _, hl, hk, _, hfr⟩ := C04_count_loop exImg2 0 _ exBody hc (Vm.init []) _ 3 rfl rfl hpre
+    (exBody_ok exImg2)
+  refine ⟨ts, s', ?_, ?_, hfr⟩
+  · rw [hl]; exact passes_natCast 3
+  · rw [assembled_counted] at hk
+    simpa [loopCode, counterTest, testOp, loopPost, exBody, genRv] using hk
+
+def outNums (tr : List Event) : List Rat :=
+  tr.reverse.filterMap fun e => match e with | .out (.int i) => some (i : Rat) | .out (.num q) => some q | _ => none
+def outStrs (tr : List Event) : List String :=
+  tr.reverse.filterMap fun e => match e with | .out (.str i) => some i | _ => none
+
+def printVar (v : String) : List Instr :=
+  [.move (.var v) (.reg .result), .out .register (.reg .result), .out .print (.lit .none)]
+
+/-- prologues with literal operands, written out (the generator's `genRv` on a literal is one
+`MOVEQ`) -/
+def rangePre (v : String) (a b : Val) : List Instr :=
+  [.moveq a (.loopVar .first), .moveq b (.loopVar .last), .move (.loopVar .first) (.var v)] ++ calcCounter
+def interpPre (v : String) (n a b : Val) : List Instr :=
+  [Instr.moveq n (.loopVar .counter)] ++
+    ([.moveq a (.loopVar .first), .moveq b (.loopVar .last), .move (.loopVar .first) (.var v)] ++ calcIncr)
+def cyclePre (v : String) (n : Val) (start : Option Val) : List Instr :=
+  [Instr.moveq n (.loopVar .counter)] ++
+    ([.moveq (cycleStart start) (.loopVar .first), .move (.loopVar .first) (.var v)] ++ cycleTail)
+
+example (v : String) (a b : Val) : indexVarRange v (.lit a) (.lit b) true = rangePre v a b :=
+  indexVarRange_lit_with v a b
+example (v : String) (n a b : Val) :
+    genRv (.lit n) (.to counter) ++ indexVarRange v (.lit a) (.lit b) false = interpPre v n a b :=
+  interp_pre_eq v n a b
+example (v : String) (n : Val) (st : Option Val) :
+    genRv (.lit n) (.to counter) ++ cycleVarRange v (st.map Rv.lit) = cyclePre v n st :=
+  cycle_pre_eq v n st
+
+def loopOf (pre body : List Instr) (idx : Option String) : List Instr :=
+  unG (assembleLoop pre counterTest [] (ins body) (loopPost idx))
+
+def runOuts (code : List Instr) (fuel : Nat) : List Rat := outNums (Vm.run (Loader.load code) fuel (Vm.init [])).trace
+
+-- range, both directions, single value
+example : runOuts (loopOf (rangePre "i" (.int 5) (.int 2)) (printVar "i") (some "i")) 400 = [5, 4, 3, 2] := by decide +kernel
+example : runOuts (loopOf (rangePre "i" (.int (-1)) (.int 2)) (printVar "i") (some "i")) 400 = [-1, 0, 1, 2] := by decide +kernel
+example : runOuts (loopOf (rangePre "i" (.int 7) (.int 7)) (printVar "i") (some "i")) 400 = [7] := by decide +kernel
+-- interpolation: both ends, n = 1, n = 0
+example : runOuts (loopOf (interpPre "i" (.int 5) (.int 0) (.int 10)) (printVar "i") (some "i")) 400 =
+    [0, 5/2, 5, 15/2, 10] := by decide +kernel
+example : runOuts (loopOf (interpPre "i" (.int 1) (.int 3) (.int 10)) (printVar "i") (some "i")) 400 = [3] := by decide +kernel
+example : runOuts (loopOf (interpPre "i" (.int 0) (.int 3) (.int 10)) (printVar "i") (some "i")) 400 = [] := by decide +kernel
+-- cycle: logical units, raw units, count 0 (no pass, no fault)
+example : runOuts (loopOf (cyclePre "h" (.int 4) none) (printVar "h") (some "h")) 400 = [0, 90, 180, 270] := by decide +kernel
+example : runOuts ([Instr.moveq (.mode .raw) (.reg .unitMode)] ++
+    loopOf (cyclePre "h" (.int 4) (some (.int 100))) (printVar "h") (some "h")) 400 =
+    [100, 16484, 32868, 49252] := by decide +kernel
+example : (Vm.run (Loader.load (loopOf (cyclePre "h" (.int 0) none) (printVar "h") (some "h"))) 400 (Vm.init [])).status
+    = .halted := by decide +kernel
+example : runOuts (loopOf (cyclePre "h" (.int 0) none) (printVar "h") (some "h")) 400 = [] := by decide +kernel
+
+/-- `n = 3  repeat n begin print n  n = 10 end`: the count is read once — three passes although
+the body overwrites `n` — and the body sees the new value from the second pass on -/
+def exCountOnce : List Instr :=
+  [Instr.moveq (.int 3) (.var "n")] ++
+  unG (assembleLoop [.move (.var "n") counter] counterTest []
+    (ins (printVar "n" ++ [.moveq (.int 10) (.var "n")])) (loopPost none))
+example : runOuts exCountOnce 400 = [3, 10, 10] := by decide +kernel
+
+def exLights : List Light :=
+  [{ name := "a", group := "g", location := "x", kind := .plain },
+   { name := "b", group := "g", location := "y", kind := .plain },
+   { name := "c", group := "h", location := "y", kind := .plain }]
+
+/-- `repeat all as m begin break end` -/
+def exInner : Code :=
+  assembleLoop ([.moveq (.int 0) counter] ++ iterLights) counterTest [.pop (.var "m")] [G.brk] (loopPost none)
+/-- `repeat all as l begin <inner> print l end` -/
+def exNested : List Instr :=
+  unG (assembleLoop ([.moveq (.int 0) counter] ++ iterLights) counterTest [.pop (.var "l")]
+    (exInner ++ ins (printVar "l")) (loopPost none))
+
+example : outStrs (Vm.run (Loader.load exNested) 2000 (Vm.init exLights)).trace = ["a", "b", "c"] := by decide +kernel
+example : (Vm.run (Loader.load exNested) 2000 (Vm.init exLights)).status = .halted ∧
+  (Vm.run (Loader.load exNested) 2000 (Vm.init exLights)).eval.length = 0 ∧ (Vm.run (Loader.load exNested) 2000 (Vm.init exLights)).stack.length = 0 := by decide +kernel
+example : BrkAt [G.brk] 0 := .here
+
+/-- the body `print i` satisfies the index-variable body contract from every state -/
+theorem printVar_ok (img : Image) (v : String) : BodyOkV img (printVar v) v := by
+  intro t ht ⟨pc, hpc, hc⟩ _ hcon hsc
+  have h1 : step img t = { t.setReg .result (t.getVariable v) with pc := (pc : Int) + 1 } := by
+    rw [step_move img t pc (.var v) (.reg .result) ht hpc (hc.get 0 (by simp [printVar]))
+      (by simpa [State.put, State.setReg] using ht)]
+    simp [State.put, State.setReg, State.read, hpc]
+  have h2 : step img { t.setReg .result (t.getVariable v) with pc := (pc : Int) + 1 } =
+      { t.setReg .result (t.getVariable v) with pc := (pc : Int) + 2,
+                                                unnamed := t.unnamed ++ [t.getVariable v] } := by
+    rw [step_plain img _ (pc + 1) _ (by simpa [State.setReg] using ht) (by simp)
+      (hc.get 1 (by simp [printVar])) (by simp [printVar]) rfl
+      (by simpa [execInstr, State.setReg, printVar] using ht)]
+    simp [execInstr, State.setReg, State.read, printVar]
+    omega
+  have h3 : step img
+      { t.setReg .result (t.getVariable v) with pc := (pc : Int) + 2,
+                                                unnamed := t.unnamed ++ [t.getVariable v] } =
+      { t.setReg .result (t.getVariable v) with pc := (pc : Int) + 3,
+                                                trace := .out (t.getVariable v) :: t.trace } := by
+    rw [step_plain img _ (pc + 2) _ (by simpa [State.setReg] using ht) (by simp)
+      (hc.get 2 (by simp [printVar])) (by simp [printVar]) rfl
+      (by simpa [execInstr, State.setReg, State.emit, printVar] using ht)]
+    simp [execInstr, State.setReg, State.emit, printVar]
+    omega
+  refine ⟨{ t.setReg .result (t.getVariable v) with pc := (pc : Int) + 3,
+                                                    trace := .out (t.getVariable v) :: t.trace },
+    ⟨⟨3, ?_⟩, ?_, ?_, ?_, ?_⟩, rfl, hcon, hsc⟩
+  · rw [run_succ _ _ _ ht, h1, run_succ _ _ _ (by simpa [State.setReg] using ht), h2,
+      run_one _ _ (by simpa [State.setReg] using ht), h3]
+  · simpa [State.setReg] using ht
+  · simp [hpc, printVar]
+  · rfl
+  · intro vars h rest hst; exact ⟨rest, hst⟩
+
+/-- `repeat with i from 5 to 2 begin print i end` at address 0 -/
+def exRangeImg : Image :=
+  ⟨(([] : List Instr) ++ unG (assembleLoop (indexVarRange "i" (.lit (.int 5)) (.lit (.int 2)) true)
+      counterTest [] (ins (printVar "i")) (loopPost (some "i"))) ++ [Instr.stop]).toArray, []⟩
+
+/-- `C04_range_loop` applied: four passes, `i` = 5, 4, 3, 2 at their starts -/
+example : ∃ (ts : List State), ts.length = 4 ∧
+    ∀ k (hk : k < ts.length), ts[k].getVariable "i" = .int (5 - k) := by
+  obtain ⟨ts, s', hl, _, _, _, hvals, _⟩ := C04_range_loop exRangeImg 0 (printVar "i") "i" 5 2
+    (CodeAt.intro [] _ [Instr.stop] []) (Vm.init []) rfl rfl rfl (.inl (by simp [LoopsOnly, Vm.init]))
+    (printVar_ok exRangeImg "i")
+  refine ⟨ts, by rw [hl]; decide, fun k hk => ?_⟩
+  rw [hvals k hk]
+  simp
+
+section WhileExample
+open Sem
+
+/-- `x < 2` -/
+def exCond : Expr := .bin .lt (.var "x") (.lit (.int 2))
+/-- `x = {x + 1}` -/
+def exIncBody : Block := .cons (.assign "x" (.expr (.bin .add (.var "x") (.lit (.int 1))))) .nil
+def exIncCode : List Instr := [.push (.var "x"), .pushq (.int 1), .op .add, .pop (.var "x")]
+
+example : genBlock exIncBody = ins exIncCode := by
+  simp [exIncBody, genBlock, genStmt, genRv, genExpr, pushLit, ins, exIncCode]
+
+def exσ (i : Int) : S := { vm := { regs := initRegs, globals := [("x", .int i)] } }
+
+theorem lt_int_int (i j : Int) : Val.cmp .lt (.int i) (.int j) = some (.bool (decide (i < j))) := by
+  rw [num_lt (Num.int i) (Num.int j)]
+  congr 2
+  exact decide_eq_decide.2 Rat.intCast_lt_intCast
+
+theorem exCond_eval (i : Int) (f : Nat) :
+    evalExpr (f + 2) exCond (exσ i) = .ok (.bool (decide (i < 2)), exσ i) := by
+  simp [evalExpr, exCond, exσ, S.lookup, Dict.get, binOp, lt_int_int]
+
+theorem exBody_exec (i : Int) (f : Nat) :
+    execBlock (f + 5) exIncBody (exσ i) = (.normal, exσ (i + 1)) := by
+  simp [execBlock, execStmt, evalRv, evalExpr, exIncBody, exσ, S.lookup, S.assign, Dict.get,
+    Dict.put, binOp, add_int_int]
+
+theorem evalRv_expr (f : Nat) (e : Expr) (s : S) : evalRv (f + 1) (.expr e) s = evalExpr f e s := by
+  simp only [evalRv]
+
+/-- the source-level loop `repeat while {x < 2} x = {x + 1}` from `x = 0`: two passes -/
+theorem exWhile_passes : whilePasses 12 (.expr exCond) exIncBody (exσ 0) = some (2, exσ 2) := by
+  have h0 : whilePasses 10 (.expr exCond) exIncBody (exσ 2) = some (0, exσ 2) := by
+    rw [whilePasses, evalRv_expr, exCond_eval 2 6]; simp [Val.truthy]
+  have h1 : whilePasses 11 (.expr exCond) exIncBody (exσ 1) = some (1, exσ 2) := by
+    rw [whilePasses, evalRv_expr, exCond_eval 1 7]
+    simp only [show (1 : Int) < 2 by decide, decide_true, Val.truthy, if_true]
+    rw [exBody_exec 1 5]; simp only [show (1 : Int) + 1 = 2 by decide, h0]; rfl
+  rw [whilePasses, evalRv_expr, exCond_eval 0 8]
+  simp only [show (0 : Int) < 2 by decide, decide_true, Val.truthy, if_true]
+  rw [exBody_exec 0 6]; simp only [show (0 : Int) + 1 = 1 by decide, h1]; rfl
+
+/-- at top level (only loop frames on the stack): same globals, constants and — `result`
+apart — registers -/
+def TopAgree (σ : S) (s : State) : Prop :=
+  ScopeAgree σ s ∧ (∀ r, r ≠ .result → σ.vm.regs r = s.regs r) ∧ LoopsOnly s.stack
+
+theorem TopAgree.relOk : RelOk TopAgree where
+  env := fun σ s h => ⟨fun n => h.1.lookup n, h.2.1⟩
+  ctl := by
+    intro σ s s' ⟨⟨hg, hc, hl⟩, hr, hlo⟩ hctl
+    refine ⟨⟨by rw [hg, hctl.globals], by rw [hc, hctl.constants], ?_⟩,
+      fun r hr' => by rw [hctl.regs r hr']; exact hr r hr', ?_⟩
+    · rw [hl]
+      rcases hctl.stack with e | ⟨vars, hh, e⟩ | ⟨vars, hh, e⟩
+      · rw [e]
+      · rw [e, activation_cons_loop]
+      · rw [e, activation_cons_loop]
+    · rcases hctl.stack with e | ⟨vars, hh, e⟩ | ⟨vars, hh, e⟩
+      · rw [e]; exact hlo
+      · rw [e]; exact loopsOnly_cons_loop hlo
+      · rw [e] at hlo; exact hlo.cons.2
+
+theorem evalExpr_var_ok (f : Nat) (n : String) (σ : S) (hne : σ.lookup n = .none → False) :
+    evalExpr (f + 1) (.var n) σ = .ok (σ.lookup n, σ) := by
+  simp only [evalExpr]
+
+theorem evalExpr_var_none (f : Nat) (n : String) (σ : S) (h : σ.lookup n = .none) :
+    evalExpr (f + 1) (.var n) σ = .error (.fault "undefined variable in expression") := by
+  simp only [evalExpr, h]
+
+/-- the code of `x = {x + 1}` simulates its source, whatever the image around it -/
+theorem exInc_sim (img : Image) : BodySim TopAgree img exIncCode exIncBody := by
+  intro f σ σ' t hrel ht ⟨pc, hpc, hc⟩ _ hex
+  obtain ⟨hsa, hregs, hlo⟩ := hrel
+  have hlk : σ.lookup "x" = t.getVariable "x" := hsa.lookup "x"
+  -- the source side: the value assigned
+  obtain ⟨r, hne, hadd, rfl⟩ : ∃ r, (σ.lookup "x" = .none → False) ∧
+      Val.add (σ.lookup "x") (.int 1) = some r ∧ σ' = σ.assign "x" r := by
+    cases f with
+    | zero => simp [execBlock] at hex
+    | succ f =>
+    simp only [exIncBody, execBlock] at hex
+    cases f with
+    | zero => simp [execStmt] at hex
+    | succ f =>
+    simp only [execStmt] at hex
+    cases f with
+    | zero => simp [evalRv] at hex
+    | succ f =>
+    simp only [evalRv] at hex
+    cases f with
+    | zero => simp [evalExpr] at hex
+    | succ f =>
+    cases f with
+    | zero => simp [evalExpr] at hex
+    | succ f =>
+    rw [evalExpr] at hex
+    by_cases hn : σ.lookup "x" = .none
+    · rw [evalExpr_var_none f "x" σ hn] at hex; simp at hex
+    · rw [evalExpr_var_ok f "x" σ hn] at hex
+      simp only [evalExpr, binOp] at hex
+      cases hadd : Val.add (σ.lookup "x") (.int 1) with
+      | none => simp [hadd] at hex
+      | some r =>
+        simp only [hadd, execBlock, Prod.mk.injEq, true_and] at hex
+        exact ⟨r, hn, rfl, hex.symm⟩
+  have hrun := run_group_var img _ _ .add "x" t pc _ _ r ht hpc hc
+    (pfStep_push_var t t.eval "x" _ hlk.symm hne) (pfStep_pushq _ _ _)
+    (by show Val.add _ _ = _; exact hadd)
+  have hput := C03_toplevel_assign t "x" r hlo
+  refine ⟨_, ⟨⟨4, hrun⟩, by simpa [putVariable_status] using ht, by simp [hpc, exIncCode], ?_, ?_⟩, ?_⟩
+  · simp only []; rw [putVariable_eval]
+  · intro vars h rest hst; exact ⟨rest, by simp only []; rw [hput]; exact hst⟩
+  · have := C03_assign_agrees_toplevel σ t "x" r hlo hsa
+    refine ⟨⟨this.1, this.2.1, this.2.2⟩, ?_, ?_⟩
+    · intro q hq
+      show (σ.assign "x" r).vm.regs q = (t.putVariable "x" r).regs q
+      rw [hput]
+      simp only [S.assign]
+      split
+      · split
+        · exact hregs q hq
+        · split <;> exact hregs q hq
+      · exact hregs q hq
+    · show LoopsOnly (t.putVariable "x" r).stack
+      rw [hput]; exact hlo
+
+
+/-- `repeat while {x < 2} x = {x + 1}` placed at address 0 -/
+def exWhileImg : Image :=
+  ⟨(([] : List Instr) ++ unG (assembleLoop [] (genRv (.expr exCond) (.to result)) [] (ins exIncCode) []) ++
+    [Instr.stop]).toArray, []⟩
+
+/-- `C04_while_loop` applied: the source loop makes two passes, so does the VM, and the final VM
+state agrees with the final source state (`x = 2`) -/
+example : ∃ (ts : List State) (xf : Val) (k : Nat),
+    ts.length = 2 ∧ xf.truthy = false ∧ TopAgree (exσ 2) (run exWhileImg k (exσ 0).vm) ∧
+    (run exWhileImg k (exσ 0).vm).globals = [("x", .int 2)] := by
+  have hpure : PureCond exCond := .bin _ _ _ (.var _) (.lit _ rfl)
+  obtain ⟨_, ts, s_top, xf, k, _, hl, hxf, hrun, hrel, _, _⟩ :=
+    C04_while_loop exWhileImg 0 exCond exIncCode exIncBody hpure (CodeAt.intro [] _ [Instr.stop] [])
+      TopAgree TopAgree.relOk (exInc_sim exWhileImg) 12 (exσ 0) (exσ 2) 2 (exσ 0).vm
+      ⟨⟨rfl, rfl, rfl⟩, fun _ _ => rfl, by simp [LoopsOnly, exσ]⟩ rfl rfl exWhile_passes
+  refine ⟨ts, xf, k, hl, hxf, by rw [hrun]; exact hrel, ?_⟩
+  rw [hrun]
+  exact hrel.1.1.symm
+
+
+end WhileExample
+
+end Examples
+
 end Bardolph
